@@ -25,8 +25,21 @@ timed semantics (any interleaving, any delivery instants in `(sent + lo, sent + 
   has passed `E + σ + hi` the cluster is `PoisedP` for round `ρ + 1` with the same prepared states,
   the skew preserved and one more message per source.
 
-The stages after the PRE-PREPARE (PREPARE / COMMIT over buffers that hold earlier rounds, with
-overlapping phases) are NOT redone here: see the header of `Props/C04TimedPrepared.lean`.
+Second part of the file (after `stuck_poised`): the stages after the PRE-PREPARE.
+* `TP.*` — the member lemmas and the cluster invariant of `Proofs/QbftTimed.lean` (`Shape`, `Act`,
+  `Pend`, `Fx`, `MemInv`, `RInv`, `rinv_act/tick/fire/deliver/step`, `live`, `good_exec`) re-done for
+  members that hold arbitrary earlier-round messages (`Rd.pre`), ROUND-CHANGEs with certificates
+  (`Rd.rc`, `RcOk`) and a PRE-PREPARE with a J1/J2 justification (`JOk`); the copy differs from the
+  original in `Shape.old/rc/pp`, `count_kind'`, `locHyp_of`, the ROUND-CHANGE branch of
+  `rinv_deliver` and in `act_recv_rc`, which rests on `qrc_some_any`: the leader-side selection
+  `getJustifiedQrc` succeeds on every buffer of the round, so a ROUND-CHANGE that arrives after the
+  proposal is only buffered; `tail_any_order` / `tail_decides`: the member-level statement;
+* `S1H`, `s1h_exec` — the ROUND-CHANGE stage with the history variables tracked; `rc_fire_detail`,
+  `jok_of_qrc` — the firing step and the form of the justification; `s1_rinv`, `fire_rinv` — the stage
+  satisfies `TP.RInv` for every value, the firing delivery for the value proposed;
+* `texec_sameSem`, `resetHist` — `rcvd` / `log` are not read by the semantics;
+* `good_round_any` (`GoodRoundP`), `rot_prepared_decides` (`RotP`) — the complete good round and the
+  rotation.
 -/
 import CharonV.Proofs.QbftTimed
 import CharonV.Proofs.QbftPrepared
@@ -79,11 +92,15 @@ delivered (in this order) on top of `old p`, its round-`ρ` timer armed at its e
 inductive PMem (P : TParams) (timeout : Nat → Nat) (X : PRd) (C : Nat → NodeState)
     (old : Nat → List Msg) (now p : Nat) (nd : TNode) (T : List Nat) : Prop where
   | pend (e : Nat) : Wait (X.ρ - 1) p (old p) (C p) nd.st → T = [] → nd.timer = some e →
-      X.E ≤ e → e ≤ X.E + X.σ → now ≤ e → Quiet nd.outs → PMem P timeout X C old now p nd T
+      X.E ≤ e → e ≤ X.E + X.σ → now ≤ e → Quiet nd.outs →
+      (∀ r, X.ρ ≤ r → RoundTimer.lookup r nd.firsts = none) → PMem P timeout X C old now p nd T
   | act (dl : Nat) : InvR' P.d X.ρ (C p).inputValue p (rcsOf X.ρ C) (old p) (C p) T nd.st →
       nd.st.timerOn = true → Quiet nd.outs → X.E ≤ now → nd.timer = some dl →
       X.E + timeout X.ρ ≤ dl → dl ≤ X.E + X.σ + timeout X.ρ → now ≤ dl →
-      (X.l = p → T.length < P.d.quorum) → PMem P timeout X C old now p nd T
+      (X.l = p → T.length < P.d.quorum) →
+      ((∃ fd, RoundTimer.lookup X.ρ nd.firsts = some fd ∧ X.E + timeout X.ρ ≤ fd) ∧
+        ∀ r, X.ρ < r → RoundTimer.lookup r nd.firsts = none) →
+      (uJustifiedDecided, X.ρ) ∉ nd.st.dedup → PMem P timeout X C old now p nd T
 
 /-- the member has entered the round. -/
 def enteredB (ρ : Nat) (nd : TNode) : Bool := nd.st.round == ρ
@@ -139,7 +156,7 @@ theorem rc_timerOn {d : Def} {r : Nat} {rcOf : Nat → Msg} {R0 : List Nat} {old
     {s : NodeState} {o : Oracle} (hpre : ∃ U, (T ++ [a]) ++ U = R0)
     (hinv : InvR' d r iv p rcOf old s0 T s)
     (hnf : ¬ (d.leader r = p ∧ T.length + 1 = d.quorum)) :
-    (step d o s (.recv (rcOf a) .ok)).1.timerOn = s.timerOn := by
+    step d o s (.recv (rcOf a) .ok) = ({ s with buffer := bufferMsg d.fifo s.buffer (rcOf a) }, []) := by
   obtain ⟨hm, hb, h1, h2, h3, hcache, hin, hp3, hdd⟩ := hinv
   have hnd := nodup_of_prefix hc.nodup hpre
   obtain ⟨U, hU⟩ := hpre
@@ -171,7 +188,7 @@ theorem rc_timerOn {d : Def} {r : Nat} {rcOf : Nat → Msg} {R0 : List Nat} {old
   have hj := hrca.justified hq1 s.compareFailureRound
   have hlen : (T ++ [a]).length = T.length + 1 := by simp
   by_cases hlt : T.length + 1 < d.quorum
-  · rw [step_rc_below hm.dead hm.started hm.qc hj hrca.typ (by rw [hrca.round, hm.round]) (by omega)]
+  · exact step_rc_below hm.dead hm.started hm.qc hj hrca.typ (by rw [hrca.round, hm.round]) (by omega)
   · obtain ⟨J, hJ⟩ := hc.qrc_some (ord := o.srcOrd) hT' hnd hbuf (by rw [hlen]; omega) o.pqPerm
     have hJ' : getJustifiedQrc d o.pqPerm (flatten o.srcOrd (bufferMsg d.fifo s.buffer (rcOf a)))
         s.round = some J := by rw [hm.round]; exact hJ
@@ -180,9 +197,9 @@ theorem rc_timerOn {d : Def} {r : Nat} {rcOf : Nat → Msg} {R0 : List Nat} {old
     · have hq : T.length + 1 ≠ d.quorum := fun e => hnf ⟨hl, e⟩
       have hdd' : (uQuorumRoundChanges, (rcOf a).core.round) ∈ s.dedup := by
         rw [hrca.round]; exact hdd.mpr ⟨hl, by omega⟩
-      rw [step_rc_dup' hm.dead hm.started hm.qc hj hrca.typ hrr (by omega) hJ' hdd']
-    · rw [step_rc_nonleader' hm.dead hm.started hm.qc hj hrca.typ hrr (by omega) hJ'
-        (by rw [hm.round, hm.proc]; exact hl)]
+      exact step_rc_dup' hm.dead hm.started hm.qc hj hrca.typ hrr (by omega) hJ' hdd'
+    · exact step_rc_nonleader' hm.dead hm.started hm.qc hj hrca.typ hrr (by omega) hJ'
+        (by rw [hm.round, hm.proc]; exact hl)
 
 section Stage
 variable {P : TParams} {timeout : Nat → Nat} {X : PRd} {C : Nat → NodeState} {old : Nat → List Msg}
@@ -218,24 +235,28 @@ theorem s1_tick {s : TState} {T : Nat → List Nat} (h : S1 P timeout X C old s 
   · intro p hp
     have ht := hc.1 p hp
     cases h.mem p hp with
-    | pend e a1 a2 a3 a4 a5 a6 a7 =>
+    | pend e a1 a2 a3 a4 a5 a6 a7 a8 =>
       rw [a3] at ht
-      exact .pend e a1 a2 a3 a4 a5 (by simpa using ht) a7
-    | act dl a1 a2 a3 a4 a5 a6 a7 a8 a9 =>
+      exact .pend e a1 a2 a3 a4 a5 (by simpa using ht) a7 a8
+    | act dl a1 a2 a3 a4 a5 a6 a7 a8 a9 a10 a11 =>
       rw [a5] at ht
-      exact .act dl a1 a2 a3 (by show X.E ≤ s.now + dt; omega) a5 a6 a7 (by simpa using ht) a9
+      exact .act dl a1 a2 a3 (by show X.E ≤ s.now + dt; omega) a5 a6 a7 (by simpa using ht) a9 a10 a11
 
 /-- **a round timer fires**: the member enters the round and broadcasts its ROUND-CHANGE with its
 prepared certificate. -/
 theorem s1_fire {s : TState} {T : Nat → List Nat} (hy : PHyp P timeout X C old)
     (h : S1 P timeout X C old s T) {p : Nat} (hp : p ∈ P.R) (ht : (s.node p).timer = some s.now)
     (hnr : (s.node p).st.round ≠ X.ρ) :
-    S1 P timeout X C old (actNode P s p {} [.timeout] s.net []) T := by
+    S1 P timeout X C old (actNode P s p {} [.timeout] s.net []) T ∧
+    (actNode P s p {} [.timeout] s.net []).log = s.log ++ [rcsOf X.ρ C p] ∧
+    ((actNode P s p {} [.timeout] s.net []).node p).st.round = X.ρ ∧
+    (∀ q, q ≠ p → (actNode P s p {} [.timeout] s.net []).node q = s.node q) ∧
+    ((actNode P s p {} [.timeout] s.net []).node p).rcvd = (s.node p).rcvd := by
   have hρ := hy.rho
   have hq1 := quorum_pos P.d hy.n1
   cases h.mem p hp with
   | act dl a1 => exact absurd a1.1.round hnr
-  | pend e a1 a2 a3 a4 a5 a6 a7 =>
+  | pend e a1 a2 a3 a4 a5 a6 a7 a8 =>
     rw [a3] at ht
     have he : e = s.now := by injection ht
     subst he
@@ -256,7 +277,11 @@ theorem s1_fire {s : TState} {T : Nat → List Nat} (hy : PHyp P timeout X C old
       rw [actNode_one]
     have hround' : ((actNode P s p {} [.timeout] s.net []).node p).st.round = X.ρ := by
       rw [hnode]; simp only [updNode]; rw [hst]
-    refine ⟨?_, ?_, ?_⟩
+    have hlog : (actNode P s p {} [.timeout] s.net []).log = s.log ++ [rcsOf X.ρ C p] := by
+      rw [actNode_one]; simp only; rw [htw]
+    have hrcvd : ((actNode P s p {} [.timeout] s.net []).node p).rcvd = (s.node p).rcvd := by
+      rw [hnode]; simp [updNode]
+    refine ⟨⟨?_, ?_, ?_⟩, hlog, hround', hother, hrcvd⟩
     · intro pk hpk
       rw [hnet] at hpk
       rw [hnow]
@@ -289,7 +314,12 @@ theorem s1_fire {s : TState} {T : Nat → List Nat} (hy : PHyp P timeout X C old
             (step P.d {} (s.node q).st .timeout).2).1 = some (s.now + timeout X.ρ) := by
           rw [hst, hy.arm]
           simp [armAll, armStep, relTimer]
-        refine .act (s.now + timeout X.ρ) ?_ ?_ ?_ a4 ?_ (by omega) (by omega) (by omega) ?_
+        have hl0 : RoundTimer.lookup X.ρ (s.node q).firsts = none := a8 X.ρ (Nat.le_refl _)
+        have harm2 : (armAll P.arm s.now ((s.node q).timer, (s.node q).firsts)
+            (step P.d {} (s.node q).st .timeout).2).2 = (X.ρ, s.now + timeout X.ρ) :: (s.node q).firsts := by
+          rw [hst, hy.arm]
+          simp [armAll, armStep, relTimer, hl0]
+        refine .act (s.now + timeout X.ρ) ?_ ?_ ?_ a4 ?_ (by omega) (by omega) (by omega) ?_ ?_ ?_
         · simp only [updNode]; rw [hst, a2]
           refine ⟨⟨a1.mid.dead, a1.mid.started, rfl, a1.mid.qc, a1.mid.cfr, a1.mid.proc⟩,
             by simpa using a1.buf, by simp, by simp, by simp, rfl, a1.aux.iv,
@@ -301,6 +331,13 @@ theorem s1_fire {s : TState} {T : Nat → List Nat} (hy : PHyp P timeout X C old
           exact Quiet.append a7 ⟨rfl, rfl⟩
         · simp only [updNode]; exact harm
         · intro _; rw [a2]; simp; omega
+        · simp only [updNode]; rw [harm2]
+          refine ⟨⟨s.now + timeout X.ρ, by simp [RoundTimer.lookup], by omega⟩, ?_⟩
+          intro r hr
+          simp only [RoundTimer.lookup]
+          rw [if_neg (by omega)]
+          exact a8 r (by omega)
+        · simp only [updNode]; rw [hst]; simp
       · rw [hother q hqp]
         exact h.mem q hq
 
@@ -316,18 +353,20 @@ quorum-th ROUND-CHANGE and it proposes. -/
 theorem s1_deliver {s : TState} {T : Nat → List Nat} (hy : PHyp P timeout X C old)
     (h : S1 P timeout X C old s T) (o : Oracle) {k : Nat} {pk : Packet} (hk : s.net[k]? = some pk)
     (hlo : pk.sent + P.lo < s.now) :
-    (∃ T', S1 P timeout X C old
-      (actNode P s pk.dst o [.recv pk.msg .ok] (s.net.eraseIdx k) [pk.msg]) T') ∨
+    (S1 P timeout X C old
+      (actNode P s pk.dst o [.recv pk.msg .ok] (s.net.eraseIdx k) [pk.msg])
+      (fun q => if q = pk.dst then T pk.dst ++ [pk.msg.core.src] else T q) ∧
+     (step P.d o (s.node pk.dst).st (.recv pk.msg .ok)).2 = []) ∨
     Fires P X C s k o := by
   have hρ := hy.rho
   obtain ⟨A, B, hA, hB⟩ := eraseIdx_split hk
   have hmem : pk ∈ s.net := by rw [hA]; simp
   obtain ⟨hdst, _, hE, hsent, hmsg⟩ := h.net_ok pk hmem
-  generalize ha : pk.msg.core.src = a at hmsg
+  generalize ha : pk.msg.core.src = a at hmsg ⊢
   have hlo' := hy.lo
   cases h.mem pk.dst hdst with
   | pend e a1 a2 a3 a4 a5 a6 a7 => omega
-  | act dl a1 a2 a3 a4 a5 a6 a7 a8 a9 =>
+  | act dl a1 a2 a3 a4 a5 a6 a7 a8 a9 a10 a11 =>
     obtain ⟨hnd, hsub⟩ := h.srcs hy hdst
     have hin : a ∈ (inflight pk.dst s.net).map (·.core.src) := by
       rw [List.mem_map]
@@ -382,7 +421,7 @@ theorem s1_deliver {s : TState} {T : Nat → List Nat} (hy : PHyp P timeout X C 
         split at hc
         · rename_i hl; exact hfire ⟨hl, hc⟩
         · omega)] at hout
-      refine ⟨fun q => if q = pk.dst then T pk.dst ++ [a] else T q, ?_⟩
+      refine ⟨?_, hout⟩
       have hnode : (actNode P s pk.dst o [.recv pk.msg .ok] (s.net.eraseIdx k) [pk.msg]).node pk.dst =
           updNode P s.now (s.node pk.dst) (step P.d o (s.node pk.dst).st (.recv pk.msg .ok)) [pk.msg] := by
         rw [actNode_one]; simp
@@ -441,8 +480,9 @@ theorem s1_deliver {s : TState} {T : Nat → List Nat} (hy : PHyp P timeout X C 
                 rcvd := (s.node pk.dst).rcvd ++ [pk.msg] } := by
             simp only [updNode]; rw [hout]; simp [armAll]
           rw [hupd]
-          refine .act dl hinv' ?_ a3 a4 a5 a6 a7 a8 ?_
-          · rw [hmsg, rc_timerOn hctx ⟨[], by simp⟩ a1 (by rw [hy.lead]; rw [hy.lead] at hfire; exact hfire)]; exact a2
+          have hstf := rc_timerOn (T := T pk.dst) (a := a) (o := o) hctx ⟨[], by simp⟩ a1 hfire
+          refine .act dl hinv' ?_ a3 a4 a5 a6 a7 a8 ?_ a10 (by rw [hmsg, hstf]; exact a11)
+          · rw [hmsg, hstf]; exact a2
           · intro hl
             simp only [List.length_append, List.length_singleton]
             have := a9 hl
@@ -473,7 +513,7 @@ theorem s1_step {s s' : TState} {T : Nat → List Nat} (hy : PHyp P timeout X C 
       · rename_i hlo
         cases hs
         rcases s1_deliver hy h o hk hlo with h' | h'
-        · exact Or.inl h'
+        · exact Or.inl ⟨_, h'.1⟩
         · exact Or.inr ⟨k, o, rfl, h'⟩
       · cases hs
   | fire p =>
@@ -481,7 +521,7 @@ theorem s1_step {s s' : TState} {T : Nat → List Nat} (hy : PHyp P timeout X C 
     split at hs
     · rename_i hc
       cases hs
-      exact Or.inl ⟨T, s1_fire hy h hc.1 hc.2 (hnf p rfl)⟩
+      exact Or.inl ⟨T, (s1_fire hy h hc.1 hc.2 (hnf p rfl)).1⟩
     · cases hs
   | start p =>
     simp only [tstep] at hs
@@ -577,7 +617,8 @@ structure PoisedP (P : TParams) (X : PRd) (C : Nat → NodeState) (old : Nat →
     (s : TState) : Prop where
   net : s.net = []
   mem : ∀ p ∈ P.R, ∃ e, Wait (X.ρ - 1) p (old p) (C p) (s.node p).st ∧ (s.node p).timer = some e ∧
-    X.E ≤ e ∧ e ≤ X.E + X.σ ∧ s.now ≤ e ∧ Quiet (s.node p).outs
+    X.E ≤ e ∧ e ≤ X.E + X.σ ∧ s.now ≤ e ∧ Quiet (s.node p).outs ∧
+    ∀ r, X.ρ ≤ r → RoundTimer.lookup r (s.node p).firsts = none
 
 theorem poisedP_s1 {s : TState} (hy : PHyp P timeout X C old) (h : PoisedP P X C old s) :
     S1 P timeout X C old s (fun _ => []) := by
@@ -595,8 +636,8 @@ theorem poisedP_s1 {s : TState} (hy : PHyp P timeout X C old) (h : PoisedP P X C
     rw [this]
     simp [inflight]
   · intro p hp
-    obtain ⟨e, a1, a2, a3, a4, a5, a6⟩ := h.mem p hp
-    exact .pend e a1 rfl a2 a3 a4 a5 a6
+    obtain ⟨e, a1, a2, a3, a4, a5, a6, a7⟩ := h.mem p hp
+    exact .pend e a1 rfl a2 a3 a4 a5 a6 a7
 
 /-! ### A round whose leader is down -/
 
@@ -692,9 +733,10 @@ theorem poisedP_next {s : TState} {T : Nat → List Nat}
   · intro p hp
     cases h.mem p hp with
     | pend e a1 a2 a3 a4 a5 a6 a7 => omega
-    | act dl a1 a2 a3 a4 a5 a6 a7 a8 a9 =>
+    | act dl a1 a2 a3 a4 a5 a6 a7 a8 a9 a10 =>
       obtain ⟨b1, b2, _, _, _, _, b7, b8, _⟩ := a1
-      refine ⟨dl, ⟨?_, b2, ⟨b8.1, b8.2.1, b8.2.2, b7, a2⟩⟩, a5, a6, ?_, a8, a3⟩
+      refine ⟨dl, ⟨?_, b2, ⟨b8.1, b8.2.1, b8.2.2, b7, a2⟩⟩, a5, a6, ?_, a8, a3,
+        fun r hr => a10.2 r (by have : X.ρ + 1 ≤ r := hr; omega)⟩
       · show Mid (X.ρ + 1 - 1) p (s.node p).st
         rw [Nat.add_sub_cancel]; exact b1
       · show dl ≤ X.E + timeout X.ρ + X.σ
@@ -860,13 +902,3214 @@ theorem stuck_poised {P : TParams} {timeout : Nat → Nat} {X : PRd} {old : Nat 
     (harm : P.arm = relTimer timeout) (hfifo : X.B + 1 ≤ P.d.fifo) (hlo : X.σ ≤ P.lo)
     (hst : ∀ p ∈ P.R, Stuck P.d (X.ρ - 1) X.B p (old p) ((s.node p).st, (s.node p).outs))
     (hinp : X.l ∈ P.R → (s.node X.l).st.inputValue ≠ 0) (hnet : s.net = [])
-    (htm : ∀ p ∈ P.R, ∃ e, (s.node p).timer = some e ∧ X.E ≤ e ∧ e ≤ X.E + X.σ ∧ s.now ≤ e) :
+    (htm : ∀ p ∈ P.R, ∃ e, (s.node p).timer = some e ∧ X.E ≤ e ∧ e ≤ X.E + X.σ ∧ s.now ≤ e)
+    (hfd : ∀ p ∈ P.R, ∀ r, X.ρ ≤ r → RoundTimer.lookup r (s.node p).firsts = none) :
     PHyp P timeout X (fun p => (s.node p).st) old ∧ PoisedP P X (fun p => (s.node p).st) old s := by
   refine ⟨⟨hR, hn, hρ, hlead, harm, fun a ha => (hst a ha).cert, fun p hp => (hst p hp).oldRound,
     fun p hp => (hst p hp).oldLen, hfifo, hinp, hlo⟩, hnet, ?_⟩
   intro p hp
   obtain ⟨e, h1, h2, h3, h4⟩ := htm p hp
   exact ⟨e, ⟨(hst p hp).mid, (hst p hp).buf, ⟨rfl, rfl, rfl, rfl, (hst p hp).timer⟩⟩, h1, h2, h3, h4,
-    (hst p hp).quiet⟩
+    (hst p hp).quiet, hfd p hp⟩
+
+/-! ### Members of a good round holding earlier rounds' messages: the PRE-PREPARE / PREPARE / COMMIT /
+DECIDED deliveries, in any order (product form, as `Act` of `Proofs/QbftTimed.lean`) -/
+
+/-- exact count, attachments of the counted type allowed if they are of another round. -/
+theorem count_kind' {ord : List Nat} {buf : List (Nat × List Msg)} {L : List Msg} {K ρ : Nat}
+    {value pr pv : Option Nat} (hb : BufIs buf L) (hnd : (srcsOf K ρ L).Nodup)
+    (hatt : ∀ x ∈ L, ∀ c ∈ x.just, ¬ (c.typ = K ∧ c.round = ρ))
+    (hval : ∀ x ∈ L, x.core.typ = K → x.core.round = ρ → Matches K ρ value pr pv x.core) :
+    (filterMsgs (flatten ord buf) K ρ value pr pv).length = (srcsOf K ρ L).length := by
+  apply filterMsgs_length_eq _ hnd
+  · intro s hs
+    obtain ⟨m, hm, h1, h2, h3⟩ := mem_srcsOf.mp hs
+    refine ⟨m.core, ?_, hval m hm h1 h2, h3⟩
+    rw [mem_flatten_bufIs hb]
+    unfold coresOf
+    exact List.mem_flatMap.mpr ⟨m, hm, List.mem_cons_self⟩
+  · intro c hc hm
+    rw [mem_flatten_bufIs hb] at hc
+    unfold coresOf at hc
+    obtain ⟨x, hx, hcx⟩ := List.mem_flatMap.mp hc
+    rcases List.mem_cons.mp hcx with h | h
+    · subst h
+      exact mem_srcsOf.mpr ⟨x, hx, hm.1, hm.2.1, rfl⟩
+    · exact absurd ⟨hm.1, hm.2.1⟩ (hatt x hx c h)
+
+namespace TP
+
+/-- the round under way: number, value proposed by its leader, leader, the members' ROUND-CHANGEs,
+what each member held before the round (messages of earlier rounds). -/
+structure Rd where
+  ρ : Nat
+  v : Nat
+  l : Nat
+  rc : Nat → Msg
+  pre : Nat → List Msg
+
+/-- what a justification `J` picked by `getJustifiedQrc` at the leader looks like: its ROUND-CHANGE
+cores of the round are cores of members' ROUND-CHANGEs; either they are all null (J1) or `J` contains
+PREPAREs of a quorum of distinct sources for `(ρ', w)`, the highest prepared round among its
+ROUND-CHANGEs, one of which is prepared on `(ρ', w)` (J2). -/
+def JOk (d : Def) (R : List Nat) (G : Rd) (J : List Core) : Prop :=
+  (∀ c ∈ J, c.typ = tRoundChange → c.round = G.ρ → ∃ a ∈ R, RcOk d G.ρ (G.rc a) a ∧ c = (G.rc a).core) ∧
+  ((∀ c ∈ J, c.typ = tRoundChange → c.round = G.ρ → c.pr = 0 ∧ c.pv = 0) ∨
+   ∃ (ρ' w : Nat) (S : List Nat), (∀ c ∈ J, c.typ = tRoundChange → c.round = G.ρ → c.pr ≤ ρ') ∧
+     (∃ c0 ∈ J, c0.typ = tRoundChange ∧ c0.round = G.ρ ∧ c0.pr = ρ' ∧ c0.pv = w) ∧
+     S.Nodup ∧ d.quorum ≤ S.length ∧
+     ∀ s ∈ S, ∃ x ∈ J, x.typ = tPrepare ∧ x.round = ρ' ∧ x.value = w ∧ x.src = s)
+
+/-- a PRE-PREPARE of the leader for `G.v` with a justification of ROUND-CHANGEs of the round and
+cores of earlier rounds (rule J1 or J2) that `isJustified` accepts. -/
+def IsPPm (d : Def) (R : List Nat) (G : Rd) (m : Msg) : Prop :=
+  m.core = ⟨tPrePrepare, G.l, G.ρ, G.v, 0, 0⟩ ∧ ((∀ c ∈ m.just, BG G.ρ c) ∧ JOk d R G m.just) ∧
+  isJustified d m 0 = some true
+
+def IsDecm (d : Def) (G : Rd) (m : Msg) : Prop :=
+  m.core.typ = tDecided ∧ m.core.round = G.ρ ∧ m.core.value = G.v ∧ isJustified d m 0 = some true
+
+/-- a message of an earlier round (any type but DECIDED, any attachments of earlier rounds). -/
+def OldMsg (ρ : Nat) (m : Msg) : Prop :=
+  (∀ c ∈ m.core :: m.just, c.round < ρ) ∧ m.core.typ ≠ tDecided
+
+/-- everything a member may hold while round `G.ρ` is under way: messages of earlier rounds, the
+ROUND-CHANGEs of the round with their certificates, and the messages of the round for `G.v`. -/
+inductive Shape (d : Def) (R : List Nat) (G : Rd) : Msg → Prop where
+  | old (m : Msg) : OldMsg G.ρ m → Shape d R G m
+  | rc (a : Nat) : a ∈ R → RcOk d G.ρ (G.rc a) a → Shape d R G (G.rc a)
+  | pp (m : Msg) : IsPPm d R G m → G.l ∈ R → Shape d R G m
+  | prep (a : Nat) : a ∈ R → Shape d R G (prepMsg G.ρ G.v a)
+  | commit (a : Nat) : a ∈ R → Shape d R G (commitMsg G.ρ G.v a)
+  | dec (m : Msg) : IsDecm d G m → m.core.src ∈ R → Shape d R G m
+
+/-- attachments are ROUND-CHANGE cores or cores of earlier rounds, unless the message is a DECIDED:
+never a PREPARE / COMMIT of the round. -/
+theorem Shape.att_ne {d : Def} {R : List Nat} {G : Rd} {m : Msg} (h : Shape d R G m)
+    (hd : m.core.typ ≠ tDecided) (c : Core) (hc : c ∈ m.just) {K : Nat} (hK : K ≠ tRoundChange) :
+    ¬ (c.typ = K ∧ c.round = G.ρ) := by
+  have hbg : BG G.ρ c := by
+    cases h with
+    | old m hm => exact Or.inr (hm.1 c (List.mem_cons_of_mem _ hc))
+    | rc a ha hok => exact (hok.cores c (List.mem_cons_of_mem _ hc)).1
+    | pp m hm hl => exact hm.2.1.1 c hc
+    | prep a ha => simp [prepMsg] at hc
+    | commit a ha => simp [commitMsg] at hc
+    | dec m hm hs => exact absurd hm.1 hd
+  rintro ⟨h1, h2⟩
+  rcases hbg with h | h
+  · exact hK (h1 ▸ h)
+  · omega
+
+/-- the core of a PRE-PREPARE / PREPARE / COMMIT of the round is determined by type and sender. -/
+theorem Shape.core_eq {d : Def} {R : List Nat} {G : Rd} {m : Msg} (h : Shape d R G m)
+    (hr : m.core.round = G.ρ) (hd : m.core.typ ≠ tDecided) (hrc : m.core.typ ≠ tRoundChange) :
+    m.core = ⟨m.core.typ, m.core.src, G.ρ, G.v, 0, 0⟩ := by
+  cases h with
+  | old m hm => have := hm.1 m.core List.mem_cons_self; omega
+  | rc a ha hok => exact absurd hok.typ hrc
+  | pp m hm hl => rw [hm.1]
+  | prep a ha => rfl
+  | commit a ha => rfl
+  | dec m hm hs => exact absurd hm.1 hd
+
+theorem Shape.pp_src {d : Def} {R : List Nat} {G : Rd} {m : Msg} (h : Shape d R G m)
+    (ht : m.core.typ = tPrePrepare) (hr : m.core.round = G.ρ) : m.core.src = G.l := by
+  cases h with
+  | old m hm => have := hm.1 m.core List.mem_cons_self; omega
+  | rc a ha hok => rw [hok.typ] at ht; exact absurd ht (by decide)
+  | pp m hm hl => rw [hm.1]
+  | prep a ha => simp [prepMsg, tPrepare, tPrePrepare] at ht
+  | commit a ha => simp [commitMsg, tCommit, tPrePrepare] at ht
+  | dec m hm hs => rw [hm.1] at ht; exact absurd ht (by decide)
+
+/-- a running, undecided member `p` in round `G.ρ` to which exactly the messages `L` were delivered
+(earlier rounds included): its bookkeeping (`dedup`) says which thresholds of the round were reached.
+Nothing is said about its prepared state. -/
+structure Act (d : Def) (G : Rd) (I : Nat → Nat) (p : Nat) (s : NodeState) (L : List Msg) : Prop where
+  mid : Mid G.ρ p s
+  buf : BufIs s.buffer L
+  noDec : ∀ x ∈ L, x.core.typ ≠ tDecided
+  jpp : (uJustifiedPrePrepare, G.ρ) ∈ s.dedup ↔ srcsOf tPrePrepare G.ρ L ≠ []
+  qp : (uQuorumPrepares, G.ρ) ∈ s.dedup ↔ d.quorum ≤ (srcsOf tPrepare G.ρ L).length
+  qc : (uQuorumCommits, G.ρ) ∉ s.dedup
+  qcl : (srcsOf tCommit G.ρ L).length < d.quorum
+  jd : (uJustifiedDecided, G.ρ) ∉ s.dedup
+  qrc : (uQuorumRoundChanges, G.ρ) ∈ s.dedup ↔ (G.l = p ∧ d.quorum ≤ (srcsOf tRoundChange G.ρ L).length)
+  cache : G.ρ ≠ 1 → s.ppjCache = none
+  inp : s.inputValue = I p
+  ton : s.timerOn = true
+
+structure LocHyp (d : Def) (R : List Nat) (G : Rd) (L : List Msg) (m : Msg) : Prop where
+  shape : ∀ x ∈ L ++ [m], Shape d R G x
+  nodup : ∀ K, (K = tPrePrepare ∨ K = tPrepare ∨ K = tCommit ∨ K = tRoundChange) →
+    (srcsOf K G.ρ (L ++ [m])).Nodup
+  fifo : ((L ++ [m]).filter (fun x => x.core.src == m.core.src)).length ≤ d.fifo
+
+/-- **PRE-PREPARE of the round** (delivered once): recorded, timer restarted, PREPARE broadcast. -/
+theorem act_recv_pp {d : Def} {R : List Nat} {G : Rd} {I : Nat → Nat} {p : Nat} {s : NodeState} {L : List Msg} {m : Msg}
+    (o : Oracle) (h : Act d G I p s L) (hh : LocHyp d R G L m) (hm : IsPPm d R G m) :
+    Act d G I p (step d o s (.recv m .ok)).1 (L ++ [m]) ∧
+    step d o s (.recv m .ok) =
+      ({ s with buffer := bufferMsg d.fifo s.buffer m,
+                dedup := (uJustifiedPrePrepare, G.ρ) :: s.dedup, timerOn := true },
+       [.rule uJustifiedPrePrepare G.ρ, .stopTimer, .newTimer G.ρ, .bcast tPrepare G.ρ G.v 0 0 []]) ∧
+    (uJustifiedPrePrepare, G.ρ) ∉ s.dedup := by
+  have hmid := h.mid
+  have hbuf : BufIs (bufferMsg d.fifo s.buffer m) (L ++ [m]) := bufIs_bufferMsg h.buf hh.fifo
+  have ht : m.core.typ = tPrePrepare := by rw [hm.1]
+  have hr : m.core.round = G.ρ := by rw [hm.1]
+  have hvl : m.core.value = G.v := by rw [hm.1]
+  have hsr : m.core.src = G.l := by rw [hm.1]
+  have hnoDec : ∀ x ∈ L ++ [m], x.core.typ ≠ tDecided := by
+    intro x hx
+    rcases List.mem_append.mp hx with hx | hx
+    · exact h.noDec x hx
+    · simp only [List.mem_singleton] at hx; subst hx; rw [ht]; decide
+  have hsn1 : srcsOf tPrePrepare G.ρ (L ++ [m]) = srcsOf tPrePrepare G.ρ L ++ [G.l] := by
+    rw [srcsOf_snoc, if_pos ⟨ht, hr⟩, hsr]
+  have hsn0 : srcsOf tRoundChange G.ρ (L ++ [m]) = srcsOf tRoundChange G.ρ L := by
+    rw [srcsOf_snoc, if_neg (by rw [ht]; simp [tPrePrepare, tRoundChange])]; simp
+  have hsn2 : srcsOf tPrepare G.ρ (L ++ [m]) = srcsOf tPrepare G.ρ L := by
+    rw [srcsOf_snoc, if_neg (by rw [ht]; simp [tPrePrepare, tPrepare])]; simp
+  have hsn3 : srcsOf tCommit G.ρ (L ++ [m]) = srcsOf tCommit G.ρ L := by
+    rw [srcsOf_snoc, if_neg (by rw [ht]; simp [tPrePrepare, tCommit])]; simp
+  -- delivered once: no PRE-PREPARE of the round before
+  have hfirst : srcsOf tPrePrepare G.ρ L = [] := by
+    have hnd := hh.nodup tPrePrepare (Or.inl rfl)
+    rw [hsn1] at hnd
+    cases hL : srcsOf tPrePrepare G.ρ L with
+    | nil => rfl
+    | cons b bs =>
+      exfalso
+      have hb : b ∈ srcsOf tPrePrepare G.ρ L := by rw [hL]; exact List.mem_cons_self
+      obtain ⟨x, hx, h1, h2, h3⟩ := mem_srcsOf.mp hb
+      have hbl : b = G.l := by
+        have hce := (hh.shape x (List.mem_append_left _ hx)).core_eq h2 (h.noDec x hx) (by rw [h1]; decide)
+        rw [← h3, hce, h1]
+        have hsx := hh.shape x (List.mem_append_left _ hx)
+        exact hsx.pp_src h1 h2
+      rw [hL, hbl] at hnd
+      simp at hnd
+  have hdd : (uJustifiedPrePrepare, m.core.round) ∉ s.dedup := by
+    rw [hr]; intro hc; exact (h.jpp.mp hc) hfirst
+  have hj : isJustified d m s.compareFailureRound = some true := by rw [hmid.cfr]; exact hm.2.2
+  have hst := step_prePrepare (d := d) (o := o) (m := m) hmid.dead hmid.started hmid.qc hj ht
+    (by rw [hr, hmid.round]) hdd
+  rw [hr, hvl] at hst
+  have hst2 : step d o s (.recv m .ok) =
+      ({ s with buffer := bufferMsg d.fifo s.buffer m,
+                dedup := (uJustifiedPrePrepare, G.ρ) :: s.dedup, timerOn := true },
+       [.rule uJustifiedPrePrepare G.ρ, .stopTimer, .newTimer G.ρ, .bcast tPrepare G.ρ G.v 0 0 []]) := by
+    rw [hst]
+    refine Prod.ext rfl ?_
+    simp only [hmid.round]
+  refine ⟨?_, hst2, by rw [← hr]; exact hdd⟩
+  rw [hst2]
+  refine ⟨mid_of_eq hmid rfl rfl rfl rfl rfl rfl, hbuf, hnoDec, ?_, ?_, ?_, by rw [hsn3]; exact h.qcl,
+    ?_, ?_, h.cache, h.inp, (by first | exact h.ton | rfl)⟩
+  · rw [hsn1]; simp
+  · rw [hsn2]
+    simp only [List.mem_cons, Prod.mk.injEq]
+    constructor
+    · rintro (⟨h1, _⟩ | h1)
+      · simp [uQuorumPrepares, uJustifiedPrePrepare] at h1
+      · exact h.qp.mp h1
+    · intro h1; exact Or.inr (h.qp.mpr h1)
+  · simp only [List.mem_cons, Prod.mk.injEq, not_or]
+    exact ⟨by simp [uQuorumCommits, uJustifiedPrePrepare], h.qc⟩
+  · simp only [List.mem_cons, Prod.mk.injEq, not_or]
+    exact ⟨by simp [uJustifiedDecided, uJustifiedPrePrepare], h.jd⟩
+  · rw [hsn0]
+    simp only [List.mem_cons, Prod.mk.injEq]
+    constructor
+    · rintro (⟨h1, _⟩ | h1)
+      · simp [uQuorumRoundChanges, uJustifiedPrePrepare] at h1
+      · exact h.qrc.mp h1
+    · intro h1; exact Or.inr (h.qrc.mpr h1)
+
+
+/-- the member reaches the quorum of PREPAREs and broadcasts its COMMIT. -/
+def Prepared (d : Def) (G : Rd) (s : NodeState) (m : Msg) (r : NodeState × List Out) : Prop :=
+  (uQuorumPrepares, G.ρ) ∉ s.dedup ∧
+    ∃ J, r = ({ s with buffer := bufferMsg d.fifo s.buffer m,
+                       dedup := (uQuorumPrepares, G.ρ) :: s.dedup,
+                       preparedRound := G.ρ, preparedValue := G.v, preparedJust := J },
+              [.rule uQuorumPrepares G.ρ, .bcast tCommit G.ρ G.v 0 0 []])
+
+/-- **PREPARE of the round.** -/
+theorem act_recv_prepare {d : Def} {R : List Nat} {G : Rd} {I : Nat → Nat} {p : Nat} {s : NodeState} {L : List Msg} {a : Nat}
+    (o : Oracle) (h : Act d G I p s L) (hh : LocHyp d R G L (prepMsg G.ρ G.v a)) :
+    Act d G I p (step d o s (.recv (prepMsg G.ρ G.v a) .ok)).1 (L ++ [prepMsg G.ρ G.v a]) ∧
+    (Buffered d s (prepMsg G.ρ G.v a) (step d o s (.recv (prepMsg G.ρ G.v a) .ok)) ∨
+     Prepared d G s (prepMsg G.ρ G.v a) (step d o s (.recv (prepMsg G.ρ G.v a) .ok))) := by
+  have hm := h.mid
+  have hbuf : BufIs (bufferMsg d.fifo s.buffer (prepMsg G.ρ G.v a)) (L ++ [prepMsg G.ρ G.v a]) :=
+    bufIs_bufferMsg h.buf hh.fifo
+  have hnoDec : ∀ x ∈ L ++ [prepMsg G.ρ G.v a], x.core.typ ≠ tDecided := by
+    intro x hx
+    rcases List.mem_append.mp hx with hx | hx
+    · exact h.noDec x hx
+    · simp only [List.mem_singleton] at hx; subst hx; simp [prepMsg, tPrepare, tDecided]
+  have hsn0 : srcsOf tRoundChange G.ρ (L ++ [prepMsg G.ρ G.v a]) = srcsOf tRoundChange G.ρ L := by
+    rw [srcsOf_snoc]; simp [prepMsg, tRoundChange, tPrepare]
+  have hsn1 : srcsOf tPrePrepare G.ρ (L ++ [prepMsg G.ρ G.v a]) = srcsOf tPrePrepare G.ρ L := by
+    rw [srcsOf_snoc]; simp [prepMsg, tPrepare, tPrePrepare]
+  have hsn2 : srcsOf tPrepare G.ρ (L ++ [prepMsg G.ρ G.v a]) = srcsOf tPrepare G.ρ L ++ [a] := by
+    rw [srcsOf_snoc]; simp [prepMsg]
+  have hsn3 : srcsOf tCommit G.ρ (L ++ [prepMsg G.ρ G.v a]) = srcsOf tCommit G.ρ L := by
+    rw [srcsOf_snoc]; simp [prepMsg, tPrepare, tCommit]
+  have hcount : (filterByRoundAndValue (flatten o.srcOrd (bufferMsg d.fifo s.buffer (prepMsg G.ρ G.v a)))
+      tPrepare G.ρ G.v).length = (srcsOf tPrepare G.ρ L).length + 1 := by
+    unfold filterByRoundAndValue
+    rw [count_kind' hbuf (hh.nodup _ (by simp)), hsn2]
+    · simp
+    · intro x hx c hc
+      exact (hh.shape x hx).att_ne (hnoDec x hx) c hc (by decide)
+    · intro x hx h1 h2
+      have := (hh.shape x hx).core_eq h2 (hnoDec x hx) (by rw [h1]; decide)
+      rw [this, h1]
+      exact ⟨rfl, rfl, by simp [tPrepare, tRoundChange], by simp, by simp⟩
+  have hst := step_prepare (d := d) (o := o) (m := prepMsg G.ρ G.v a) hm.dead hm.started hm.qc rfl
+    hm.round.symm
+  have hcount' : (filterByRoundAndValue (flatten o.srcOrd (bufferMsg d.fifo s.buffer (prepMsg G.ρ G.v a)))
+      tPrepare (prepMsg G.ρ G.v a).core.round (prepMsg G.ρ G.v a).core.value).length =
+      (srcsOf tPrepare G.ρ L).length + 1 := hcount
+  rw [hcount'] at hst
+  by_cases hfire : d.quorum ≤ (srcsOf tPrepare G.ρ L).length + 1 ∧
+      (uQuorumPrepares, (prepMsg G.ρ G.v a).core.round) ∉ s.dedup
+  · rw [if_pos hfire] at hst
+    have hdd : (uQuorumPrepares, G.ρ) ∉ s.dedup := hfire.2
+    refine ⟨?_, Or.inr ⟨hdd, filterByRoundAndValue (flatten o.srcOrd
+      (bufferMsg d.fifo s.buffer (prepMsg G.ρ G.v a))) tPrepare G.ρ G.v, ?_⟩⟩
+    · rw [hst]
+      refine ⟨mid_of_eq hm rfl rfl rfl rfl rfl rfl, hbuf, hnoDec, ?_, ?_, ?_, by rw [hsn3]; exact h.qcl,
+        ?_, ?_, h.cache, h.inp, (by first | exact h.ton | rfl)⟩
+      · rw [hsn1]
+        simp only [prepMsg, List.mem_cons, Prod.mk.injEq]
+        constructor
+        · rintro (⟨h1, _⟩ | h1)
+          · simp [uQuorumPrepares, uJustifiedPrePrepare] at h1
+          · exact h.jpp.mp h1
+        · intro h1; exact Or.inr (h.jpp.mpr h1)
+      · rw [hsn2]
+        simp only [prepMsg, List.mem_cons, true_or, true_iff, List.length_append, List.length_singleton]
+        exact hfire.1
+      · simp only [prepMsg, List.mem_cons, Prod.mk.injEq, not_or]
+        exact ⟨by simp [uQuorumCommits, uQuorumPrepares], h.qc⟩
+      · simp only [prepMsg, List.mem_cons, Prod.mk.injEq, not_or]
+        exact ⟨by simp [uJustifiedDecided, uQuorumPrepares], h.jd⟩
+      · rw [hsn0]
+        simp only [prepMsg, List.mem_cons, Prod.mk.injEq]
+        constructor
+        · rintro (⟨h1, _⟩ | h1)
+          · simp [uQuorumRoundChanges, uQuorumPrepares] at h1
+          · exact h.qrc.mp h1
+        · intro h1; exact Or.inr (h.qrc.mpr h1)
+    · rw [hst]
+      simp only [hm.round, prepMsg]
+  · rw [if_neg hfire] at hst
+    refine ⟨?_, Or.inl hst⟩
+    rw [hst]
+    refine ⟨mid_of_eq hm rfl rfl rfl rfl rfl rfl, hbuf, hnoDec, by rw [hsn1]; exact h.jpp, ?_, h.qc,
+      by rw [hsn3]; exact h.qcl, h.jd, by rw [hsn0]; exact h.qrc, h.cache, h.inp, (by first | exact h.ton | rfl)⟩
+    rw [hsn2]
+    simp only [List.length_append, List.length_singleton]
+    constructor
+    · intro hd; have := h.qp.mp hd; omega
+    · intro hq
+      apply Classical.byContradiction
+      intro hnd
+      exact hfire ⟨hq, hnd⟩
+
+
+structure Dcd (d : Def) (G : Rd) (p : Nat) (s : NodeState) : Prop where
+  done : Done G.v s
+  proc : s.proc = p
+  round : s.round = G.ρ
+  cok : d.quorum ≤ (filterMsgs s.qCommit tCommit G.ρ (some G.v) none none).length
+
+/-- the member decides: on the quorum of COMMITs or on a justified DECIDED. -/
+def Decides (d : Def) (G : Rd) (s : NodeState) (m : Msg) (r : NodeState × List Out) : Prop :=
+  ∃ rule J, (rule = uQuorumCommits ∨ rule = uJustifiedDecided) ∧
+    r = ({ s with buffer := bufferMsg d.fifo s.buffer m, dedup := (rule, G.ρ) :: s.dedup,
+                  qCommit := J, qCommitValue := G.v, timerOn := false },
+         [.rule rule G.ρ, .stopTimer, .decide G.v G.ρ J])
+
+/-- **COMMIT of the round.** -/
+theorem act_recv_commit {d : Def} {R : List Nat} {G : Rd} {I : Nat → Nat} {p : Nat} {s : NodeState} {L : List Msg} {a : Nat}
+    (o : Oracle) (h : Act d G I p s L) (hh : LocHyp d R G L (commitMsg G.ρ G.v a)) :
+    (Buffered d s (commitMsg G.ρ G.v a) (step d o s (.recv (commitMsg G.ρ G.v a) .ok)) ∧
+      Act d G I p (step d o s (.recv (commitMsg G.ρ G.v a) .ok)).1 (L ++ [commitMsg G.ρ G.v a])) ∨
+    (Decides d G s (commitMsg G.ρ G.v a) (step d o s (.recv (commitMsg G.ρ G.v a) .ok)) ∧
+      Dcd d G p (step d o s (.recv (commitMsg G.ρ G.v a) .ok)).1 ∧
+      d.quorum ≤ (srcsOf tCommit G.ρ (L ++ [commitMsg G.ρ G.v a])).length) := by
+  have hm := h.mid
+  have hbuf : BufIs (bufferMsg d.fifo s.buffer (commitMsg G.ρ G.v a)) (L ++ [commitMsg G.ρ G.v a]) :=
+    bufIs_bufferMsg h.buf hh.fifo
+  have hnoDec : ∀ x ∈ L ++ [commitMsg G.ρ G.v a], x.core.typ ≠ tDecided := by
+    intro x hx
+    rcases List.mem_append.mp hx with hx | hx
+    · exact h.noDec x hx
+    · simp only [List.mem_singleton] at hx; subst hx; simp [commitMsg, tCommit, tDecided]
+  have hsn0 : srcsOf tRoundChange G.ρ (L ++ [commitMsg G.ρ G.v a]) = srcsOf tRoundChange G.ρ L := by
+    rw [srcsOf_snoc]; simp [commitMsg, tRoundChange, tCommit]
+  have hsn1 : srcsOf tPrePrepare G.ρ (L ++ [commitMsg G.ρ G.v a]) = srcsOf tPrePrepare G.ρ L := by
+    rw [srcsOf_snoc]; simp [commitMsg, tCommit, tPrePrepare]
+  have hsn2 : srcsOf tPrepare G.ρ (L ++ [commitMsg G.ρ G.v a]) = srcsOf tPrepare G.ρ L := by
+    rw [srcsOf_snoc]; simp [commitMsg, tPrepare, tCommit]
+  have hsn3 : srcsOf tCommit G.ρ (L ++ [commitMsg G.ρ G.v a]) = srcsOf tCommit G.ρ L ++ [a] := by
+    rw [srcsOf_snoc]; simp [commitMsg]
+  have hcount : (filterByRoundAndValue (flatten o.srcOrd (bufferMsg d.fifo s.buffer (commitMsg G.ρ G.v a)))
+      tCommit G.ρ G.v).length = (srcsOf tCommit G.ρ L).length + 1 := by
+    unfold filterByRoundAndValue
+    rw [count_kind' hbuf (hh.nodup _ (by simp)), hsn3]
+    · simp
+    · intro x hx c hc
+      exact (hh.shape x hx).att_ne (hnoDec x hx) c hc (by decide)
+    · intro x hx h1 h2
+      have := (hh.shape x hx).core_eq h2 (hnoDec x hx) (by rw [h1]; decide)
+      rw [this, h1]
+      exact ⟨rfl, rfl, by simp [tCommit, tRoundChange], by simp, by simp⟩
+  have hst := step_commit (d := d) (o := o) (m := commitMsg G.ρ G.v a) hm.dead hm.started hm.qc rfl
+    hm.round.symm
+  have hcount' : (filterByRoundAndValue (flatten o.srcOrd (bufferMsg d.fifo s.buffer (commitMsg G.ρ G.v a)))
+      tCommit (commitMsg G.ρ G.v a).core.round (commitMsg G.ρ G.v a).core.value).length =
+      (srcsOf tCommit G.ρ L).length + 1 := hcount
+  rw [hcount'] at hst
+  by_cases hfire : d.quorum ≤ (srcsOf tCommit G.ρ L).length + 1
+  · rw [if_pos ⟨hfire, h.qc⟩] at hst
+    right
+    refine ⟨⟨uQuorumCommits, filterByRoundAndValue (flatten o.srcOrd
+      (bufferMsg d.fifo s.buffer (commitMsg G.ρ G.v a))) tCommit G.ρ G.v, Or.inl rfl, ?_⟩, ?_, ?_⟩
+    · rw [hst]
+      simp only [hm.round, commitMsg]
+    · rw [hst]
+      refine ⟨⟨hm.dead, hm.started, ?_, rfl⟩, hm.proc, hm.round, ?_⟩
+      · intro hnil
+        have h0 : (filterByRoundAndValue (flatten o.srcOrd
+          (bufferMsg d.fifo s.buffer (commitMsg G.ρ G.v a))) tCommit G.ρ G.v).length = 0 := by
+          simp only at hnil
+          have : (filterByRoundAndValue (flatten o.srcOrd
+            (bufferMsg d.fifo s.buffer (commitMsg G.ρ G.v a))) tCommit (commitMsg G.ρ G.v a).core.round
+            (commitMsg G.ρ G.v a).core.value) = [] := hnil
+          rw [show (commitMsg G.ρ G.v a).core.round = G.ρ from rfl,
+            show (commitMsg G.ρ G.v a).core.value = G.v from rfl] at this
+          rw [this]; rfl
+        omega
+      · show d.quorum ≤ (filterMsgs (filterByRoundAndValue (flatten o.srcOrd
+          (bufferMsg d.fifo s.buffer (commitMsg G.ρ G.v a))) tCommit G.ρ G.v) tCommit G.ρ (some G.v) none none).length
+        unfold filterByRoundAndValue
+        rw [filterMsgs_idem]
+        have := hcount
+        unfold filterByRoundAndValue at this
+        omega
+    · rw [hsn3]; simp; exact hfire
+  · rw [if_neg (fun hc => hfire hc.1)] at hst
+    left
+    refine ⟨hst, ?_⟩
+    rw [hst]
+    refine ⟨mid_of_eq hm rfl rfl rfl rfl rfl rfl, hbuf, hnoDec, by rw [hsn1]; exact h.jpp,
+      by rw [hsn2]; exact h.qp, h.qc, ?_, h.jd, by rw [hsn0]; exact h.qrc, h.cache, h.inp, (by first | exact h.ton | rfl)⟩
+    rw [hsn3]; simp; omega
+
+/-- **DECIDED for the round** reaching an undecided member: it decides. -/
+
+theorem act_recv_decided {d : Def} {G : Rd} {I : Nat → Nat} {p : Nat} {s : NodeState} {L : List Msg} {m : Msg}
+    (o : Oracle) (hq1 : 1 ≤ d.quorum) (h : Act d G I p s L) (hm : IsDecm d G m) :
+    Decides d G s m (step d o s (.recv m .ok)) ∧ Dcd d G p (step d o s (.recv m .ok)).1 := by
+  have hmid := h.mid
+  obtain ⟨ht, hr, hvl, hj⟩ := hm
+  have hj' : isJustified d m s.compareFailureRound = some true := by rw [hmid.cfr]; exact hj
+  have hlen := isJustified_decided ht hj
+  have hcl : classify d o s.round s.proc (bufferMsg d.fifo s.buffer m) m = some (uJustifiedDecided, m.just) := by
+    unfold classify
+    simp only [ht, if_true]
+  have hdd : (uJustifiedDecided, m.core.round) ∉ s.dedup := by rw [hr]; exact h.jd
+  have hrj := onRecvJustified_of_classify (cmp := .ok) hcl (by decide) hdd
+  rw [onRule_jd] at hrj
+  have hd' : onDecide { s with buffer := bufferMsg d.fifo s.buffer m, dedup := (uJustifiedDecided, m.core.round) :: s.dedup } m uJustifiedDecided m.just =
+      ({ s with buffer := bufferMsg d.fifo s.buffer m, dedup := (uJustifiedDecided, m.core.round) :: s.dedup, qCommit := m.just, qCommitValue := m.core.value, timerOn := false },
+       [.stopTimer, .decide m.core.value m.core.round m.just]) := by
+    unfold onDecide changeRound
+    simp [hr, hmid.round]
+  rw [hd'] at hrj
+  have hst := step_recv_undecided (c := .ok) hmid.dead hmid.started hmid.qc hj' (by rw [hrj]; simp [Out.isBug])
+  rw [hrj] at hst
+  refine ⟨⟨uJustifiedDecided, m.just, Or.inr rfl, ?_⟩, ?_⟩
+  · rw [hst]
+    simp only [hmid.round, hr, hvl]
+  · rw [hst]
+    refine ⟨⟨hmid.dead, hmid.started, ?_, hvl⟩, hmid.proc, hmid.round, ?_⟩
+    · intro hnil
+      simp only at hnil
+      rw [hnil] at hlen
+      simp [filterMsgs, filterMsgs.go] at hlen
+      omega
+    · simp only
+      rw [← hr, ← hvl]; exact hlen
+
+
+/-- **Any message reaching a decided member**: the decision stands, the bookkeeping of the round is
+untouched, and the only possible output is a DECIDED carrying the quorum. -/
+theorem dcd_recv {d : Def} {G : Rd} {p : Nat} {s : NodeState} (o : Oracle) (m : Msg) (h : Dcd d G p s) :
+    Dcd d G p (step d o s (.recv m .ok)).1 ∧
+    (step d o s (.recv m .ok)).1.dedup = s.dedup ∧
+    (step d o s (.recv m .ok)).1.inputValue = s.inputValue ∧
+    ((step d o s (.recv m .ok)).2 = [] ∨
+     (m.core.typ = tRoundChange ∧
+      (step d o s (.recv m .ok)).2 = [.bcast tDecided G.ρ G.v 0 0 s.qCommit])) := by
+  have hne : (!s.qCommit.isEmpty) = true := by
+    cases hqq : s.qCommit with
+    | nil => exact absurd hqq h.done.qc
+    | cons a as => rfl
+  have hcore : stepCore d o s (.recv m .ok) = onRecvDecided s m := by
+    unfold stepCore
+    simp only [hne, if_true]
+  have hmin := minor_onRecvDecided s m
+  have hdd : (onRecvDecided s m).1.dedup = s.dedup := by
+    unfold onRecvDecided
+    split
+    · simp only
+      unfold allowDecidedResend
+      simp only
+      split <;> split <;> rfl
+    · rfl
+  have hinp : (onRecvDecided s m).1.inputValue = s.inputValue := by
+    unfold onRecvDecided
+    split
+    · simp only
+      unfold allowDecidedResend
+      simp only
+      split <;> split <;> rfl
+    · rfl
+  have hdead : (onRecvDecided s m).1.dead = s.dead := by
+    unfold onRecvDecided
+    split
+    · simp only
+      unfold allowDecidedResend
+      simp only
+      split <;> split <;> rfl
+    · rfl
+  have hround := (hmin.decided h.done.qc).1
+  have houts : (onRecvDecided s m).2 = [] ∨
+      (m.core.typ = tRoundChange ∧ (onRecvDecided s m).2 = [.bcast tDecided G.ρ G.v 0 0 s.qCommit]) := by
+    unfold onRecvDecided
+    split
+    · rename_i hc
+      simp only
+      have hf := allowDecidedResend_fields s m.core.src m.core.round
+      split
+      · right
+        refine ⟨hc.2, ?_⟩
+        simp only [bcastMsg, hf.1, hf.2.1, hf.2.2, h.round, h.done.qcv]
+      · left; rfl
+    · left; rfl
+  have hbug : (onRecvDecided s m).2.any Out.isBug = false := by
+    rcases houts with ho | ⟨_, ho⟩ <;> rw [ho] <;> rfl
+  have hstep : step d o s (.recv m .ok) = onRecvDecided s m := by
+    unfold step
+    rw [started_eta s h.done.started, hcore]
+    rcases hx : onRecvDecided s m with ⟨s', outs⟩
+    rw [hx] at hbug
+    simp only at hbug
+    simp [h.done.dead, h.done.started, Event.isStart, hbug]
+  rw [hstep]
+  exact ⟨⟨⟨by rw [hdead]; exact h.done.dead, by rw [hmin.started]; exact h.done.started,
+      by rw [hmin.qc]; exact h.done.qc, by rw [hmin.qcv]; exact h.done.qcv⟩,
+      by rw [hmin.proc]; exact h.proc, by rw [hround]; exact h.round, by rw [hmin.qc]; exact h.cok⟩,
+    hdd, hinp, houts⟩
+
+/-! #### Any order of arrival -/
+
+/-- deliveries to one member, each with its own oracle; result: final state and all outputs. -/
+def runRecv (d : Def) (s : NodeState) : List (Oracle × Msg) → NodeState × List Out
+  | [] => (s, [])
+  | e :: es => ((runRecv d (step d e.1 s (.recv e.2 .ok)).1 es).1,
+      (step d e.1 s (.recv e.2 .ok)).2 ++ (runRecv d (step d e.1 s (.recv e.2 .ok)).1 es).2)
+
+theorem decidedOnce_quiet_append {v r : Nat} {a b : List Out} (ha : Quiet a)
+    (hb : decidedOnce v r b = true) : decidedOnce v r (a ++ b) = true := by
+  unfold decidedOnce at *
+  rw [List.filter_append, ha.2, List.nil_append]
+  exact hb
+
+/-- a decided member stays decided and quiet, whatever non-ROUND-CHANGE messages follow. -/
+theorem dcd_run {d : Def} {G : Rd} {p : Nat} :
+    ∀ (es : List (Oracle × Msg)) (s : NodeState), Dcd d G p s →
+      (∀ e ∈ es, e.2.core.typ ≠ tRoundChange) →
+      Dcd d G p (runRecv d s es).1 ∧ Quiet (runRecv d s es).2 := by
+  intro es
+  induction es with
+  | nil => intro s h _; exact ⟨h, Quiet.nil⟩
+  | cons e es ih =>
+    intro s h hne
+    obtain ⟨h1, _, _, h4⟩ := dcd_recv e.1 e.2 h
+    have hq : Quiet (step d e.1 s (.recv e.2 .ok)).2 := by
+      rcases h4 with h4 | ⟨h4, _⟩
+      · rw [h4]; exact Quiet.nil
+      · exact absurd h4 (hne e List.mem_cons_self)
+    obtain ⟨i1, i2⟩ := ih _ h1 (fun e' he' => hne e' (List.mem_cons_of_mem _ he'))
+    exact ⟨i1, Quiet.append hq i2⟩
+
+/-- **The PRE-PREPARE, the PREPAREs, the COMMITs and DECIDEDs of the round reaching a member that
+holds earlier rounds' messages, in ANY order and with any oracles** (phases overlapping: PREPAREs
+before the PRE-PREPARE, COMMITs before the last PREPARE, …): the member stays in the product form
+`Act` — quietly — or it has decided `G.v` in round `G.ρ` exactly once without a fault. What it holds
+from earlier rounds (`OldMsg`: any types, any attachments) and the certificates attached to the
+ROUND-CHANGEs and to the PRE-PREPARE are never read by the rules of the round. -/
+theorem tail_any_order {d : Def} {R : List Nat} {G : Rd} {I : Nat → Nat} {p : Nat} (hq1 : 1 ≤ d.quorum) :
+    ∀ (es : List (Oracle × Msg)) (s : NodeState) (L : List Msg), Act d G I p s L →
+      (∀ x ∈ L ++ es.map (·.2), Shape d R G x) →
+      (∀ K, (K = tPrePrepare ∨ K = tPrepare ∨ K = tCommit ∨ K = tRoundChange) →
+        (srcsOf K G.ρ (L ++ es.map (·.2))).Nodup) →
+      (∀ a, ((L ++ es.map (·.2)).filter (fun x => x.core.src == a)).length ≤ d.fifo) →
+      (∀ e ∈ es, e.2.core.round = G.ρ ∧ e.2.core.typ ≠ tRoundChange) →
+      (Act d G I p (runRecv d s es).1 (L ++ es.map (·.2)) ∧ Quiet (runRecv d s es).2) ∨
+      (Dcd d G p (runRecv d s es).1 ∧ decidedOnce G.v G.ρ (runRecv d s es).2 = true ∧
+        noFault (runRecv d s es).2 = true) := by
+  intro es
+  induction es with
+  | nil =>
+    intro s L h _ _ _ _
+    left
+    simpa [runRecv] using And.intro h Quiet.nil
+  | cons e es ih =>
+    intro s L h hsh hnd hfifo hrd
+    have hassoc : L ++ (e :: es).map (·.2) = (L ++ [e.2]) ++ es.map (·.2) := by simp
+    rw [hassoc] at hsh hnd hfifo ⊢
+    have hloc : LocHyp d R G L e.2 := by
+      refine ⟨fun x hx => hsh x (List.mem_append_left _ hx), ?_, ?_⟩
+      · intro K hK
+        have := hnd K hK
+        rw [srcsOf_append] at this
+        exact (List.nodup_append.mp this).1
+      · have := hfifo e.2.core.src
+        rw [List.filter_append, List.length_append] at this
+        omega
+    have hrest : ∀ e' ∈ es, e'.2.core.round = G.ρ ∧ e'.2.core.typ ≠ tRoundChange :=
+      fun e' he' => hrd e' (List.mem_cons_of_mem _ he')
+    obtain ⟨hr, hnrc⟩ := hrd e List.mem_cons_self
+    -- what the first delivery does
+    have hfirst : (Act d G I p (step d e.1 s (.recv e.2 .ok)).1 (L ++ [e.2]) ∧
+          Quiet (step d e.1 s (.recv e.2 .ok)).2) ∨
+        (Dcd d G p (step d e.1 s (.recv e.2 .ok)).1 ∧
+          ∃ rule J, (step d e.1 s (.recv e.2 .ok)).2 = [.rule rule G.ρ, .stopTimer, .decide G.v G.ρ J]) := by
+      have hshape := hsh e.2 (List.mem_append_left _ (List.mem_append_right _ List.mem_cons_self))
+      generalize hm : e.2 = m at *
+      cases hshape with
+      | old m hm' => have := hm'.1 m.core List.mem_cons_self; omega
+      | rc a ha hok => exact absurd hok.typ hnrc
+      | pp m hm' hl =>
+        obtain ⟨a1, a2, _⟩ := act_recv_pp e.1 h hloc hm'
+        left; refine ⟨a1, ?_⟩; rw [a2]; exact ⟨rfl, rfl⟩
+      | prep a ha =>
+        obtain ⟨a1, a2⟩ := act_recv_prepare e.1 h hloc
+        left; refine ⟨a1, ?_⟩
+        rcases a2 with a2 | ⟨_, J, a2⟩
+        · rw [a2]; exact Quiet.nil
+        · rw [a2]; exact ⟨rfl, rfl⟩
+      | commit a ha =>
+        rcases act_recv_commit e.1 h hloc with ⟨a1, a2⟩ | ⟨⟨rule, J, _, a1⟩, a2, _⟩
+        · left; refine ⟨a2, ?_⟩; rw [a1]; exact Quiet.nil
+        · right; exact ⟨a2, rule, J, by rw [a1]⟩
+      | dec m hm' hs =>
+        obtain ⟨⟨rule, J, _, a1⟩, a2⟩ := act_recv_decided e.1 hq1 h hm'
+        right; exact ⟨a2, rule, J, by rw [a1]⟩
+    rcases hfirst with ⟨a1, a2⟩ | ⟨a1, rule, J, a2⟩
+    · rcases ih _ _ a1 hsh hnd hfifo hrest with ⟨b1, b2⟩ | ⟨b1, b2, b3⟩
+      · left; exact ⟨b1, Quiet.append a2 b2⟩
+      · right
+        exact ⟨b1, decidedOnce_quiet_append a2 b2, noFault_append a2.1 b3⟩
+    · right
+      obtain ⟨b1, b2⟩ := dcd_run es _ a1 (fun e' he' => (hrest e' he').2)
+      have := decidedOnce_of_quiet (v := G.v) (r := G.ρ) Quiet.nil rule J
+      simp only [List.nil_append] at this
+      refine ⟨b1, ?_, ?_⟩
+      · show decidedOnce G.v G.ρ (_ ++ _) = true
+        rw [a2]; exact decidedOnce_append_quiet this.1 b2
+      · show noFault (_ ++ _) = true
+        rw [a2]; exact noFault_append this.2 b2.1
+
+/-- … and it HAS decided as soon as COMMITs of a quorum of distinct members, or a DECIDED, are among
+the deliveries. -/
+theorem tail_decides {d : Def} {R : List Nat} {G : Rd} {I : Nat → Nat} {p : Nat} (hq1 : 1 ≤ d.quorum)
+    (es : List (Oracle × Msg)) (s : NodeState) (L : List Msg) (h : Act d G I p s L)
+    (hsh : ∀ x ∈ L ++ es.map (·.2), Shape d R G x)
+    (hnd : ∀ K, (K = tPrePrepare ∨ K = tPrepare ∨ K = tCommit ∨ K = tRoundChange) →
+      (srcsOf K G.ρ (L ++ es.map (·.2))).Nodup)
+    (hfifo : ∀ a, ((L ++ es.map (·.2)).filter (fun x => x.core.src == a)).length ≤ d.fifo)
+    (hrd : ∀ e ∈ es, e.2.core.round = G.ρ ∧ e.2.core.typ ≠ tRoundChange)
+    (hfin : d.quorum ≤ (srcsOf tCommit G.ρ (L ++ es.map (·.2))).length ∨
+      ∃ e ∈ es, e.2.core.typ = tDecided) :
+    Dcd d G p (runRecv d s es).1 ∧ decidedOnce G.v G.ρ (runRecv d s es).2 = true ∧
+      noFault (runRecv d s es).2 = true := by
+  rcases tail_any_order hq1 es s L h hsh hnd hfifo hrd with ⟨a1, _⟩ | h2
+  · exfalso
+    rcases hfin with hf | ⟨e, he, ht⟩
+    · have := a1.qcl; omega
+    · exact a1.noDec e.2 (List.mem_append_right _ (List.mem_map.mpr ⟨e, he, rfl⟩)) ht
+  · exact h2
+
+end TP
+
+/-! ### The cluster invariant after the proposal (generalisation of `RInv` of `Proofs/QbftTimed.lean`:
+members hold earlier rounds' messages `G.pre p`, ROUND-CHANGEs carry certificates, the PRE-PREPARE a
+J1/J2 justification; the value `G.v` is the one the leader proposed) -/
+
+open RoundTimer (lookup)
+namespace TP
+
+/-! ### Local view of an undecided member in the round -/
+
+/-- `p` has broadcast its message of type `K` for the round — read off its state. (Round 1 is entered
+by `start`: no ROUND-CHANGE is sent for it, and its leader proposes at once if it has an input.) -/
+def sentB (G : Rd) (K : Nat) (s : NodeState) : Bool :=
+  s.round == G.ρ &&
+    (if K = tRoundChange then G.ρ != 1
+     else if K = tPrePrepare then s.proc == G.l &&
+       (if G.ρ = 1 then s.inputValue != 0 else s.dedup.contains (uQuorumRoundChanges, G.ρ))
+     else if K = tPrepare then s.dedup.contains (uJustifiedPrePrepare, G.ρ)
+     else if K = tCommit then s.dedup.contains (uQuorumPrepares, G.ρ)
+     else false)
+
+
+theorem Shape.src_mem {d : Def} {R : List Nat} {G : Rd} {m : Msg} (h : Shape d R G m)
+    (hr : m.core.round = G.ρ) : m.core.src ∈ R := by
+  cases h with
+  | old m hm => have := hm.1 m.core List.mem_cons_self; omega
+  | rc a ha hok => rw [hok.src]; exact ha
+  | pp m hm hl => rw [hm.1]; exact hl
+  | prep a ha => exact ha
+  | commit a ha => exact ha
+  | dec m hm hs => exact hs
+
+
+theorem Shape.typ_cases {d : Def} {R : List Nat} {G : Rd} {m : Msg} (h : Shape d R G m) :
+    m.core.round < G.ρ ∨
+    (m.core.round = G.ρ ∧ (m.core.typ = tRoundChange ∨ m.core.typ = tPrePrepare ∨ m.core.typ = tPrepare ∨
+      m.core.typ = tCommit ∨ m.core.typ = tDecided)) := by
+  cases h with
+  | old m hm => left; exact hm.1 m.core List.mem_cons_self
+  | rc a ha hok => right; exact ⟨hok.round, Or.inl hok.typ⟩
+  | pp m hm hl => right; rw [hm.1]; exact ⟨rfl, Or.inr (Or.inl rfl)⟩
+  | prep a ha => right; exact ⟨rfl, Or.inr (Or.inr (Or.inl rfl))⟩
+  | commit a ha => right; exact ⟨rfl, Or.inr (Or.inr (Or.inr (Or.inl rfl)))⟩
+  | dec m hm hs => right; exact ⟨hm.2.1, Or.inr (Or.inr (Or.inr (Or.inr hm.1)))⟩
+
+
+/-! ### A member about to enter the round -/
+
+/-- a running member in round `G.ρ - 1` holding messages of earlier rounds only, with its round timer
+running; `G.rc p` is the ROUND-CHANGE it will announce (its prepared state and certificate). -/
+structure Pend (G : Rd) (I : Nat → Nat) (p : Nat) (s : NodeState) (L : List Msg) : Prop where
+  rho : 2 ≤ G.ρ
+  mid : Mid (G.ρ - 1) p s
+  ton : s.timerOn = true
+  buf : BufIs s.buffer L
+  old : ∀ x ∈ L, OldMsg G.ρ x
+  rc : G.rc p = rcOfState G.ρ p s
+  inp : s.inputValue = I p
+
+theorem srcsOf_old {G : Rd} {L : List Msg} (h : ∀ x ∈ L, OldMsg G.ρ x) (K : Nat) :
+    srcsOf K G.ρ L = [] := by
+  unfold srcsOf
+  rw [List.map_eq_nil_iff, List.filter_eq_nil_iff]
+  intro x hx
+  have := (h x hx).1 x.core List.mem_cons_self
+  simp only [Bool.and_eq_true, beq_iff_eq, not_and]
+  intro _; omega
+
+/-- the round timer of a pending member fires: it enters the round and announces it. -/
+theorem pend_enter {d : Def} {G : Rd} {I : Nat → Nat} {p : Nat} {s : NodeState} {L : List Msg} (o : Oracle)
+    (hq1 : 1 ≤ d.quorum) (h : Pend G I p s L) :
+    step d o s .timeout =
+      ({ s with round := G.ρ, dedup := [], ppjCache := none, timerOn := true },
+       [.roundChange (G.ρ - 1) G.ρ uRoundTimeout, .stopTimer, .newTimer G.ρ,
+        .bcast tRoundChange G.ρ 0 s.preparedRound s.preparedValue s.preparedJust]) ∧
+    Act d G I p (step d o s .timeout).1 L := by
+  have hρ := h.rho
+  have hst := step_timeout (d := d) (o := o) h.mid.dead h.mid.started h.ton
+  have hr : s.round + 1 = G.ρ := by rw [h.mid.round]; omega
+  have hst2 : step d o s .timeout =
+      ({ s with round := G.ρ, dedup := [], ppjCache := none, timerOn := true },
+       [.roundChange (G.ρ - 1) G.ρ uRoundTimeout, .stopTimer, .newTimer G.ρ,
+        .bcast tRoundChange G.ρ 0 s.preparedRound s.preparedValue s.preparedJust]) := by
+    rw [hst, hr, h.mid.round]
+  refine ⟨hst2, ?_⟩
+  rw [hst2]
+  refine ⟨⟨h.mid.dead, h.mid.started, rfl, h.mid.qc, h.mid.cfr, h.mid.proc⟩, h.buf, ?_, ?_, ?_, by simp, ?_,
+    by simp, ?_, fun _ => rfl, h.inp, rfl⟩
+  · intro x hx; exact (h.old x hx).2
+  · rw [srcsOf_old h.old]; simp
+  · rw [srcsOf_old h.old]; simp; omega
+  · rw [srcsOf_old h.old]; simp; omega
+  · rw [srcsOf_old h.old]; simp; omega
+
+/-! ### What a step contributes to the cluster's bookkeeping -/
+
+/-- number of messages of the round `p` has broadcast (DECIDEDs not counted). -/
+def nsent (G : Rd) (s : NodeState) : Nat :=
+  (if sentB G tRoundChange s then 1 else 0) + (if sentB G tPrePrepare s then 1 else 0) +
+  (if sentB G tPrepare s then 1 else 0) + (if sentB G tCommit s then 1 else 0)
+
+/-- the four message types a member sends at most once per round. -/
+def Once (K : Nat) : Prop := K = tPrePrepare ∨ K = tPrepare ∨ K = tCommit ∨ K = tRoundChange
+
+/-- Effect of a step of member `p` (state `s` → `s'`, outputs `outs`): each of the four once-only
+messages is sent exactly when the corresponding flag flips; every message sent has the shape of
+the round and type `nxt`. -/
+structure Fx (d : Def) (R : List Nat) (G : Rd) (p : Nat) (s s' : NodeState) (outs : List Out)
+    (nxt : Nat) : Prop where
+  eff : ∀ K, Once K → (if sentB G K s' then 1 else 0) =
+    (if sentB G K s then 1 else 0) + (twires p outs).countP (isKind K G.ρ p)
+  shp : ∀ m' ∈ twires p outs, Shape d R G m' ∧ m'.core.src = p ∧ m'.core.round = G.ρ ∧ m'.core.typ = nxt
+
+theorem fx_buffered {d : Def} {R : List Nat} {G : Rd} {p : Nat} {s : NodeState} {m : Msg}
+    {r : NodeState × List Out} (h : Buffered d s m r) (nxt : Nat) : Fx d R G p s r.1 r.2 nxt := by
+  rw [h]
+  exact ⟨fun K _ => by simp [sentB, twires], fun m' hm' => by simp [twires] at hm'⟩
+
+theorem fx_pp {d : Def} {R : List Nat} {G : Rd} {p : Nat} {s : NodeState} {m : Msg}
+    (hm : Mid G.ρ p s) (hp : p ∈ R) (hdd : (uJustifiedPrePrepare, G.ρ) ∉ s.dedup) :
+    Fx d R G p s { s with buffer := bufferMsg d.fifo s.buffer m,
+                          dedup := (uJustifiedPrePrepare, G.ρ) :: s.dedup, timerOn := true }
+      [.rule uJustifiedPrePrepare G.ρ, .stopTimer, .newTimer G.ρ, .bcast tPrepare G.ρ G.v 0 0 []]
+      tPrepare := by
+  constructor
+  · intro K hK
+    have hw : twires p [Out.rule uJustifiedPrePrepare G.ρ, Out.stopTimer, Out.newTimer G.ρ,
+        Out.bcast tPrepare G.ρ G.v 0 0 []] = [prepMsg G.ρ G.v p] := rfl
+    simp only [hw]
+    simp only [uJustifiedPrePrepare] at hdd
+    rcases hK with rfl | rfl | rfl | rfl <;>
+      simp [sentB, isKind, prepMsg, hm.round, hm.proc, hdd, tPrePrepare, tPrepare, tCommit,
+        tRoundChange, uQuorumRoundChanges, uJustifiedPrePrepare, uQuorumPrepares]
+  · intro m' hm'
+    simp only [twires, twire, List.filterMap_cons, List.filterMap_nil, List.mem_singleton] at hm'
+    subst hm'
+    exact ⟨Shape.prep p hp, rfl, rfl, rfl⟩
+
+theorem fx_prepared {d : Def} {R : List Nat} {G : Rd} {p : Nat} {s : NodeState} {m : Msg}
+    {r : NodeState × List Out} (hm : Mid G.ρ p s) (hp : p ∈ R) (h : Prepared d G s m r) :
+    Fx d R G p s r.1 r.2 tCommit := by
+  obtain ⟨hdd, J, hr⟩ := h
+  rw [hr]
+  constructor
+  · intro K hK
+    have hw : twires p [Out.rule uQuorumPrepares G.ρ, Out.bcast tCommit G.ρ G.v 0 0 []] =
+        [commitMsg G.ρ G.v p] := rfl
+    simp only [hw]
+    simp only [uQuorumPrepares] at hdd
+    rcases hK with rfl | rfl | rfl | rfl <;>
+      simp [sentB, isKind, commitMsg, hm.round, hm.proc, hdd, tPrePrepare, tPrepare, tCommit,
+        tRoundChange, uQuorumRoundChanges, uJustifiedPrePrepare, uQuorumPrepares]
+  · intro m' hm'
+    simp only [twires, twire, List.filterMap_cons, List.filterMap_nil, List.mem_singleton] at hm'
+    subst hm'
+    exact ⟨Shape.commit p hp, rfl, rfl, rfl⟩
+
+theorem fx_decides {d : Def} {R : List Nat} {G : Rd} {p : Nat} {s : NodeState} {m : Msg}
+    {r : NodeState × List Out} (h : Decides d G s m r) (nxt : Nat) : Fx d R G p s r.1 r.2 nxt := by
+  obtain ⟨rule, J, hrule, hr⟩ := h
+  rw [hr]
+  constructor
+  · intro K hK
+    have hw : twires p [Out.rule rule G.ρ, Out.stopTimer, Out.decide G.v G.ρ J] = [] := rfl
+    simp only [hw]
+    rcases hrule with rfl | rfl <;> rcases hK with rfl | rfl | rfl | rfl <;>
+      simp [sentB, tPrePrepare, tPrepare, tCommit,
+        tRoundChange, uQuorumRoundChanges, uJustifiedPrePrepare, uQuorumPrepares, uQuorumCommits,
+        uJustifiedDecided]
+  · intro m' hm'
+    have hw : twires p [Out.rule rule G.ρ, Out.stopTimer, Out.decide G.v G.ρ J] = [] := rfl
+    rw [hw] at hm'
+    cases hm'
+
+theorem fx_enter {d : Def} {R : List Nat} {G : Rd} {p : Nat} {s : NodeState} (hρ : 2 ≤ G.ρ)
+    (hm : Mid (G.ρ - 1) p s) (hp : p ∈ R) (hok : RcOk d G.ρ (G.rc p) p) (hrc : G.rc p = rcOfState G.ρ p s) :
+    Fx d R G p s { s with round := G.ρ, dedup := [], ppjCache := none, timerOn := true }
+      [.roundChange (G.ρ - 1) G.ρ uRoundTimeout, .stopTimer, .newTimer G.ρ,
+        .bcast tRoundChange G.ρ 0 s.preparedRound s.preparedValue s.preparedJust]
+      tRoundChange := by
+  have hne1 : ¬ G.ρ = 1 := by omega
+  have hne : (s.round == G.ρ) = false := by
+    rw [hm.round]; simp; omega
+  have hw : twires p [Out.roundChange (G.ρ - 1) G.ρ uRoundTimeout, Out.stopTimer, Out.newTimer G.ρ,
+      Out.bcast tRoundChange G.ρ 0 s.preparedRound s.preparedValue s.preparedJust] = [G.rc p] := by
+    rw [hrc]; rfl
+  constructor
+  · intro K hK
+    simp only [hw]
+    rcases hK with rfl | rfl | rfl | rfl <;>
+      simp [sentB, isKind, hok.typ, hok.src, hok.round, hne, hne1, tPrePrepare, tPrepare, tCommit, tRoundChange]
+  · intro m' hm'
+    rw [hw] at hm'
+    simp only [List.mem_singleton] at hm'
+    subst hm'
+    exact ⟨Shape.rc p hp hok, hok.src, hok.round, hok.typ⟩
+
+/-- a decided member: flags frozen, at most a DECIDED goes out. -/
+theorem fx_dcd {d : Def} {R : List Nat} {G : Rd} {p : Nat} {s : NodeState} (o : Oracle) (m : Msg)
+    (hp : p ∈ R) (h : Dcd d G p s) :
+    Fx d R G p s (step d o s (.recv m .ok)).1 (step d o s (.recv m .ok)).2 tDecided := by
+  obtain ⟨h1, h2, h2i, h3⟩ := dcd_recv o m h
+  have hsame : ∀ K, sentB G K (step d o s (.recv m .ok)).1 = sentB G K s := by
+    intro K
+    unfold sentB
+    rw [h2, h2i, h1.round, h1.proc, h.round, h.proc]
+  constructor
+  · intro K hK
+    rw [hsame]
+    rcases h3 with h3 | ⟨_, h3⟩ <;> rw [h3]
+    · simp [twires]
+    · have hw : twires p [Out.bcast tDecided G.ρ G.v 0 0 s.qCommit] =
+          [{ core := ⟨tDecided, p, G.ρ, G.v, 0, 0⟩, just := s.qCommit }] := rfl
+      simp only [hw]
+      rcases hK with rfl | rfl | rfl | rfl <;>
+        simp [isKind, tPrePrepare, tPrepare, tCommit, tRoundChange, tDecided]
+  · intro m' hm'
+    rcases h3 with h3 | ⟨_, h3⟩ <;> rw [h3] at hm'
+    · simp [twires] at hm'
+    · simp only [twires, twire, List.filterMap_cons, List.filterMap_nil, List.mem_singleton] at hm'
+      subst hm'
+      refine ⟨Shape.dec _ ⟨rfl, rfl, rfl, ?_⟩ hp, rfl, rfl, rfl⟩
+      have hco : CommitOk d s := Or.inr (by rw [h.round, h.done.qcv]; exact h.cok)
+      have := justified_decided hco h.done.qc 0
+      rw [h.proc, h.round, h.done.qcv] at this
+      exact this
+
+
+/-- every ROUND-CHANGE core of the round a member holds is the core of a member's ROUND-CHANGE. -/
+theorem rc_core_of {d : Def} {R : List Nat} {G : Rd} {L : List Msg} (hs : ∀ x ∈ L, Shape d R G x)
+    (hd : ∀ x ∈ L, x.core.typ ≠ tDecided) {c : Core} (hc : c ∈ coresOf L) (ht : c.typ = tRoundChange)
+    (hr : c.round = G.ρ) : ∃ b ∈ R, RcOk d G.ρ (G.rc b) b ∧ c = (G.rc b).core := by
+  obtain ⟨x, hx, hcx⟩ := mem_coresOf.mp hc
+  have hsx := hs x hx
+  cases hsx with
+  | old m hm =>
+    have : c ∈ x.core :: x.just := by
+      rcases hcx with h | h
+      · rw [h]; exact List.mem_cons_self
+      · exact List.mem_cons_of_mem _ h
+    have := hm.1 c this; omega
+  | rc b hb hok =>
+    rcases hcx with h | h
+    · exact ⟨b, hb, hok, h⟩
+    · have := (hok.just_prepare c h).1
+      rw [ht] at this; exact absurd this (by decide)
+  | pp m hm hl =>
+    rcases hcx with h | h
+    · rw [h, hm.1] at ht; simp [tPrePrepare, tRoundChange] at ht
+    · exact hm.2.1.2.1 c h ht hr
+  | prep b hb =>
+    rcases hcx with h | h
+    · rw [h] at ht; simp [prepMsg, tPrepare, tRoundChange] at ht
+    · simp [prepMsg] at h
+  | commit b hb =>
+    rcases hcx with h | h
+    · rw [h] at ht; simp [commitMsg, tCommit, tRoundChange] at ht
+    · simp [commitMsg] at h
+  | dec m hm hs' => exact absurd hm.1 (hd _ hx)
+
+/-- **The leader-side selection succeeds on every buffer of the round**: ROUND-CHANGEs with
+certificates, the leader's PRE-PREPARE with its J1/J2 justification, PREPAREs and COMMITs of the
+round and messages of earlier rounds, in any mix — as soon as it holds ROUND-CHANGE cores of a quorum
+of sources. -/
+theorem qrc_some_any {d : Def} {R : List Nat} {G : Rd} {L : List Msg} {buf : List (Nat × List Msg)}
+    (hq1 : 1 ≤ d.quorum) (hb : BufIs buf L) (hs : ∀ x ∈ L, Shape d R G x)
+    (hd : ∀ x ∈ L, x.core.typ ≠ tDecided) (ord : List Nat) (k : Nat)
+    (hq : d.quorum ≤ (filterRoundChange (flatten ord buf) G.ρ).length) :
+    ∃ j, getJustifiedQrc d k (flatten ord buf) G.ρ = some j := by
+  have hmemf : ∀ c, c ∈ flatten ord buf ↔ c ∈ coresOf L := mem_flatten_bufIs hb
+  -- completeness of the de-duplicated list
+  have hcompl : ∀ c ∈ flatten ord buf, c.typ = tRoundChange → c.round = G.ρ →
+      c ∈ filterRoundChange (flatten ord buf) G.ρ := by
+    intro c hc ht hr
+    unfold filterRoundChange
+    apply filterMsgs_mem (value := none) (pr := none) (pv := none) hc
+      ⟨ht, hr, by refine ⟨?_, ?_, ?_⟩ <;> (intro v hv; cases hv)⟩
+    intro c' hc' hm' hsrc
+    obtain ⟨b, _, hok, e⟩ := rc_core_of hs hd ((hmemf c).mp hc) ht hr
+    obtain ⟨b', _, hok', e'⟩ := rc_core_of hs hd ((hmemf c').mp hc') hm'.1 hm'.2.1
+    have hbb : b' = b := by
+      have h1 : c'.src = b' := by rw [e']; exact hok'.src
+      have h2 : c.src = b := by rw [e]; exact hok.src
+      omega
+    rw [e', e, hbb]
+  have hne : filterRoundChange (flatten ord buf) G.ρ ≠ [] := by
+    intro h0; rw [h0] at hq; change d.quorum ≤ 0 at hq; omega
+  obtain ⟨cm, hcm, hmax⟩ := exists_max_of_ne_nil (fun c : Core => c.pr) _ hne
+  have hcmS := filterMsgs_sound hcm
+  obtain ⟨bm, hbm, hokm, ecm⟩ := rc_core_of hs hd ((hmemf cm).mp hcmS.1) hcmS.2.1 hcmS.2.2.1
+  by_cases hz : cm.pr = 0
+  · -- all null: J1
+    refine ⟨_, getJustifiedQrc_null (Nat.le_trans hq ?_)⟩
+    unfold filterRoundChange
+    apply filterMsgs_length_opt
+    intro c hc ht hr
+    have hcf := hcompl c hc ht hr
+    have hle := hmax c hcf
+    obtain ⟨b, _, hok, e⟩ := rc_core_of hs hd ((hmemf c).mp hc) ht hr
+    have hpr : c.pr = 0 := by omega
+    have hpv : c.pv = 0 := by
+      rcases hok.cert with ⟨_, h2, _⟩ | ⟨h1, _⟩
+      · rw [e]; exact h2
+      · rw [e] at hpr; omega
+    exact ⟨ht, hr, by simp, by simpa using hpr, by simpa using hpv⟩
+  · -- J2 with the highest prepared round
+    obtain ⟨x, hx, hcx⟩ := mem_coresOf.mp ((hmemf cm).mp hcmS.1)
+    have hall : ∀ c ∈ filterRoundChange (flatten ord buf) G.ρ, c.pr ≤ cm.pr := hmax
+    have hsx := hs x hx
+    cases hsx with
+    | old m hm =>
+      have : cm ∈ x.core :: x.just := by
+        rcases hcx with h | h
+        · rw [h]; exact List.mem_cons_self
+        · exact List.mem_cons_of_mem _ h
+      have := hm.1 cm this
+      have := hcmS.2.2.1
+      omega
+    | rc b hb' hok =>
+      rcases hcx with h | h
+      · -- the ROUND-CHANGE itself is held: its certificate is in the buffer
+        have hcert : Cert d (G.rc b).core.pr (G.rc b).core.pv (G.rc b).just := by
+          rcases hok.cert with ⟨h1, _⟩ | ⟨_, _, _, h4⟩
+          · rw [h] at hz; exact absurd h1 hz
+          · exact h4
+        apply getJustifiedQrc_complete d hq1 k _ G.ρ cm.pr cm.pv hq hall ⟨cm, hcm, rfl, rfl⟩
+          ((G.rc b).just.map (·.src)) hcert.1 (by simpa using hcert.2.1)
+        intro s' hs'
+        obtain ⟨y, hy, rfl⟩ := List.mem_map.mp hs'
+        have := hcert.2.2 y hy
+        refine ⟨y, ?_, this.1, by rw [this.2.1, h], by rw [this.2.2, h], rfl⟩
+        rw [hmemf]; exact mem_coresOf.mpr ⟨_, hx, Or.inr hy⟩
+      · have := (hok.just_prepare cm h).1
+        rw [hcmS.2.1] at this; exact absurd this (by decide)
+    | pp m hm hl =>
+      rcases hcx with h | h
+      · have := hcmS.2.1; rw [h, hm.1] at this; simp [tPrePrepare, tRoundChange] at this
+      · rcases hm.2.1.2.2 with hnull | ⟨ρ', w, S, h1, ⟨c0, hc0, t0, r0, p0, v0⟩, hS, hSl, hprep⟩
+        · exact absurd (hnull cm h hcmS.2.1 hcmS.2.2.1).1 hz
+        · have hc0all : c0 ∈ flatten ord buf := by
+            rw [hmemf]; exact mem_coresOf.mpr ⟨_, hx, Or.inr hc0⟩
+          have hc0f := hcompl c0 hc0all t0 r0
+          have hle1 := h1 cm h hcmS.2.1 hcmS.2.2.1
+          have hle2 := hall c0 hc0f
+          have heq : cm.pr = ρ' := by omega
+          apply getJustifiedQrc_complete d hq1 k _ G.ρ ρ' w hq (by rw [← heq]; exact hall)
+            ⟨c0, hc0f, p0, v0⟩ S hS hSl
+          intro s' hs'
+          obtain ⟨y, hy, e1, e2, e3, e4⟩ := hprep s' hs'
+          exact ⟨y, by rw [hmemf]; exact mem_coresOf.mpr ⟨_, hx, Or.inr hy⟩, e1, e2, e3, e4⟩
+    | prep b hb' =>
+      rcases hcx with h | h
+      · have := hcmS.2.1; rw [h] at this; simp [prepMsg, tPrepare, tRoundChange] at this
+      · simp [prepMsg] at h
+    | commit b hb' =>
+      rcases hcx with h | h
+      · have := hcmS.2.1; rw [h] at this; simp [commitMsg, tCommit, tRoundChange] at this
+      · simp [commitMsg] at h
+    | dec m hm hs' => exact absurd hm.1 (hd _ hx)
+
+/-- **A ROUND-CHANGE of the round reaching a member after the leader proposed** is only buffered. -/
+theorem act_recv_rc {d : Def} {R : List Nat} {G : Rd} {I : Nat → Nat} {p : Nat} {s : NodeState} {L : List Msg} {a : Nat}
+    (o : Oracle) (hq1 : 1 ≤ d.quorum) (hlead : d.leader G.ρ = G.l) (h : Act d G I p s L)
+    (hh : LocHyp d R G L (G.rc a)) (ha : a ∈ R)
+    (hok : RcOk d G.ρ (G.rc a) a) (hfl : G.l = p → (uQuorumRoundChanges, G.ρ) ∈ s.dedup) :
+    Act d G I p (step d o s (.recv (G.rc a) .ok)).1 (L ++ [G.rc a]) ∧
+    Buffered d s (G.rc a) (step d o s (.recv (G.rc a) .ok)) := by
+  have hm := h.mid
+  have hbuf : BufIs (bufferMsg d.fifo s.buffer (G.rc a)) (L ++ [G.rc a]) := bufIs_bufferMsg h.buf hh.fifo
+  have hnoDec : ∀ x ∈ L ++ [G.rc a], x.core.typ ≠ tDecided := by
+    intro x hx
+    rcases List.mem_append.mp hx with hx | hx
+    · exact h.noDec x hx
+    · simp only [List.mem_singleton] at hx; subst hx; rw [hok.typ]; decide
+  have hj := hok.justified hq1 s.compareFailureRound
+  have hrr : (G.rc a).core.round = s.round := by rw [hok.round, hm.round]
+  have hst : step d o s (.recv (G.rc a) .ok) =
+      ({ s with buffer := bufferMsg d.fifo s.buffer (G.rc a) }, []) := by
+    by_cases hlt : (filterRoundChange (flatten o.srcOrd (bufferMsg d.fifo s.buffer (G.rc a))) s.round).length
+        < d.quorum
+    · exact step_rc_below hm.dead hm.started hm.qc hj hok.typ hrr hlt
+    · have hge : d.quorum ≤ (filterRoundChange (flatten o.srcOrd
+          (bufferMsg d.fifo s.buffer (G.rc a))) s.round).length := by omega
+      obtain ⟨J, hJ⟩ := qrc_some_any (G := G) hq1 hbuf hh.shape hnoDec o.srcOrd o.pqPerm
+        (by rw [hm.round] at hge; exact hge)
+      have hJ' : getJustifiedQrc d o.pqPerm (flatten o.srcOrd (bufferMsg d.fifo s.buffer (G.rc a)))
+          s.round = some J := by rw [hm.round]; exact hJ
+      by_cases hl : d.leader s.round = s.proc
+      · have : G.l = p := by rw [hm.round, hm.proc, hlead] at hl; exact hl
+        exact step_rc_dup' hm.dead hm.started hm.qc hj hok.typ hrr hge hJ'
+          (by rw [hok.round]; exact hfl this)
+      · exact step_rc_nonleader' hm.dead hm.started hm.qc hj hok.typ hrr hge hJ' hl
+  have hsn : ∀ K, K ≠ tRoundChange → srcsOf K G.ρ (L ++ [G.rc a]) = srcsOf K G.ρ L := by
+    intro K hK
+    rw [srcsOf_snoc, if_neg (by rw [hok.typ]; intro hc; exact hK hc.1.symm)]; simp
+  have hsn0 : srcsOf tRoundChange G.ρ (L ++ [G.rc a]) = srcsOf tRoundChange G.ρ L ++ [a] := by
+    rw [srcsOf_snoc, if_pos ⟨hok.typ, hok.round⟩, hok.src]
+  refine ⟨?_, hst⟩
+  rw [hst]
+  refine ⟨mid_of_eq hm rfl rfl rfl rfl rfl rfl, hbuf, hnoDec, by rw [hsn _ (by decide)]; exact h.jpp,
+    by rw [hsn _ (by decide)]; exact h.qp, h.qc, by rw [hsn _ (by decide)]; exact h.qcl, h.jd, ?_,
+    h.cache, h.inp, h.ton⟩
+  rw [hsn0]
+  constructor
+  · intro hd'
+    have := h.qrc.mp hd'
+    exact ⟨this.1, by simp; omega⟩
+  · intro hc; exact hfl hc.1
+/-! ### The cluster invariant of a round under way -/
+
+/-- timing of the round: the members enter it at instants in `[E, E + σ]`; the round timers armed at
+entry have their deadlines in `[E', E' + σ']`; `B` bounds the number of earlier-round messages per
+source. -/
+structure Tm where
+  E : Nat
+  σ : Nat
+  E' : Nat
+  σ' : Nat
+  B : Nat
+
+/-- number of network delays after the last entry by which a message of type `K` has been sent:
+ROUND-CHANGE 0, PRE-PREPARE 1, PREPARE 2, COMMIT 3. -/
+def kindIdx (K : Nat) : Nat := if K = tRoundChange then 0 else K
+
+/-- member `nd` after a step with result `r`, `rc` = what was delivered. -/
+def updNode (P : TParams) (now : Nat) (nd : TNode) (r : NodeState × List Out) (rc : List Msg) : TNode :=
+  { st := r.1, outs := nd.outs ++ r.2,
+    timer := (armAll P.arm now (nd.timer, nd.firsts) r.2).1,
+    firsts := (armAll P.arm now (nd.timer, nd.firsts) r.2).2,
+    rcvd := nd.rcvd ++ rc }
+
+theorem actNode_one (P : TParams) (s : TState) (p : Nat) (o : Oracle) (e : Event) (net : List Packet)
+    (rc : List Msg) :
+    actNode P s p o [e] net rc =
+      { now := s.now
+        node := fun q => if q = p then updNode P s.now (s.node p) (step P.d o (s.node p).st e) rc
+                         else s.node q
+        net := net ++ sendAll P.R s.now (twires p (step P.d o (s.node p).st e).2)
+        log := s.log ++ twires p (step P.d o (s.node p).st e).2 } := by
+  simp [actNode, updNode]
+
+/-- the state of one running member while round `G.ρ` is under way: about to enter it, in it and
+undecided, or decided. -/
+inductive MemInv (P : TParams) (G : Rd) (T : Tm) (now p : Nat) (nd : TNode) : Prop where
+  | pend (e : Nat) : Pend G P.inp p nd.st (G.pre p ++ nd.rcvd) → nd.timer = some e → T.E ≤ e → e ≤ T.E + T.σ →
+      now ≤ e → (∀ r, G.ρ ≤ r → lookup r nd.firsts = none) → Quiet nd.outs → MemInv P G T now p nd
+  | act (dl fd : Nat) : Act P.d G P.inp p nd.st (G.pre p ++ nd.rcvd) → Quiet nd.outs → T.E ≤ now →
+      nd.timer = some dl → T.E' ≤ dl → (srcsOf tPrePrepare G.ρ nd.rcvd = [] → dl ≤ T.E' + T.σ') →
+      lookup G.ρ nd.firsts = some fd → T.E' ≤ fd → (∀ r, G.ρ < r → lookup r nd.firsts = none) →
+      MemInv P G T now p nd
+  | dcd : Dcd P.d G p nd.st → nd.timer = none → decidedOnce G.v G.ρ nd.outs = true →
+      noFault nd.outs = true → T.E ≤ now → MemInv P G T now p nd
+
+structure RInv (P : TParams) (G : Rd) (T : Tm) (s : TState) : Prop where
+  net_ok : ∀ pk ∈ s.net, pk.dst ∈ P.R ∧ s.now ≤ pk.sent + P.hi ∧ T.E ≤ pk.sent ∧
+    pk.msg.core.round = G.ρ ∧
+    (pk.msg.core.typ ≠ tDecided → pk.sent ≤ T.E + T.σ + kindIdx pk.msg.core.typ * P.hi)
+  perm : ∀ p ∈ P.R, (inflight p s.net ++ (s.node p).rcvd).Perm s.log
+  shape : ∀ m ∈ s.log, Shape P.d P.R G m
+  counts : ∀ a ∈ P.R, ∀ K, Once K →
+    s.log.countP (isKind K G.ρ a) = if sentB G K (s.node a).st then 1 else 0
+  fb : ∀ a, (s.log.filter (fun m => m.core.src == a && m.core.typ != tDecided)).length ≤
+    (if a ∈ P.R then nsent G (s.node a).st else 0)
+  decs : ∀ m ∈ s.log, m.core.typ = tDecided → (s.node m.core.src).st.qCommit ≠ []
+  j1 : (∃ p ∈ P.R, (s.node p).st.qCommit ≠ []) →
+    P.d.quorum ≤ (P.R.filter (fun a => sentB G tCommit (s.node a).st)).length
+  j2 : (∃ a ∈ P.R, sentB G tCommit (s.node a).st = true) →
+    P.d.quorum ≤ (P.R.filter (fun a => sentB G tPrepare (s.node a).st)).length
+  j3 : (∃ a ∈ P.R, sentB G tPrepare (s.node a).st = true) →
+    G.l ∈ P.R ∧ sentB G tPrePrepare (s.node G.l).st = true
+  mem : ∀ p ∈ P.R, MemInv P G T s.now p (s.node p)
+  timers : ∀ p ∈ P.R, ∀ dl, (s.node p).timer = some dl → s.now ≤ dl
+
+theorem armStep_ge (arm : Option Nat → Nat → Nat → Nat) (now : Nat) (acc : Option Nat × List (Nat × Nat))
+    (o : Out) (h : ∀ x, acc.1 = some x → now ≤ x) : ∀ y, (armStep arm now acc o).1 = some y → now ≤ y := by
+  intro y hy
+  cases o <;> simp only [armStep] at hy <;> try exact h y hy
+  · simp only [Option.some.injEq] at hy; omega
+  · cases hy
+
+theorem armAll_ge (arm : Option Nat → Nat → Nat → Nat) (now : Nat) (outs : List Out) :
+    ∀ (acc : Option Nat × List (Nat × Nat)), (∀ x, acc.1 = some x → now ≤ x) →
+      ∀ y, (armAll arm now acc outs).1 = some y → now ≤ y := by
+  induction outs with
+  | nil => intro acc h y hy; exact h y hy
+  | cons o os ih =>
+    intro acc h y hy
+    unfold armAll at hy
+    simp only [List.foldl_cons] at hy
+    exact ih _ (armStep_ge arm now acc o h) y hy
+
+theorem countP_eq_zero_of_src {ms : List Msg} {p a K ρ : Nat} (h : ∀ m' ∈ ms, m'.core.src = p) (hne : a ≠ p) :
+    ms.countP (isKind K ρ a) = 0 := by
+  rw [List.countP_eq_zero]
+  intro m hm
+  simp only [isKind, Bool.and_eq_true, beq_iff_eq, not_and]
+  intro _ hc
+  exact hne (by rw [← hc, h m hm])
+
+/-- the non-DECIDED messages among what a step sends are counted by the four once-only kinds. -/
+theorem lenND_le {ms : List Msg} {p ρ : Nat}
+    (h : ∀ m' ∈ ms, m'.core.src = p ∧ m'.core.round = ρ ∧
+      (m'.core.typ = tRoundChange ∨ m'.core.typ = tPrePrepare ∨ m'.core.typ = tPrepare ∨
+        m'.core.typ = tCommit ∨ m'.core.typ = tDecided)) :
+    (ms.filter (fun m => m.core.src == p && m.core.typ != tDecided)).length ≤
+      ms.countP (isKind tRoundChange ρ p) + ms.countP (isKind tPrePrepare ρ p) +
+      ms.countP (isKind tPrepare ρ p) + ms.countP (isKind tCommit ρ p) := by
+  induction ms with
+  | nil => simp
+  | cons m ms ih =>
+    have ih' := ih (fun m' hm' => h m' (List.mem_cons_of_mem _ hm'))
+    obtain ⟨h1, h2, h3⟩ := h m List.mem_cons_self
+    simp only [List.filter_cons, List.countP_cons]
+    rcases h3 with h3 | h3 | h3 | h3 | h3 <;>
+      simp [isKind, h1, h2, h3, tRoundChange, tPrePrepare, tPrepare, tCommit, tDecided] <;>
+      simp [tRoundChange, tPrePrepare, tPrepare, tCommit, tDecided] at ih' <;> omega
+
+theorem lenND_zero {ms : List Msg} {p a : Nat} (h : ∀ m' ∈ ms, m'.core.src = p) (hne : a ≠ p) :
+    (ms.filter (fun m => m.core.src == a && m.core.typ != tDecided)) = [] := by
+  rw [List.filter_eq_nil_iff]
+  intro m hm
+  simp only [Bool.and_eq_true, beq_iff_eq, not_and]
+  intro hc
+  exact absurd (by rw [← hc, h m hm]) hne
+
+theorem filter_length_mono {R : List Nat} {f g : Nat → Bool} (h : ∀ a ∈ R, f a = true → g a = true) :
+    (R.filter f).length ≤ (R.filter g).length := by
+  induction R with
+  | nil => simp
+  | cons a as ih =>
+    have ih' := ih (fun x hx => h x (List.mem_cons_of_mem _ hx))
+    simp only [List.filter_cons]
+    cases hf : f a with
+    | false => simp only [Bool.false_eq_true, if_false]; split <;> simp <;> omega
+    | true => rw [h a List.mem_cons_self hf]; simp; omega
+
+/-- flags only flip from false to true. -/
+theorem Fx.mono {d : Def} {R : List Nat} {G : Rd} {p : Nat} {s s' : NodeState} {outs : List Out} {nxt : Nat}
+    (h : Fx d R G p s s' outs nxt) {K : Nat} (hK : Once K) (hs : sentB G K s = true) : sentB G K s' = true := by
+  have := h.eff K hK
+  rw [hs] at this
+  cases hs' : sentB G K s' with
+  | true => rfl
+  | false => rw [hs'] at this; simp at this; omega
+
+theorem Fx.nsent_eq {d : Def} {R : List Nat} {G : Rd} {p : Nat} {s s' : NodeState} {outs : List Out} {nxt : Nat}
+    (h : Fx d R G p s s' outs nxt) :
+    nsent G s' = nsent G s + ((twires p outs).countP (isKind tRoundChange G.ρ p) +
+      (twires p outs).countP (isKind tPrePrepare G.ρ p) + (twires p outs).countP (isKind tPrepare G.ρ p) +
+      (twires p outs).countP (isKind tCommit G.ρ p)) := by
+  unfold nsent
+  have e1 := h.eff tRoundChange (Or.inr (Or.inr (Or.inr rfl)))
+  have e2 := h.eff tPrePrepare (Or.inl rfl)
+  have e3 := h.eff tPrepare (Or.inr (Or.inl rfl))
+  have e4 := h.eff tCommit (Or.inr (Or.inr (Or.inl rfl)))
+  omega
+
+/-- **One step of a running member preserves the cluster invariant**, given what the step does
+locally (`Fx`, the member's new state, when it happens) and — where a flag flips or the member
+decides — the quorum facts read off the log. -/
+theorem rinv_act {P : TParams} {G : Rd} {T : Tm} {s : TState} (hR : P.R.Nodup) (h : RInv P G T s)
+    {p : Nat} (hp : p ∈ P.R) (o : Oracle) (e : Event) (net0 : List Packet) (rc : List Msg) (nxt : Nat)
+    (hnet0 : ∀ pk ∈ net0, pk ∈ s.net)
+    (hfl : ∀ q ∈ P.R, (inflight q net0 ++ ((s.node q).rcvd ++ if q = p then rc else [])).Perm
+      (inflight q s.net ++ (s.node q).rcvd))
+    (hfx : Fx P.d P.R G p (s.node p).st (step P.d o (s.node p).st e).1 (step P.d o (s.node p).st e).2 nxt)
+    (hmem : MemInv P G T s.now p (updNode P s.now (s.node p) (step P.d o (s.node p).st e) rc))
+    (htime : twires p (step P.d o (s.node p).st e).2 ≠ [] →
+      T.E ≤ s.now ∧ (nxt ≠ tDecided → s.now ≤ T.E + T.σ + kindIdx nxt * P.hi))
+    (hdec : nxt = tDecided → twires p (step P.d o (s.node p).st e).2 ≠ [] →
+      (step P.d o (s.node p).st e).1.qCommit ≠ [])
+    (hstay : (s.node p).st.qCommit ≠ [] → (step P.d o (s.node p).st e).1.qCommit ≠ [])
+    (hj1 : (step P.d o (s.node p).st e).1.qCommit ≠ [] → (s.node p).st.qCommit = [] →
+      P.d.quorum ≤ (P.R.filter (fun a => sentB G tCommit (s.node a).st)).length)
+    (hj2 : sentB G tCommit (step P.d o (s.node p).st e).1 = true → sentB G tCommit (s.node p).st = false →
+      P.d.quorum ≤ (P.R.filter (fun a => sentB G tPrepare (s.node a).st)).length)
+    (hj3 : sentB G tPrepare (step P.d o (s.node p).st e).1 = true → sentB G tPrepare (s.node p).st = false →
+      G.l ∈ P.R ∧ sentB G tPrePrepare (s.node G.l).st = true) :
+    RInv P G T (actNode P s p o [e] net0 rc) := by
+  rw [actNode_one]
+  generalize hr : step P.d o (s.node p).st e = r at *
+  have hsrc : ∀ m' ∈ twires p r.2, m'.core.src = p := fun m' hm' => (hfx.shp m' hm').2.1
+  -- the new node function
+  have hnode_p : (fun q => if q = p then updNode P s.now (s.node p) r rc else s.node q) p =
+      updNode P s.now (s.node p) r rc := by simp
+  have hnode_ne : ∀ q, q ≠ p →
+      (fun q => if q = p then updNode P s.now (s.node p) r rc else s.node q) q = s.node q := by
+    intro q hq; simp [hq]
+  have hst_of : ∀ q, ((fun q => if q = p then updNode P s.now (s.node p) r rc else s.node q) q).st =
+      if q = p then r.1 else (s.node q).st := by
+    intro q; by_cases hq : q = p <;> simp [hq, updNode]
+  -- flags are monotone at every member
+  have hmono : ∀ K, Once K → ∀ a, sentB G K (s.node a).st = true →
+      sentB G K ((fun q => if q = p then updNode P s.now (s.node p) r rc else s.node q) a).st = true := by
+    intro K hK a ha
+    rw [hst_of]
+    by_cases hap : a = p
+    · rw [if_pos hap]; subst hap; exact hfx.mono hK ha
+    · rw [if_neg hap]; exact ha
+  constructor
+  · -- net_ok
+    intro pk hpk
+    simp only at hpk ⊢
+    rcases List.mem_append.mp hpk with hpk | hpk
+    · exact h.net_ok pk (hnet0 pk hpk)
+    · obtain ⟨h1, h2, h3⟩ := mem_sendAll hpk
+      have hne : twires p r.2 ≠ [] := fun hc => by rw [hc] at h2; cases h2
+      obtain ⟨t1, t2⟩ := htime hne
+      obtain ⟨_, _, s3, s4⟩ := hfx.shp pk.msg h2
+      refine ⟨h1, by omega, by omega, s3, ?_⟩
+      intro hnd
+      rw [s4] at hnd ⊢
+      have := t2 hnd
+      omega
+  · -- perm
+    intro q hq
+    simp only
+    rw [inflight_append, inflight_sendAll hR hq]
+    have hrc : ((fun q => if q = p then updNode P s.now (s.node p) r rc else s.node q) q).rcvd =
+        (s.node q).rcvd ++ if q = p then rc else [] := by
+      by_cases hqp : q = p
+      · subst hqp; simp [updNode]
+      · simp [hqp]
+    rw [hrc]
+    have h1 := (hfl q hq).trans (h.perm q hq)
+    have h2 : (inflight q net0 ++ twires p r.2 ++ ((s.node q).rcvd ++ if q = p then rc else [])).Perm
+        ((inflight q net0 ++ ((s.node q).rcvd ++ if q = p then rc else [])) ++ twires p r.2) := by
+      rw [List.append_assoc, List.append_assoc]
+      exact List.Perm.append_left _ List.perm_append_comm
+    exact h2.trans (List.Perm.append_right _ h1)
+  · -- shape
+    intro m hm
+    rcases List.mem_append.mp hm with hm | hm
+    · exact h.shape m hm
+    · exact (hfx.shp m hm).1
+  · -- counts
+    intro a ha K hK
+    simp only
+    rw [List.countP_append, h.counts a ha K hK, hst_of]
+    by_cases hap : a = p
+    · subst hap
+      rw [if_pos rfl]
+      exact (hfx.eff K hK).symm
+    · rw [if_neg hap, countP_eq_zero_of_src hsrc hap]
+      rfl
+  · -- fb
+    intro a
+    simp only
+    rw [List.filter_append, List.length_append, hst_of]
+    have hb := h.fb a
+    by_cases hap : a = p
+    · subst hap
+      rw [if_pos rfl, hfx.nsent_eq]
+      rw [if_pos hp] at hb ⊢
+      have := lenND_le (ms := twires a r.2) (p := a) (ρ := G.ρ) (by
+        intro m' hm'
+        obtain ⟨s1, s2, s3, _⟩ := hfx.shp m' hm'
+        refine ⟨s2, s3, ?_⟩
+        rcases s1.typ_cases with hlt | ⟨_, hc⟩
+        · omega
+        · exact hc)
+      omega
+    · rw [if_neg hap, lenND_zero hsrc hap]
+      simpa using hb
+  · -- decs
+    intro m hm ht
+    simp only
+    rw [hst_of]
+    rcases List.mem_append.mp hm with hm | hm
+    · have := h.decs m hm ht
+      by_cases hmp : m.core.src = p
+      · rw [if_pos hmp]; rw [hmp] at this; exact hstay this
+      · rw [if_neg hmp]; exact this
+    · obtain ⟨_, s2, _, s4⟩ := hfx.shp m hm
+      rw [if_pos s2]
+      exact hdec (by rw [← s4, ht]) (fun hc => by rw [hc] at hm; cases hm)
+  · -- j1
+    rintro ⟨q, hq, hqd⟩
+    simp only at hqd ⊢
+    rw [hst_of] at hqd
+    have hold : P.d.quorum ≤ (P.R.filter (fun a => sentB G tCommit (s.node a).st)).length := by
+      by_cases hex : ∃ q' ∈ P.R, (s.node q').st.qCommit ≠ []
+      · exact h.j1 hex
+      · have hnone : ∀ q' ∈ P.R, (s.node q').st.qCommit = [] := by
+          intro q' hq'
+          apply Classical.byContradiction
+          intro hc
+          exact hex ⟨q', hq', hc⟩
+        by_cases hqp : q = p
+        · rw [if_pos hqp] at hqd
+          exact hj1 hqd (hnone p hp)
+        · rw [if_neg hqp] at hqd
+          exact absurd (hnone q hq) hqd
+    exact Nat.le_trans hold (filter_length_mono (fun a _ ha => hmono tCommit (Or.inr (Or.inr (Or.inl rfl))) a ha))
+  · -- j2
+    rintro ⟨q, hq, hqd⟩
+    simp only at hqd ⊢
+    rw [hst_of] at hqd
+    have hold : P.d.quorum ≤ (P.R.filter (fun a => sentB G tPrepare (s.node a).st)).length := by
+      by_cases hex : ∃ q' ∈ P.R, sentB G tCommit (s.node q').st = true
+      · exact h.j2 hex
+      · have hnone : ∀ q' ∈ P.R, sentB G tCommit (s.node q').st = false := by
+          intro q' hq'
+          cases hc : sentB G tCommit (s.node q').st with
+          | false => rfl
+          | true => exact absurd ⟨q', hq', hc⟩ hex
+        by_cases hqp : q = p
+        · rw [if_pos hqp] at hqd
+          exact hj2 hqd (hnone p hp)
+        · rw [if_neg hqp] at hqd
+          rw [hnone q hq] at hqd
+          cases hqd
+    exact Nat.le_trans hold (filter_length_mono (fun a _ ha => hmono tPrepare (Or.inr (Or.inl rfl)) a ha))
+  · -- j3
+    rintro ⟨q, hq, hqd⟩
+    simp only at hqd ⊢
+    rw [hst_of] at hqd
+    have hold : G.l ∈ P.R ∧ sentB G tPrePrepare (s.node G.l).st = true := by
+      by_cases hex : ∃ q' ∈ P.R, sentB G tPrepare (s.node q').st = true
+      · exact h.j3 hex
+      · have hnone : ∀ q' ∈ P.R, sentB G tPrepare (s.node q').st = false := by
+          intro q' hq'
+          cases hc : sentB G tPrepare (s.node q').st with
+          | false => rfl
+          | true => exact absurd ⟨q', hq', hc⟩ hex
+        by_cases hqp : q = p
+        · rw [if_pos hqp] at hqd
+          exact hj3 hqd (hnone p hp)
+        · rw [if_neg hqp] at hqd
+          rw [hnone q hq] at hqd
+          cases hqd
+    exact ⟨hold.1, hmono tPrePrepare (Or.inl rfl) G.l hold.2⟩
+  · -- mem
+    intro q hq
+    simp only
+    by_cases hqp : q = p
+    · subst hqp; rw [if_pos rfl]; exact hmem
+    · rw [if_neg hqp]; exact h.mem q hq
+  · -- timers
+    intro q hq dl hdl
+    simp only at hdl ⊢
+    by_cases hqp : q = p
+    · subst hqp
+      rw [if_pos rfl] at hdl
+      exact armAll_ge P.arm s.now r.2 _ (fun x hx => h.timers q hq x hx) dl hdl
+    · rw [if_neg hqp] at hdl
+      exact h.timers q hq dl hdl
+
+/-- the standing hypotheses of the stages after the proposal: cluster, timer object, latency, the
+members' ROUND-CHANGEs and what they held before the round. -/
+structure Hyp (P : TParams) (G : Rd) (T : Tm) : Prop where
+  nodup : P.R.Nodup
+  n1 : 1 ≤ P.d.nodes
+  rho : 2 ≤ G.ρ
+  lead : P.d.leader G.ρ = G.l
+  rcok : ∀ a ∈ P.R, RcOk P.d G.ρ (G.rc a) a
+  preOld : ∀ p ∈ P.R, ∀ x ∈ G.pre p, OldMsg G.ρ x
+  preLen : ∀ p ∈ P.R, ∀ a, ((G.pre p).filter (fun x => x.core.src == a)).length ≤ T.B
+  /-- a timer armed for the round at an entry instant has its deadline in `[E', E' + σ']` -/
+  ta : ∀ now, T.E ≤ now → now ≤ T.E + T.σ →
+    T.E' ≤ P.arm none now G.ρ ∧ P.arm none now G.ρ ≤ T.E' + T.σ'
+  /-- re-arming the timer for the round never yields a deadline before `E'` -/
+  tb : ∀ fd now, T.E' ≤ fd → T.E ≤ now → T.E' ≤ P.arm (some fd) now G.ρ
+  win : T.E + T.σ ≤ T.E'
+  /-- the skew of the entries does not exceed the minimal latency -/
+  lo : T.σ ≤ P.lo
+  fifo : T.B + 4 ≤ P.d.fifo
+
+theorem srcsOf_pre {P : TParams} {G : Rd} {T : Tm} (hy : Hyp P G T) {p : Nat} (hp : p ∈ P.R)
+    (K : Nat) (X : List Msg) : srcsOf K G.ρ (G.pre p ++ X) = srcsOf K G.ρ X := by
+  rw [srcsOf_append, srcsOf_old (hy.preOld p hp)]; rfl
+theorem mem_log_of_rcvd {P : TParams} {G : Rd} {T : Tm} {s : TState} (h : RInv P G T s) {p : Nat}
+    (hp : p ∈ P.R) {x : Msg} (hx : x ∈ (s.node p).rcvd) : x ∈ s.log :=
+  (h.perm p hp).mem_iff.mp (List.mem_append_right _ hx)
+
+theorem mem_log_of_inflight {P : TParams} {G : Rd} {T : Tm} {s : TState} (h : RInv P G T s) {p : Nat}
+    (hp : p ∈ P.R) {x : Msg} (hx : x ∈ inflight p s.net) : x ∈ s.log :=
+  (h.perm p hp).mem_iff.mp (List.mem_append_left _ hx)
+
+/-- a once-only message of the round in the log: its sender runs and its flag is set. -/
+theorem sent_of_log {P : TParams} {G : Rd} {T : Tm} {s : TState} (h : RInv P G T s) {x : Msg}
+    (hx : x ∈ s.log) (hK : Once x.core.typ) (hr : x.core.round = G.ρ) :
+    x.core.src ∈ P.R ∧ sentB G x.core.typ (s.node x.core.src).st = true := by
+  have hsrc := (h.shape x hx).src_mem hr
+  refine ⟨hsrc, ?_⟩
+  have hc := h.counts x.core.src hsrc x.core.typ hK
+  have hpos : 0 < s.log.countP (isKind x.core.typ G.ρ x.core.src) :=
+    List.countP_pos_iff.mpr ⟨x, hx, by simp [isKind, hr]⟩
+  cases hb : sentB G x.core.typ (s.node x.core.src).st with
+  | true => rfl
+  | false => rw [hb] at hc; simp only [Bool.false_eq_true, if_false] at hc; omega
+
+/-- what was delivered to `p` plus one message still in flight to it is a sub-multiset of the log. -/
+theorem countP_sub {P : TParams} {G : Rd} {T : Tm} {s : TState} (h : RInv P G T s) {p : Nat}
+    (hp : p ∈ P.R) {m : Msg} (hm : m ∈ inflight p s.net) (f : Msg → Bool) :
+    ((s.node p).rcvd ++ [m]).countP f ≤ s.log.countP f := by
+  have h1 : ((s.node p).rcvd ++ [m]).Perm ([m] ++ (s.node p).rcvd) := List.perm_append_comm
+  have h2 : ([m] ++ (s.node p).rcvd).Sublist (inflight p s.net ++ (s.node p).rcvd) :=
+    List.Sublist.append_right (List.singleton_sublist.mpr hm) _
+  rw [h1.countP_eq, ← (h.perm p hp).countP_eq]
+  exact h2.countP_le
+
+/-- the cluster invariant provides `LocHyp` for a non-DECIDED message in flight to an undecided member. -/
+theorem locHyp_of {P : TParams} {G : Rd} {T : Tm} {s : TState} (hy : Hyp P G T) (h : RInv P G T s)
+    {p : Nat} (hp : p ∈ P.R) (hnd : ∀ x ∈ G.pre p ++ (s.node p).rcvd, x.core.typ ≠ tDecided)
+    {m : Msg} (hm : m ∈ inflight p s.net) (hmt : m.core.typ ≠ tDecided) :
+    LocHyp P.d P.R G (G.pre p ++ (s.node p).rcvd) m := by
+  have hshape : ∀ x ∈ (G.pre p ++ (s.node p).rcvd) ++ [m], Shape P.d P.R G x := by
+    intro x hx
+    rcases List.mem_append.mp hx with hx | hx
+    · rcases List.mem_append.mp hx with hx | hx
+      · exact Shape.old x (hy.preOld p hp x hx)
+      · exact h.shape x (mem_log_of_rcvd h hp hx)
+    · simp only [List.mem_singleton] at hx; subst hx
+      exact h.shape x (mem_log_of_inflight h hp hm)
+  refine ⟨hshape, ?_, ?_⟩
+  · intro K hK
+    rw [List.append_assoc, srcsOf_pre hy hp]
+    rw [List.nodup_iff_count]
+    intro a
+    rw [count_srcsOf]
+    have h1 := countP_sub h hp hm (isKind K G.ρ a)
+    by_cases ha : a ∈ P.R
+    · have := h.counts a ha K hK
+      split at this <;> omega
+    · have : s.log.countP (isKind K G.ρ a) = 0 := by
+        rw [List.countP_eq_zero]
+        intro x hx
+        simp only [isKind, Bool.and_eq_true, beq_iff_eq, not_and]
+        intro hc hsrc
+        exact ha (hsrc ▸ (h.shape x hx).src_mem hc.2)
+      omega
+  · have hall : ∀ x ∈ (s.node p).rcvd ++ [m], x.core.typ ≠ tDecided := by
+      intro x hx
+      rcases List.mem_append.mp hx with hx | hx
+      · exact hnd x (List.mem_append_right _ hx)
+      · simp only [List.mem_singleton] at hx; subst hx; exact hmt
+    have heq : ((s.node p).rcvd ++ [m]).filter (fun x => x.core.src == m.core.src) =
+        ((s.node p).rcvd ++ [m]).filter (fun x => x.core.src == m.core.src && x.core.typ != tDecided) := by
+      apply List.filter_congr
+      intro x hx
+      have := hall x hx
+      simp [this]
+    have hpl := hy.preLen p hp m.core.src
+    rw [List.append_assoc, List.filter_append, List.length_append, heq, ← List.countP_eq_length_filter,
+      ← List.countP_eq_length_filter]
+    rw [← List.countP_eq_length_filter] at hpl
+    have h1 := countP_sub h hp hm (fun x => x.core.src == m.core.src && x.core.typ != tDecided)
+    have h2 := h.fb m.core.src
+    rw [← List.countP_eq_length_filter] at h2
+    have h3 : (if m.core.src ∈ P.R then nsent G (s.node m.core.src).st else 0) ≤ 4 := by
+      unfold nsent
+      split
+      · split <;> split <;> split <;> split <;> omega
+      · omega
+    have := hy.fifo
+    omega
+
+/-- a quorum of once-only messages of one type in the log: a quorum of members has the flag set. -/
+theorem quorum_of_srcs {P : TParams} {G : Rd} {T : Tm} {s : TState} (h : RInv P G T s) {L : List Msg}
+    (hL : ∀ x ∈ L, x ∈ s.log) {K : Nat} (hK : Once K) (hnd : (srcsOf K G.ρ L).Nodup)
+    (hq : P.d.quorum ≤ (srcsOf K G.ρ L).length) :
+    P.d.quorum ≤ (P.R.filter (fun a => sentB G K (s.node a).st)).length := by
+  refine Nat.le_trans hq (nodup_subset_length _ _ hnd ?_)
+  intro a ha
+  obtain ⟨x, hx, h1, h2, h3⟩ := mem_srcsOf.mp ha
+  have := sent_of_log h (hL x hx) (h1 ▸ hK) h2
+  rw [h1, h3] at this
+  exact List.mem_filter.mpr ⟨this.1, this.2⟩
+
+/-- delivering the `k`-th packet: what remains in flight and what the members have received. -/
+theorem deliver_ctx {s : TState} {k : Nat} {pk : Packet} (hk : s.net[k]? = some pk) :
+    pk ∈ s.net ∧ (∀ pk' ∈ s.net.eraseIdx k, pk' ∈ s.net) ∧
+    ∀ q, (inflight q (s.net.eraseIdx k) ++ ((s.node q).rcvd ++ if q = pk.dst then [pk.msg] else [])).Perm
+      (inflight q s.net ++ (s.node q).rcvd) := by
+  obtain ⟨A, B, h1, h2⟩ := eraseIdx_split hk
+  refine ⟨by rw [h1]; simp, ?_, ?_⟩
+  · intro pk' hpk'
+    rw [h2] at hpk'
+    rw [h1]
+    rcases List.mem_append.mp hpk' with hh | hh
+    · exact List.mem_append_left _ hh
+    · exact List.mem_append_right _ (List.mem_cons_of_mem _ hh)
+  · intro q
+    rw [h2, h1]
+    by_cases hq : q = pk.dst
+    · rw [if_pos hq]
+      have hp := inflight_split_same q A B pk hq.symm
+      have : (inflight q (A ++ B) ++ ((s.node q).rcvd ++ [pk.msg])).Perm
+          ((pk.msg :: inflight q (A ++ B)) ++ (s.node q).rcvd) := by
+        rw [← List.append_assoc]
+        refine List.perm_append_comm.trans ?_
+        simp
+      exact this.trans (List.Perm.append_right _ hp.symm)
+    · rw [if_neg hq, inflight_split_other q A B pk (fun hc => hq hc.symm)]
+      simp
+
+/-- a flag of another type than the one sent does not change. -/
+theorem Fx.same {d : Def} {R : List Nat} {G : Rd} {p : Nat} {s s' : NodeState} {outs : List Out} {nxt : Nat}
+    (h : Fx d R G p s s' outs nxt) {K : Nat} (hK : Once K) (hne : nxt ≠ K) : sentB G K s' = sentB G K s := by
+  have h0 : (twires p outs).countP (isKind K G.ρ p) = 0 := by
+    rw [List.countP_eq_zero]
+    intro m hm
+    have := (h.shp m hm).2.2.2
+    simp only [isKind, Bool.and_eq_true, beq_iff_eq, not_and]
+    intro hc
+    exact absurd (this.symm.trans hc.1) hne
+  have := h.eff K hK
+  rw [h0] at this
+  cases h1 : sentB G K s' <;> cases h2 : sentB G K s <;> simp [h1, h2] at this ⊢
+
+theorem quiet_append_of {a b : List Out} (ha : Quiet a) (hb : Quiet b) : Quiet (a ++ b) := Quiet.append ha hb
+
+/-- **Time passes.** -/
+theorem rinv_tick {P : TParams} {G : Rd} {T : Tm} {s : TState} (h : RInv P G T s) (dt : Nat)
+    (hc : canTick P s dt = true) : RInv P G T { s with now := s.now + dt } := by
+  unfold canTick at hc
+  simp only [Bool.and_eq_true, List.all_eq_true, decide_eq_true_eq] at hc
+  obtain ⟨hc1, hc2⟩ := hc
+  have htm : ∀ p ∈ P.R, ∀ dl, (s.node p).timer = some dl → s.now + dt ≤ dl := by
+    intro p hp dl hdl
+    have := hc1 p hp
+    rw [hdl] at this
+    simpa using this
+  refine ⟨?_, h.perm, h.shape, h.counts, h.fb, h.decs, h.j1, h.j2, h.j3, ?_, htm⟩
+  · intro pk hpk
+    obtain ⟨a1, _, a3, a4, a5⟩ := h.net_ok pk hpk
+    exact ⟨a1, hc2 pk hpk, a3, a4, a5⟩
+  · intro p hp
+    cases h.mem p hp with
+    | pend e a1 a2 a3 a4 a5 a6 a7 => exact .pend e a1 a2 a3 a4 (htm p hp e a2) a6 a7
+    | act dl fd a1 a2 a3 a4 a5 a6 a7 a8 a9 =>
+      exact .act dl fd a1 a2 (Nat.le_trans a3 (Nat.le_add_right _ _)) a4 a5 a6 a7 a8 a9
+    | dcd a1 a2 a3 a4 a5 => exact .dcd a1 a2 a3 a4 (Nat.le_trans a5 (Nat.le_add_right _ _))
+
+/-- every running member has been called. -/
+theorem started_of_mem {P : TParams} {G : Rd} {T : Tm} {now p : Nat} {nd : TNode}
+    (h : MemInv P G T now p nd) : nd.st.started = true := by
+  cases h with
+  | pend e a1 => exact a1.mid.started
+  | act dl fd a1 => exact a1.mid.started
+  | dcd a1 => exact a1.done.started
+
+/-- **The round timer of a member that has not entered the round yet fires**: it enters. -/
+theorem rinv_fire {P : TParams} {G : Rd} {T : Tm} {s : TState} (hy : Hyp P G T) (h : RInv P G T s)
+    {p : Nat} (hp : p ∈ P.R) (htm : (s.node p).timer = some s.now)
+    (hnr : (s.node p).st.round ≠ G.ρ) : RInv P G T (actNode P s p {} [.timeout] s.net []) := by
+  have hq1 := quorum_pos P.d hy.n1
+  cases h.mem p hp with
+  | act dl fd a1 => exact absurd a1.mid.round hnr
+  | dcd a1 a2 => rw [a2] at htm; cases htm
+  | pend e a1 a2 a3 a4 a5 a6 a7 =>
+    have he : e = s.now := by rw [a2] at htm; exact Option.some.inj htm
+    subst he
+    obtain ⟨hst, hact⟩ := pend_enter (d := P.d) ({} : Oracle) hq1 a1
+    have hfx : Fx P.d P.R G p (s.node p).st (step P.d {} (s.node p).st .timeout).1
+        (step P.d {} (s.node p).st .timeout).2 tRoundChange := by
+      rw [hst]; exact fx_enter a1.rho a1.mid hp (hy.rcok p hp) a1.rc
+    have hta := hy.ta s.now a3 a4
+    apply rinv_act hy.nodup h hp {} .timeout s.net [] tRoundChange (fun _ hpk => hpk)
+      (fun q _ => by simp) hfx
+    · -- the member's new state
+      have hl0 : lookup G.ρ (s.node p).firsts = none := a6 G.ρ (Nat.le_refl _)
+      have harm : armAll P.arm s.now ((s.node p).timer, (s.node p).firsts)
+          (step P.d {} (s.node p).st .timeout).2 =
+          (some (max s.now (P.arm none s.now G.ρ)), (G.ρ, P.arm none s.now G.ρ) :: (s.node p).firsts) := by
+        rw [hst]
+        simp [armAll, armStep, hl0]
+      refine .act (max s.now (P.arm none s.now G.ρ)) (P.arm none s.now G.ρ) ?_ ?_ a3 ?_ ?_ ?_ ?_ hta.1 ?_
+      · simpa [updNode] using hact
+      · show Quiet ((s.node p).outs ++ (step P.d {} (s.node p).st .timeout).2)
+        rw [hst]; exact Quiet.append a7 ⟨rfl, rfl⟩
+      · show (armAll P.arm s.now ((s.node p).timer, (s.node p).firsts) _).1 = _
+        rw [harm]
+      · have := hta.1; omega
+      · intro _
+        have := hta.2; have := hy.win; omega
+      · show lookup G.ρ (armAll P.arm s.now ((s.node p).timer, (s.node p).firsts) _).2 = _
+        rw [harm]; simp [lookup]
+      · intro r hr
+        show lookup r (armAll P.arm s.now ((s.node p).timer, (s.node p).firsts) _).2 = _
+        rw [harm]
+        simp only [lookup]
+        rw [if_neg (by omega)]
+        exact a6 r (by omega)
+    · intro _
+      exact ⟨a3, fun _ => by simp [kindIdx]; omega⟩
+    · intro hc; simp [tRoundChange, tDecided] at hc
+    · intro hc; exact absurd a1.mid.qc hc
+    · intro hc; exact absurd hact.mid.qc hc
+    · intro h1 h2; rw [hfx.same (Or.inr (Or.inr (Or.inl rfl))) (by decide)] at h1; rw [h1] at h2; cases h2
+    · intro h1 h2; rw [hfx.same (Or.inr (Or.inl rfl)) (by decide)] at h1; rw [h1] at h2; cases h2
+
+theorem decidedOnce_append_quiet {v r : Nat} {a b : List Out} (ha : decidedOnce v r a = true) (hb : Quiet b) :
+    decidedOnce v r (a ++ b) = true := by
+  unfold decidedOnce at *
+  rw [List.filter_append, hb.2, List.append_nil]
+  exact ha
+
+theorem noFault_append {a b : List Out} (ha : noFault a = true) (hb : noFault b = true) :
+    noFault (a ++ b) = true := by
+  unfold noFault at *
+  rw [List.all_append, ha, hb]; rfl
+
+theorem decidedOnce_of_quiet {v r : Nat} {a : List Out} (ha : Quiet a) (rule : Nat) (J : List Core) :
+    decidedOnce v r (a ++ [.rule rule r, .stopTimer, .decide v r J]) = true ∧
+    noFault (a ++ [.rule rule r, .stopTimer, .decide v r J]) = true := by
+  constructor
+  · unfold decidedOnce
+    rw [List.filter_append, ha.2]
+    simp [List.filter, Out.isDecide]
+  · exact noFault_append ha.1 rfl
+
+theorem sentB_commit {G : Rd} {s : NodeState} (h : sentB G tCommit s = true) :
+    (uQuorumPrepares, G.ρ) ∈ s.dedup := by
+  simp [sentB, tCommit, tRoundChange, tPrePrepare, tPrepare] at h
+  exact h.2
+
+theorem sentB_pp_false {G : Rd} {s : NodeState} (hρ : 2 ≤ G.ρ) (hr : s.round = G.ρ) (hp : s.proc = G.l)
+    (h : (uQuorumRoundChanges, G.ρ) ∉ s.dedup) : sentB G tPrePrepare s = false := by
+  have hne1 : ¬ G.ρ = 1 := by omega
+  simp [sentB, tRoundChange, tPrePrepare, hr, hp, h, hne1]
+
+/-! ### Reading the flags -/
+
+theorem sentB_rc_iff {G : Rd} {s : NodeState} :
+    sentB G tRoundChange s = true ↔ s.round = G.ρ ∧ G.ρ ≠ 1 := by
+  simp [sentB]
+
+theorem sentB_pp_iff {G : Rd} {s : NodeState} (hρ : G.ρ ≠ 1) :
+    sentB G tPrePrepare s = true ↔ s.round = G.ρ ∧ s.proc = G.l ∧ (uQuorumRoundChanges, G.ρ) ∈ s.dedup := by
+  simp [sentB, tRoundChange, tPrePrepare, hρ]
+
+theorem sentB_pp_iff1 {G : Rd} {s : NodeState} (hρ : G.ρ = 1) :
+    sentB G tPrePrepare s = true ↔ s.round = G.ρ ∧ s.proc = G.l ∧ s.inputValue ≠ 0 := by
+  simp [sentB, tRoundChange, tPrePrepare, hρ]
+
+theorem sentB_pp_proc {G : Rd} {s : NodeState} (h : sentB G tPrePrepare s = true) : s.proc = G.l := by
+  simp [sentB, tRoundChange, tPrePrepare] at h
+  exact h.2.1
+
+theorem sentB_prep_iff {G : Rd} {s : NodeState} :
+    sentB G tPrepare s = true ↔ s.round = G.ρ ∧ (uJustifiedPrePrepare, G.ρ) ∈ s.dedup := by
+  simp [sentB, tRoundChange, tPrePrepare, tPrepare]
+
+theorem sentB_commit_iff {G : Rd} {s : NodeState} :
+    sentB G tCommit s = true ↔ s.round = G.ρ ∧ (uQuorumPrepares, G.ρ) ∈ s.dedup := by
+  simp [sentB, tRoundChange, tPrePrepare, tPrepare, tCommit]
+
+
+/-- **A packet is delivered.** -/
+theorem rinv_deliver {P : TParams} {G : Rd} {T : Tm} {s : TState} (hy : Hyp P G T) (h : RInv P G T s)
+    (hfired : ∃ m ∈ s.log, IsPPm P.d P.R G m)
+    {k : Nat} (o : Oracle) {pk : Packet} (hk : s.net[k]? = some pk) (hlo : pk.sent + P.lo < s.now) :
+    RInv P G T (actNode P s pk.dst o [.recv pk.msg .ok] (s.net.eraseIdx k) [pk.msg]) := by
+  have hq1 := quorum_pos P.d hy.n1
+  obtain ⟨hpk, hnet0, hflq⟩ := deliver_ctx hk
+  obtain ⟨dst, msg, sent⟩ := pk
+  simp only at hlo hflq ⊢
+  obtain ⟨hdst, hnow, hE, hround, hbound⟩ := h.net_ok _ hpk
+  simp only at hdst hnow hE hround hbound
+  have hinfl : msg ∈ inflight dst s.net := mem_inflight.mpr ⟨_, hpk, rfl, rfl⟩
+  have hlog := mem_log_of_inflight h hdst hinfl
+  have hshape := h.shape msg hlog
+  have hEnow : T.E ≤ s.now := by omega
+  have hwin := hy.win
+  cases h.mem dst hdst with
+  | pend e a1 a2 a3 a4 a5 a6 a7 =>
+    have := hy.lo
+    omega
+  | dcd a1 a2 a3 a4 a5 =>
+    obtain ⟨hd', hdd, _, houts⟩ := dcd_recv (d := P.d) o msg a1
+    have hfx := fx_dcd (R := P.R) o msg hdst a1
+    have harm : armAll P.arm s.now ((s.node dst).timer, (s.node dst).firsts)
+        (step P.d o (s.node dst).st (.recv msg .ok)).2 = ((s.node dst).timer, (s.node dst).firsts) := by
+      rcases houts with ho | ⟨_, ho⟩ <;> rw [ho] <;> rfl
+    have hquiet : Quiet (step P.d o (s.node dst).st (.recv msg .ok)).2 := by
+      rcases houts with ho | ⟨_, ho⟩ <;> rw [ho] <;> exact ⟨rfl, rfl⟩
+    apply rinv_act hy.nodup h hdst o (.recv msg .ok) (s.net.eraseIdx k) [msg] tDecided hnet0
+      (fun q _ => hflq q) hfx
+    · refine .dcd hd' ?_ (decidedOnce_append_quiet a3 hquiet) (noFault_append a4 hquiet.1) a5
+      show (armAll P.arm s.now ((s.node dst).timer, (s.node dst).firsts) _).1 = none
+      rw [harm]; exact a2
+    · intro _; exact ⟨a5, fun hc => absurd rfl hc⟩
+    · intro _ _; exact hd'.done.qc
+    · intro _; exact hd'.done.qc
+    · intro _ hc; exact absurd hc a1.done.qc
+    · intro h1 h2; rw [hfx.same (Or.inr (Or.inr (Or.inl rfl))) (by decide)] at h1; rw [h1] at h2; cases h2
+    · intro h1 h2; rw [hfx.same (Or.inr (Or.inl rfl)) (by decide)] at h1; rw [h1] at h2; cases h2
+  | act dl fd a1 a2 a3 a4 a5 a6 a7 a8 a9 =>
+    -- the member decides (on the quorum of COMMITs or on a DECIDED)
+    have hdecide : ∀ (hD : Decides P.d G (s.node dst).st msg (step P.d o (s.node dst).st (.recv msg .ok)))
+        (_ : Dcd P.d G dst (step P.d o (s.node dst).st (.recv msg .ok)).1)
+        (_ : P.d.quorum ≤ (P.R.filter (fun a => sentB G tCommit (s.node a).st)).length),
+        RInv P G T (actNode P s dst o [.recv msg .ok] (s.net.eraseIdx k) [msg]) := by
+      intro hD hdcd hquo
+      have hfx := fx_decides (R := P.R) (p := dst) hD tDecided
+      obtain ⟨rule, J, hrule, hr⟩ := hD
+      have htw : twires dst (step P.d o (s.node dst).st (.recv msg .ok)).2 = [] := by rw [hr]; rfl
+      apply rinv_act hy.nodup h hdst o (.recv msg .ok) (s.net.eraseIdx k) [msg] tDecided hnet0
+        (fun q _ => hflq q) hfx
+      · have hdo := decidedOnce_of_quiet (v := G.v) (r := G.ρ) a2 rule J
+        refine .dcd hdcd ?_ ?_ ?_ a3
+        · show (armAll P.arm s.now ((s.node dst).timer, (s.node dst).firsts) _).1 = none
+          rw [hr]; rfl
+        · show decidedOnce G.v G.ρ ((s.node dst).outs ++ _) = true
+          rw [hr]; exact hdo.1
+        · show noFault ((s.node dst).outs ++ _) = true
+          rw [hr]; exact hdo.2
+      · intro hc; exact absurd htw hc
+      · intro _ hc; exact absurd htw hc
+      · intro _; exact hdcd.done.qc
+      · intro _ _; exact hquo
+      · intro h1 h2; rw [hfx.same (Or.inr (Or.inr (Or.inl rfl))) (by decide)] at h1; rw [h1] at h2; cases h2
+      · intro h1 h2; rw [hfx.same (Or.inr (Or.inl rfl)) (by decide)] at h1; rw [h1] at h2; cases h2
+    -- the member stays undecided and does not touch its timer
+    have hstay : ∀ (nxt : Nat)
+        (_ : Act P.d G P.inp dst (step P.d o (s.node dst).st (.recv msg .ok)).1 (G.pre dst ++ ((s.node dst).rcvd ++ [msg])))
+        (hfx : Fx P.d P.R G dst (s.node dst).st (step P.d o (s.node dst).st (.recv msg .ok)).1
+          (step P.d o (s.node dst).st (.recv msg .ok)).2 nxt)
+        (_ : armAll P.arm s.now ((s.node dst).timer, (s.node dst).firsts)
+          (step P.d o (s.node dst).st (.recv msg .ok)).2 = ((s.node dst).timer, (s.node dst).firsts))
+        (_ : Quiet (step P.d o (s.node dst).st (.recv msg .ok)).2)
+        (_ : msg.core.typ ≠ tPrePrepare)
+        (_ : nxt ≠ tDecided ∧ (twires dst (step P.d o (s.node dst).st (.recv msg .ok)).2 ≠ [] →
+          s.now ≤ T.E + T.σ + kindIdx nxt * P.hi))
+        (_ : sentB G tCommit (step P.d o (s.node dst).st (.recv msg .ok)).1 = true →
+          sentB G tCommit (s.node dst).st = false →
+          P.d.quorum ≤ (P.R.filter (fun a => sentB G tPrepare (s.node a).st)).length)
+        (_ : sentB G tPrepare (step P.d o (s.node dst).st (.recv msg .ok)).1 = true →
+          sentB G tPrepare (s.node dst).st = false → G.l ∈ P.R ∧ sentB G tPrePrepare (s.node G.l).st = true),
+        RInv P G T (actNode P s dst o [.recv msg .ok] (s.net.eraseIdx k) [msg]) := by
+      intro nxt hact' hfx harm hquiet hnpp hnx hj2 hj3
+      apply rinv_act hy.nodup h hdst o (.recv msg .ok) (s.net.eraseIdx k) [msg] nxt hnet0
+        (fun q _ => hflq q) hfx
+      · refine .act dl fd hact' (Quiet.append a2 hquiet) a3 ?_ a5 ?_ ?_ a8 ?_
+        · show (armAll P.arm s.now ((s.node dst).timer, (s.node dst).firsts) _).1 = _
+          rw [harm]; exact a4
+        · intro hnil
+          apply a6
+          have hnil' : srcsOf tPrePrepare G.ρ ((s.node dst).rcvd ++ [msg]) = [] := hnil
+          rw [srcsOf_snoc, if_neg (fun hc => hnpp hc.1)] at hnil'
+          simpa using hnil'
+        · show lookup G.ρ (armAll P.arm s.now ((s.node dst).timer, (s.node dst).firsts) _).2 = _
+          rw [harm]; exact a7
+        · intro r hr
+          show lookup r (armAll P.arm s.now ((s.node dst).timer, (s.node dst).firsts) _).2 = _
+          rw [harm]; exact a9 r hr
+      · intro hne; exact ⟨hEnow, fun _ => hnx.2 hne⟩
+      · intro hc; exact absurd hc hnx.1
+      · intro hc; exact absurd a1.mid.qc hc
+      · intro hc; exact absurd hact'.mid.qc hc
+      · exact hj2
+      · exact hj3
+    by_cases hdt : msg.core.typ = tDecided
+    · -- a DECIDED
+      have hm : IsDecm P.d G msg := by
+        cases hshape with
+        | old m' hm' => exact absurd hdt hm'.2
+        | rc a ha hok => rw [hok.typ] at hdt; exact absurd hdt (by decide)
+        | pp m' hm' _ => rw [hm'.1] at hdt; simp [tPrePrepare, tDecided] at hdt
+        | prep a ha => simp [prepMsg, tPrepare, tDecided] at hdt
+        | commit a ha => simp [commitMsg, tCommit, tDecided] at hdt
+        | dec m' hm' _ => exact hm'
+      obtain ⟨hD, hdcd⟩ := act_recv_decided (d := P.d) o hq1 a1 hm
+      exact hdecide hD hdcd (h.j1 ⟨msg.core.src, hshape.src_mem hround, h.decs msg hlog hdt⟩)
+    · have hloc := locHyp_of hy h hdst a1.noDec hinfl hdt
+      have hLlog : ∀ x ∈ (s.node dst).rcvd ++ [msg], x ∈ s.log := by
+        intro x hx
+        rcases List.mem_append.mp hx with hx | hx
+        · exact mem_log_of_rcvd h hdst hx
+        · simp only [List.mem_singleton] at hx; subst hx; exact hlog
+      have hb := hbound hdt
+      cases hshape with
+      | old m' hm' => have := hm'.1 _ List.mem_cons_self; omega
+      | dec m' hm' _ => exact absurd hm'.1 hdt
+      | rc a ha hok =>
+        have hfl : G.l = dst → (uQuorumRoundChanges, G.ρ) ∈ (s.node dst).st.dedup := by
+          intro hl
+          have hc := h.counts G.l (hl ▸ hdst) tPrePrepare (Or.inl rfl)
+          obtain ⟨mp, hmp, hpp⟩ := hfired
+          have hpos : 0 < s.log.countP (isKind tPrePrepare G.ρ G.l) := by
+            rw [List.countP_pos_iff]
+            exact ⟨mp, hmp, by simp [isKind, hpp.1]⟩
+          have hsb : sentB G tPrePrepare (s.node G.l).st = true := by
+            cases hb : sentB G tPrePrepare (s.node G.l).st with
+            | true => rfl
+            | false => rw [hb, if_neg (by decide)] at hc; omega
+          rw [hl] at hsb
+          have hne1 : G.ρ ≠ 1 := by have := hy.rho; omega
+          exact ((sentB_pp_iff hne1).mp hsb).2.2
+        obtain ⟨hact', hb'⟩ := act_recv_rc (d := P.d) o hq1 hy.lead a1 hloc ha hok hfl
+        rw [List.append_assoc] at hact'
+        have hfx : Fx P.d P.R G dst (s.node dst).st (step P.d o (s.node dst).st (.recv (G.rc a) .ok)).1
+            (step P.d o (s.node dst).st (.recv (G.rc a) .ok)).2 tPrePrepare := fx_buffered hb' _
+        refine hstay tPrePrepare hact' hfx (by rw [hb']; rfl) (by rw [hb']; exact ⟨rfl, rfl⟩)
+          (by rw [hok.typ]; decide) ⟨by decide, fun hne => ?_⟩ ?_ ?_
+        · exfalso; apply hne; rw [hb']; rfl
+        · intro h1 h2
+          have : sentB G tCommit (step P.d o (s.node dst).st (.recv (G.rc a) .ok)).1 =
+              sentB G tCommit (s.node dst).st := by rw [hb']; rfl
+          rw [this, h2] at h1; cases h1
+        · intro h1 h2
+          have : sentB G tPrepare (step P.d o (s.node dst).st (.recv (G.rc a) .ok)).1 =
+              sentB G tPrepare (s.node dst).st := by rw [hb']; rfl
+          rw [this, h2] at h1; cases h1
+      | pp m' hm' hlR =>
+        obtain ⟨hact', hst, hdd⟩ := act_recv_pp (d := P.d) o a1 hloc hm'
+        rw [List.append_assoc] at hact'
+        have hfx : Fx P.d P.R G dst (s.node dst).st (step P.d o (s.node dst).st (.recv msg .ok)).1
+            (step P.d o (s.node dst).st (.recv msg .ok)).2 tPrepare := by
+          rw [hst]; exact fx_pp a1.mid hdst hdd
+        have htyp : msg.core.typ = tPrePrepare := by rw [hm'.1]
+        have hsrc : msg.core.src = G.l := by rw [hm'.1]
+        have harm : armAll P.arm s.now ((s.node dst).timer, (s.node dst).firsts)
+            (step P.d o (s.node dst).st (.recv msg .ok)).2 =
+            (some (max s.now (P.arm (some fd) s.now G.ρ)), (s.node dst).firsts) := by
+          rw [hst]
+          simp [armAll, armStep, a7]
+        have htb := hy.tb fd s.now a8 hEnow
+        apply rinv_act hy.nodup h hdst o (.recv msg .ok) (s.net.eraseIdx k) [msg] tPrepare hnet0
+          (fun q _ => hflq q) hfx
+        · refine .act (max s.now (P.arm (some fd) s.now G.ρ)) fd hact' ?_ a3 ?_ (by omega) ?_ ?_ a8 ?_
+          · show Quiet ((s.node dst).outs ++ _)
+            rw [hst]; exact Quiet.append a2 ⟨rfl, rfl⟩
+          · show (armAll P.arm s.now ((s.node dst).timer, (s.node dst).firsts) _).1 = _
+            rw [harm]
+          · intro hnil
+            exfalso
+            have hnil' : srcsOf tPrePrepare G.ρ ((s.node dst).rcvd ++ [msg]) = [] := hnil
+            rw [srcsOf_snoc, if_pos ⟨htyp, hround⟩] at hnil'
+            simp at hnil'
+          · show lookup G.ρ (armAll P.arm s.now ((s.node dst).timer, (s.node dst).firsts) _).2 = _
+            rw [harm]; exact a7
+          · intro r hr
+            show lookup r (armAll P.arm s.now ((s.node dst).timer, (s.node dst).firsts) _).2 = _
+            rw [harm]; exact a9 r hr
+        · intro _
+          refine ⟨hEnow, fun _ => ?_⟩
+          rw [htyp] at hb
+          simp [kindIdx, tRoundChange, tPrePrepare, tPrepare] at hb ⊢; omega
+        · intro hc; simp [tPrepare, tDecided] at hc
+        · intro hc; exact absurd a1.mid.qc hc
+        · intro hc; exact absurd hact'.mid.qc hc
+        · intro h1 h2; rw [hfx.same (Or.inr (Or.inr (Or.inl rfl))) (by decide)] at h1; rw [h1] at h2; cases h2
+        · intro _ _
+          have := sent_of_log h hlog (by rw [htyp]; exact Or.inl rfl) hround
+          rw [htyp, hsrc] at this
+          exact this
+      | prep a ha =>
+        obtain ⟨hact', hout⟩ := act_recv_prepare (d := P.d) o a1 hloc
+        rw [List.append_assoc] at hact'
+        have hfx : Fx P.d P.R G dst (s.node dst).st (step P.d o (s.node dst).st (.recv (prepMsg G.ρ G.v a) .ok)).1
+            (step P.d o (s.node dst).st (.recv (prepMsg G.ρ G.v a) .ok)).2 tCommit := by
+          rcases hout with hb' | hpr
+          · exact fx_buffered hb' _
+          · exact fx_prepared a1.mid hdst hpr
+        have harm : armAll P.arm s.now ((s.node dst).timer, (s.node dst).firsts)
+            (step P.d o (s.node dst).st (.recv (prepMsg G.ρ G.v a) .ok)).2 =
+            ((s.node dst).timer, (s.node dst).firsts) := by
+          rcases hout with hb' | ⟨_, J, hr⟩
+          · rw [hb']; rfl
+          · rw [hr]; rfl
+        have hquiet : Quiet (step P.d o (s.node dst).st (.recv (prepMsg G.ρ G.v a) .ok)).2 := by
+          rcases hout with hb' | ⟨_, J, hr⟩
+          · rw [hb']; exact ⟨rfl, rfl⟩
+          · rw [hr]; exact ⟨rfl, rfl⟩
+        refine hstay tCommit hact' hfx harm hquiet (by simp [prepMsg, tPrepare, tPrePrepare])
+          ⟨by decide, fun _ => ?_⟩ ?_ ?_
+        · simp [kindIdx, prepMsg, tRoundChange, tPrepare, tCommit] at hb ⊢; omega
+        · intro h1 _
+          have hq := hact'.qp.mp (sentB_commit h1)
+          rw [srcsOf_pre hy hdst] at hq
+          exact quorum_of_srcs h hLlog (Or.inr (Or.inl rfl)) (by have := hloc.nodup _ (Or.inr (Or.inl rfl)); rwa [List.append_assoc, srcsOf_pre hy hdst] at this) hq
+        · intro h1 h2; rw [hfx.same (Or.inr (Or.inl rfl)) (by decide)] at h1; rw [h1] at h2; cases h2
+      | commit a ha =>
+        rcases act_recv_commit (d := P.d) o a1 hloc with ⟨hb', hact'⟩ | ⟨hD, hdcd, hquo⟩
+        · rw [List.append_assoc] at hact'
+          have hfx : Fx P.d P.R G dst (s.node dst).st
+              (step P.d o (s.node dst).st (.recv (commitMsg G.ρ G.v a) .ok)).1
+              (step P.d o (s.node dst).st (.recv (commitMsg G.ρ G.v a) .ok)).2 tCommit := fx_buffered hb' _
+          refine hstay tCommit hact' hfx (by rw [hb']; rfl) (by rw [hb']; exact ⟨rfl, rfl⟩)
+            (by simp [commitMsg, tCommit, tPrePrepare]) ⟨by decide, fun hne => ?_⟩ ?_ ?_
+          · exfalso; apply hne; rw [hb']; rfl
+          · intro h1 h2
+            have : sentB G tCommit (step P.d o (s.node dst).st (.recv (commitMsg G.ρ G.v a) .ok)).1 =
+                sentB G tCommit (s.node dst).st := by rw [hb']; rfl
+            rw [this, h2] at h1; cases h1
+          · intro h1 h2
+            have : sentB G tPrepare (step P.d o (s.node dst).st (.recv (commitMsg G.ρ G.v a) .ok)).1 =
+                sentB G tPrepare (s.node dst).st := by rw [hb']; rfl
+            rw [this, h2] at h1; cases h1
+        · exact hdecide hD hdcd
+            (quorum_of_srcs h hLlog (Or.inr (Or.inr (Or.inl rfl))) (by have := hloc.nodup _ (Or.inr (Or.inr (Or.inl rfl))); rwa [List.append_assoc, srcsOf_pre hy hdst] at this) (by rwa [List.append_assoc, srcsOf_pre hy hdst] at hquo))
+
+/-- **Every enabled action preserves the invariant of the round**, except a round timer firing at
+a member that is already in the round (the round is over for that member: `rinv_next`). -/
+theorem rinv_step {P : TParams} {G : Rd} {T : Tm} {s s' : TState} (hy : Hyp P G T) (h : RInv P G T s)
+    (hfired : ∃ m ∈ s.log, IsPPm P.d P.R G m) (a : TAct) (hs : tstep P s a = some s')
+    (hnf : ∀ p, a = .fire p → (s.node p).st.round ≠ G.ρ) : RInv P G T s' := by
+  cases a with
+  | tick dt =>
+    simp only [tstep] at hs
+    split at hs
+    · rename_i hc
+      cases hs
+      exact rinv_tick h dt hc
+    · cases hs
+  | deliver k o =>
+    simp only [tstep] at hs
+    split at hs
+    · cases hs
+    · rename_i pk hk
+      split at hs
+      · rename_i hlo
+        cases hs
+        exact rinv_deliver hy h hfired o hk hlo
+      · cases hs
+  | fire p =>
+    simp only [tstep] at hs
+    split at hs
+    · rename_i hc
+      cases hs
+      exact rinv_fire hy h hc.1 hc.2 (hnf p rfl)
+    · cases hs
+  | start p =>
+    simp only [tstep] at hs
+    split at hs
+    · rename_i hc
+      have := started_of_mem (h.mem p hc.1)
+      rw [hc.2] at this
+      cases this
+    · cases hs
+
+
+theorem filter_pos_exists {R : List Nat} {f : Nat → Bool} (h : 1 ≤ (R.filter f).length) :
+    ∃ a ∈ R, f a = true := by
+  cases hf : R.filter f with
+  | nil => rw [hf] at h; simp at h
+  | cons a as =>
+    have : a ∈ R.filter f := by rw [hf]; exact List.mem_cons_self
+    exact ⟨a, (List.mem_filter.mp this).1, (List.mem_filter.mp this).2⟩
+
+/-- somebody decided ⇒ the whole causal chain: quorums of COMMITs and PREPAREs were sent, the
+leader proposed. -/
+theorem chain_of_decided {P : TParams} {G : Rd} {T : Tm} {s : TState} (hq1 : 1 ≤ P.d.quorum)
+    (h : RInv P G T s) (hex : ∃ p ∈ P.R, (s.node p).st.qCommit ≠ []) :
+    P.d.quorum ≤ (P.R.filter (fun a => sentB G tCommit (s.node a).st)).length ∧
+    P.d.quorum ≤ (P.R.filter (fun a => sentB G tPrepare (s.node a).st)).length ∧
+    G.l ∈ P.R ∧ sentB G tPrePrepare (s.node G.l).st = true := by
+  have h1 := h.j1 hex
+  have h2 := h.j2 (filter_pos_exists (Nat.le_trans hq1 h1))
+  have h3 := h.j3 (filter_pos_exists (Nat.le_trans hq1 h2))
+  exact ⟨h1, h2, h3⟩
+
+/-- **Liveness of a round whose leader runs.** Once more than `σ + 4·hi` have passed since the first
+entry into the round, every running member has decided: all packets of the four once-only kinds have
+been delivered by then, and the thresholds follow one from the other. -/
+theorem live {P : TParams} {G : Rd} {T : Tm} {s : TState} (hy : Hyp P G T) (hl : G.l ∈ P.R)
+    (hquo : P.d.quorum ≤ P.R.length) (h : RInv P G T s) (hnow : T.E + T.σ + 4 * P.hi < s.now) :
+    ∀ p ∈ P.R, (s.node p).st.qCommit ≠ [] := by
+  have hq1 := quorum_pos P.d hy.n1
+  -- nobody is pending any more
+  have hnp : ∀ p ∈ P.R, (s.node p).st.round = G.ρ := by
+    intro p hp
+    cases h.mem p hp with
+    | pend e a1 a2 a3 a4 a5 => omega
+    | act dl fd a1 => exact a1.mid.round
+    | dcd a1 => exact a1.round
+  -- everything of the four kinds has been delivered
+  have hnet : ∀ pk ∈ s.net, pk.msg.core.typ = tDecided := by
+    intro pk hpk
+    obtain ⟨hdst, h2, h3, h4, h5⟩ := h.net_ok pk hpk
+    apply Classical.byContradiction
+    intro hnd
+    have hb := h5 hnd
+    have hsh := h.shape pk.msg (mem_log_of_inflight h hdst (mem_inflight.mpr ⟨pk, hpk, rfl, rfl⟩))
+    have hk : kindIdx pk.msg.core.typ ≤ 3 := by
+      rcases hsh.typ_cases with hlt | ⟨_, hc | hc | hc | hc | hc⟩
+      · omega
+      all_goals (first | exact absurd hc hnd | (rw [hc]; decide))
+    have : kindIdx pk.msg.core.typ * P.hi ≤ 3 * P.hi := Nat.mul_le_mul_right _ hk
+    omega
+  have hcnt : ∀ p ∈ P.R, ∀ K, Once K → ∀ a,
+      (s.node p).rcvd.countP (isKind K G.ρ a) = s.log.countP (isKind K G.ρ a) := by
+    intro p hp K hK a
+    rw [← (h.perm p hp).countP_eq, List.countP_append]
+    have : (inflight p s.net).countP (isKind K G.ρ a) = 0 := by
+      rw [List.countP_eq_zero]
+      intro m hm
+      obtain ⟨pk, hpk, _, rfl⟩ := mem_inflight.mp hm
+      have := hnet pk hpk
+      simp only [isKind, Bool.and_eq_true, beq_iff_eq, not_and]
+      intro hc
+      rw [this] at hc
+      rcases hK with rfl | rfl | rfl | rfl <;> simp [tDecided, tPrePrepare, tPrepare, tCommit, tRoundChange] at hc
+    omega
+  -- an undecided member has received the message of every member whose flag is set
+  have hgot : ∀ p ∈ P.R, ∀ K, Once K →
+      (P.R.filter (fun a => sentB G K (s.node a).st)).length ≤ (srcsOf K G.ρ (s.node p).rcvd).length := by
+    intro p hp K hK
+    apply nodup_subset_length _ _ (hy.nodup.filter _)
+    intro a ha
+    obtain ⟨haR, hfa⟩ := List.mem_filter.mp ha
+    have h1 := h.counts a haR K hK
+    rw [hfa] at h1
+    have h2 := hcnt p hp K hK a
+    have : 0 < (srcsOf K G.ρ (s.node p).rcvd).count a := by rw [count_srcsOf]; simp at h1; omega
+    exact List.count_pos_iff.mp this
+  -- if all flags of a kind are set at the undecided members, a quorum has them set
+  have hflag : ∀ K, Once K →
+      ((∃ p ∈ P.R, (s.node p).st.qCommit ≠ []) →
+        P.d.quorum ≤ (P.R.filter (fun a => sentB G K (s.node a).st)).length) →
+      (∀ p ∈ P.R, (s.node p).st.qCommit = [] → sentB G K (s.node p).st = true) →
+      P.d.quorum ≤ (P.R.filter (fun a => sentB G K (s.node a).st)).length := by
+    intro K _ hdec hall
+    by_cases hex : ∃ p ∈ P.R, (s.node p).st.qCommit ≠ []
+    · exact hdec hex
+    · have : P.R.filter (fun a => sentB G K (s.node a).st) = P.R := by
+        rw [List.filter_eq_self]
+        intro a ha
+        apply hall a ha
+        apply Classical.byContradiction
+        intro hc
+        exact hex ⟨a, ha, hc⟩
+      rw [this]; exact hquo
+  apply Classical.byContradiction
+  intro hneg
+  have hex0 : ∃ p0 ∈ P.R, (s.node p0).st.qCommit = [] := by
+    apply Classical.byContradiction
+    intro hc
+    apply hneg
+    intro p hp hq
+    exact hc ⟨p, hp, hq⟩
+  obtain ⟨p0, hp0, hq0⟩ := hex0
+  -- an undecided member is in the `act` state
+  have hactOf : ∀ p ∈ P.R, (s.node p).st.qCommit = [] →
+      Act P.d G P.inp p (s.node p).st (G.pre p ++ (s.node p).rcvd) := by
+    intro p hp hq
+    cases h.mem p hp with
+    | pend e a1 a2 a3 a4 a5 => omega
+    | act dl fd a1 => exact a1
+    | dcd a1 => exact absurd hq a1.done.qc
+  -- everybody has entered: a quorum of ROUND-CHANGEs reaches the leader (in round 1 it proposes at once)
+  have hpp : sentB G tPrePrepare (s.node G.l).st = true := by
+    by_cases hld : (s.node G.l).st.qCommit = []
+    · have ha := hactOf G.l hl hld
+      by_cases h1 : G.ρ = 1
+      · refine (sentB_pp_iff1 h1).mpr ⟨ha.mid.round, ha.mid.proc, ?_⟩
+        exfalso; have := hy.rho; omega
+      · have hrcAll : P.R.filter (fun a => sentB G tRoundChange (s.node a).st) = P.R := by
+          rw [List.filter_eq_self]
+          intro a ha'
+          exact sentB_rc_iff.mpr ⟨hnp a ha', h1⟩
+        have := hgot G.l hl tRoundChange (Or.inr (Or.inr (Or.inr rfl)))
+        rw [hrcAll] at this
+        exact (sentB_pp_iff h1).mpr ⟨ha.mid.round, ha.mid.proc, ha.qrc.mpr ⟨rfl, by rw [srcsOf_pre hy hl]; omega⟩⟩
+    · exact (chain_of_decided hq1 h ⟨G.l, hl, hld⟩).2.2.2
+  -- hence every undecided member has received the PRE-PREPARE and sent its PREPARE
+  have hprepAll : ∀ p ∈ P.R, (s.node p).st.qCommit = [] → sentB G tPrepare (s.node p).st = true := by
+    intro p hp hq
+    have ha := hactOf p hp hq
+    have h1 := h.counts G.l hl tPrePrepare (Or.inl rfl)
+    rw [hpp] at h1
+    have h2 := hcnt p hp tPrePrepare (Or.inl rfl) G.l
+    have : 0 < (srcsOf tPrePrepare G.ρ (s.node p).rcvd).count G.l := by rw [count_srcsOf]; simp at h1; omega
+    have hne : srcsOf tPrePrepare G.ρ (s.node p).rcvd ≠ [] := by
+      intro hc; rw [hc] at this; simp at this
+    exact sentB_prep_iff.mpr ⟨ha.mid.round, ha.jpp.mpr (by rw [srcsOf_pre hy hp]; exact hne)⟩
+  have hprepQ := hflag tPrepare (Or.inr (Or.inl rfl)) (fun hex => (chain_of_decided hq1 h hex).2.1) hprepAll
+  -- hence every undecided member has a quorum of PREPAREs and sent its COMMIT
+  have hcomAll : ∀ p ∈ P.R, (s.node p).st.qCommit = [] → sentB G tCommit (s.node p).st = true := by
+    intro p hp hq
+    have ha := hactOf p hp hq
+    have := hgot p hp tPrepare (Or.inr (Or.inl rfl))
+    exact sentB_commit_iff.mpr ⟨ha.mid.round, ha.qp.mpr (by rw [srcsOf_pre hy hp]; omega)⟩
+  have hcomQ := hflag tCommit (Or.inr (Or.inr (Or.inl rfl))) (fun hex => (chain_of_decided hq1 h hex).1) hcomAll
+  -- hence the undecided member `p0` has a quorum of COMMITs: contradiction
+  have ha0 := hactOf p0 hp0 hq0
+  have := hgot p0 hp0 tCommit (Or.inr (Or.inr (Or.inl rfl)))
+  have := ha0.qcl
+  rw [srcsOf_pre hy hp0] at this
+  omega
+
+
+/-! ### A round whose leader runs: nobody's round timer fires, everybody decides -/
+
+theorem fire_not_act_good {P : TParams} {G : Rd} {T : Tm} {s : TState} (hy : Hyp P G T) (hl : G.l ∈ P.R)
+    (hquo : P.d.quorum ≤ P.R.length) (hwin : T.E + T.σ + 4 * P.hi < T.E') (h : RInv P G T s)
+    {p : Nat} (hp : p ∈ P.R) (htm : (s.node p).timer = some s.now) : (s.node p).st.round ≠ G.ρ := by
+  cases h.mem p hp with
+  | pend e a1 => rw [a1.mid.round]; have := a1.rho; omega
+  | dcd a1 a2 => rw [a2] at htm; cases htm
+  | act dl fd a1 a2 a3 a4 a5 =>
+    exfalso
+    rw [a4] at htm
+    cases htm
+    by_cases hlate : T.E + T.σ + 4 * P.hi < s.now
+    · exact live hy hl hquo h hlate p hp a1.mid.qc
+    · omega
+
+
+theorem tstep_log_mono {P : TParams} {s s' : TState} {a : TAct} (h : tstep P s a = some s') :
+    ∀ m ∈ s.log, m ∈ s'.log := by
+  intro m hm
+  cases a with
+  | tick dt =>
+    simp only [tstep] at h
+    split at h
+    · cases h; exact hm
+    · cases h
+  | deliver k o =>
+    simp only [tstep] at h
+    split at h
+    · cases h
+    · split at h
+      · cases h; simp only [actNode]; exact List.mem_append_left _ hm
+      · cases h
+  | fire p =>
+    simp only [tstep] at h
+    split at h
+    · cases h; simp only [actNode]; exact List.mem_append_left _ hm
+    · cases h
+  | start p =>
+    simp only [tstep] at h
+    split at h
+    · cases h; simp only [actNode]; exact List.mem_append_left _ hm
+    · cases h
+
+/-- executions after the proposal stay inside the invariant. -/
+theorem good_exec {P : TParams} {G : Rd} {T : Tm} (hy : Hyp P G T) (hl : G.l ∈ P.R)
+    (hquo : P.d.quorum ≤ P.R.length) (hwin : T.E + T.σ + 4 * P.hi < T.E') (acts : List TAct) :
+    ∀ {s s' : TState}, RInv P G T s → (∃ m ∈ s.log, IsPPm P.d P.R G m) → texec P s acts = some s' →
+      RInv P G T s' := by
+  induction acts with
+  | nil => intro s s' h _ hs; simp only [texec] at hs; cases hs; exact h
+  | cons a as ih =>
+    intro s s' h hf hs
+    simp only [texec] at hs
+    split at hs
+    · cases hs
+    · rename_i s1 hs1
+      obtain ⟨m, hm, hpp⟩ := hf
+      apply ih _ ⟨m, tstep_log_mono hs1 m hm, hpp⟩ hs
+      apply rinv_step hy h ⟨m, hm, hpp⟩ a hs1
+      intro p hap
+      subst hap
+      simp only [tstep] at hs1
+      split at hs1
+      · rename_i hc
+        exact fire_not_act_good hy hl hquo hwin h hc.1 hc.2
+      · cases hs1
+
+/-- what the invariant says about one member, as the property reads. -/
+theorem outcome_of_rinv {P : TParams} {G : Rd} {T : Tm} {s : TState} (h : RInv P G T s) {p : Nat}
+    (hp : p ∈ P.R) :
+    noFault (s.node p).outs = true ∧ (s.node p).st.dead = false ∧
+    ((s.node p).st.qCommit ≠ [] → GoodOutcome G.v G.ρ ((s.node p).st, (s.node p).outs)) ∧
+    ((s.node p).st.qCommit = [] → (s.node p).outs.filter Out.isDecide = []) := by
+  cases h.mem p hp with
+  | pend e a1 a2 a3 a4 a5 a6 a7 =>
+    exact ⟨a7.1, a1.mid.dead, fun hc => absurd a1.mid.qc hc, fun _ => a7.2⟩
+  | act dl fd a1 a2 =>
+    exact ⟨a2.1, a1.mid.dead, fun hc => absurd a1.mid.qc hc, fun _ => a2.2⟩
+  | dcd a1 a2 a3 a4 =>
+    exact ⟨a4, a1.done.dead, fun _ => ⟨a1.done.dead, a1.done.qc, a1.done.qcv, a3, a4⟩,
+      fun hc => absurd hc a1.done.qc⟩
+
+
+end TP
+/-! ### The ROUND-CHANGE stage with the history variables tracked -/
+
+section Hist
+variable {P : TParams} {timeout : Nat → Nat} {X : PRd} {C : Nat → NodeState} {old : Nat → List Msg}
+
+/-- `S1` plus the history variables: what was delivered to `p` during the stage are the
+ROUND-CHANGEs of `T p`, what was broadcast are the ROUND-CHANGEs of the members that entered. -/
+structure S1H (P : TParams) (timeout : Nat → Nat) (X : PRd) (C : Nat → NodeState)
+    (old : Nat → List Msg) (s : TState) (T : Nat → List Nat) : Prop where
+  base : S1 P timeout X C old s T
+  rc : ∀ p ∈ P.R, (s.node p).rcvd = (T p).map (rcsOf X.ρ C)
+  lg : s.log.Perm ((P.R.filter (fun a => enteredB X.ρ (s.node a))).map (rcsOf X.ρ C))
+
+theorem s1h_step {s s' : TState} {T : Nat → List Nat} (hy : PHyp P timeout X C old)
+    (h : S1H P timeout X C old s T) (a : TAct) (hs : tstep P s a = some s')
+    (hnf : ∀ p, a = .fire p → (s.node p).st.round ≠ X.ρ) :
+    (∃ T', S1H P timeout X C old s' T') ∨ ∃ k o, a = .deliver k o ∧ Fires P X C s k o := by
+  cases a with
+  | tick dt =>
+    simp only [tstep] at hs
+    split at hs
+    · rename_i hc
+      cases hs
+      exact Or.inl ⟨T, s1_tick h.base dt hc, h.rc, h.lg⟩
+    · cases hs
+  | deliver k o =>
+    simp only [tstep] at hs
+    split at hs
+    · cases hs
+    · rename_i pk hk
+      split at hs
+      · rename_i hlo
+        cases hs
+        rcases s1_deliver hy h.base o hk hlo with ⟨h1, hout⟩ | h'
+        · left
+          refine ⟨_, h1, ?_, ?_⟩
+          · intro p hp
+            rw [actNode_one]
+            simp only
+            by_cases hpd : p = pk.dst
+            · subst hpd
+              rw [if_pos rfl, if_pos rfl]
+              simp only [updNode, List.map_append, List.map_cons, List.map_nil]
+              rw [h.rc _ hp]
+              have hpk : pk ∈ s.net := List.mem_of_getElem? hk
+              rw [← (h.base.net_ok pk hpk).2.2.2.2]
+            · rw [if_neg hpd, if_neg hpd]; exact h.rc p hp
+          · have hlog : (actNode P s pk.dst o [.recv pk.msg .ok] (s.net.eraseIdx k) [pk.msg]).log = s.log := by
+              rw [actNode_one]; simp only; rw [hout]; simp [twires]
+            rw [hlog]
+            have hpk : pk ∈ s.net := List.mem_of_getElem? hk
+            have hdst := (h.base.net_ok pk hpk).1
+            have hent : ∀ q ∈ P.R, enteredB X.ρ
+                ((actNode P s pk.dst o [.recv pk.msg .ok] (s.net.eraseIdx k) [pk.msg]).node q) =
+                enteredB X.ρ (s.node q) := by
+              intro q _
+              by_cases hq : q = pk.dst
+              · subst hq
+                have e1 : (s.node pk.dst).st.round = X.ρ := by
+                  cases h.base.mem pk.dst hdst with
+                  | pend e a1 a2 a3 a4 a5 a6 =>
+                    have := hy.lo
+                    have := (h.base.net_ok pk hpk).2.2.1
+                    omega
+                  | act dl a1 => exact a1.1.round
+                have e2 : ((actNode P s pk.dst o [.recv pk.msg .ok] (s.net.eraseIdx k) [pk.msg]).node
+                    pk.dst).st.round = X.ρ := by
+                  cases h1.mem pk.dst hdst with
+                  | pend e a1 a2 =>
+                    rw [if_pos rfl] at a2
+                    simp at a2
+                  | act dl a1 => exact a1.1.round
+                simp only [enteredB, e1, e2]
+              · rw [actNode_one]; simp [hq]
+            rw [filter_same hent]
+            exact h.lg
+        · exact Or.inr ⟨k, o, rfl, h'⟩
+      · cases hs
+  | fire p =>
+    simp only [tstep] at hs
+    split at hs
+    · rename_i hc
+      cases hs
+      obtain ⟨h1, hlog, hround, hother, hrcvd⟩ := s1_fire hy h.base hc.1 hc.2 (hnf p rfl)
+      left
+      refine ⟨T, h1, ?_, ?_⟩
+      · intro q hq
+        by_cases hqp : q = p
+        · subst hqp; rw [hrcvd]; exact h.rc q hq
+        · rw [hother q hqp]; exact h.rc q hq
+      · rw [hlog]
+        have hgain : (P.R.filter (fun a => enteredB X.ρ ((actNode P s p {} [.timeout] s.net []).node a))).Perm
+            (p :: P.R.filter (fun a => enteredB X.ρ (s.node a))) := by
+          apply filter_gain hy.nodup hc.1
+          · simpa [enteredB] using hnf p rfl
+          · simpa [enteredB] using hround
+          · intro a ha; simp only [enteredB]; rw [hother a ha]
+        refine (List.perm_append_comm.trans ?_).trans (hgain.map _).symm
+        simp only [List.map_cons, List.singleton_append]
+        exact List.Perm.cons _ h.lg
+    · cases hs
+  | start p =>
+    simp only [tstep] at hs
+    split at hs
+    · rename_i hc
+      have := (h.base.mem p hc.1).started
+      rw [hc.2] at this
+      cases this
+    · cases hs
+
+theorem s1h_exec (hy : PHyp P timeout X C old) (hl : X.l ∈ P.R) (hq : P.d.quorum ≤ P.R.length)
+    (hfit : X.σ + P.hi < timeout X.ρ) :
+    ∀ (acts : List TAct) (s : TState) (T : Nat → List Nat), S1H P timeout X C old s T →
+    ∀ s', texec P s acts = some s' →
+      (∃ T', S1H P timeout X C old s' T') ∨
+      ∃ a1 k o a2 s1 T1, acts = a1 ++ TAct.deliver k o :: a2 ∧ texec P s a1 = some s1 ∧
+        S1H P timeout X C old s1 T1 ∧ Fires P X C s1 k o := by
+  intro acts
+  induction acts with
+  | nil =>
+    intro s T h s' hs
+    simp only [texec] at hs; cases hs
+    exact Or.inl ⟨T, h⟩
+  | cons a as ih =>
+    intro s T h s' hs
+    simp only [texec] at hs
+    split at hs
+    · cases hs
+    · rename_i s1 hs1
+      have hnf : ∀ p, a = .fire p → (s.node p).st.round ≠ X.ρ := by
+        intro p ha hr
+        subst ha
+        simp only [tstep] at hs1
+        split at hs1
+        · rename_i hc
+          have hnow := s1_now_le hy h.base hl hq
+          cases h.base.mem p hc.1 with
+          | pend e a1 => have := a1.mid.round; have := hy.rho; omega
+          | act dl a1 a2 a3 a4 a5 a6 a7 a8 a9 =>
+            rw [a5] at hc
+            have : dl = s.now := by injection hc.2
+            omega
+        · cases hs1
+      rcases s1h_step hy h a hs1 hnf with ⟨T', h'⟩ | ⟨k, o, ha, hf⟩
+      · rcases ih s1 T' h' s' hs with h2 | ⟨a1, k, o, a2, s2, T2, e1, e2, e3, e4⟩
+        · exact Or.inl h2
+        · refine Or.inr ⟨a :: a1, k, o, a2, s2, T2, by rw [e1]; rfl, ?_, e3, e4⟩
+          simp only [texec, hs1]; exact e2
+      · exact Or.inr ⟨[], k, o, as, s, T, by rw [ha]; rfl, rfl, h, hf⟩
+
+end Hist
+
+/-! ### The firing step in detail -/
+
+/-- the leader's quorum-th ROUND-CHANGE: state, outputs and where the justification comes from. -/
+theorem rc_fire_detail {d : Def} {r : Nat} {rcOf : Nat → Msg} {R0 : List Nat} {old : List Msg} {B : Nat}
+    (hc : RCtx d r rcOf R0 old B) {iv p : Nat} {s0 : NodeState} {T : List Nat} {a : Nat}
+    {s : NodeState} (o : Oracle) (hpre : ∃ U, (T ++ [a]) ++ U = R0)
+    (hinv : InvR' d r iv p rcOf old s0 T s)
+    (hf : d.leader r = p ∧ T.length + 1 = d.quorum) (hiv : iv ≠ 0) :
+    ∃ J w, getJustifiedQrc d o.pqPerm (flatten o.srcOrd (bufferMsg d.fifo s.buffer (rcOf a))) r = some J ∧
+      BufIs (bufferMsg d.fifo s.buffer (rcOf a)) (old ++ (T ++ [a]).map rcOf) ∧
+      step d o s (.recv (rcOf a) .ok) =
+        ({ s with buffer := bufferMsg d.fifo s.buffer (rcOf a),
+                  dedup := (uQuorumRoundChanges, r) :: s.dedup },
+         [.rule uQuorumRoundChanges r, .bcast tPrePrepare r w 0 0 J]) := by
+  obtain ⟨hm, hb, h1, h2, h3, hcache, hin, hp3, hdd⟩ := hinv
+  have hnd := nodup_of_prefix hc.nodup hpre
+  obtain ⟨U, hU⟩ := hpre
+  have hT' : ∀ x ∈ T ++ [a], x ∈ R0 := by
+    intro x hx; rw [← hU]; exact List.mem_append_left _ hx
+  have haR : a ∈ R0 := hT' a (by simp)
+  have hrca := hc.rc a haR
+  have hq1 := hc.qpos
+  have hbuf : BufIs (bufferMsg d.fifo s.buffer (rcOf a)) (old ++ (T ++ [a]).map rcOf) := by
+    have := bufIs_bufferMsg (fifo := d.fifo) (m := rcOf a) hb (by
+      have h := filter_src_map_le_one (mk := fun x => if x ∈ T ++ [a] then rcOf x else rcMsg r x)
+        (by intro q; split
+            · rename_i hq; exact (hc.rc q (hT' q hq)).src
+            · rfl) hnd (rcOf a).core.src
+      have hmap : (T ++ [a]).map (fun x => if x ∈ T ++ [a] then rcOf x else rcMsg r x) =
+          (T ++ [a]).map rcOf := by
+        apply List.map_congr_left
+        intro x hx; rw [if_pos hx]
+      rw [hmap] at h
+      have h2 := hc.oldLen (rcOf a).core.src
+      have hf := hc.fifo
+      simp only [List.map_append, List.map_cons, List.map_nil, List.filter_append,
+        List.length_append] at h ⊢
+      omega)
+    simpa using this
+  have hcnt : (filterRoundChange (flatten o.srcOrd (bufferMsg d.fifo s.buffer (rcOf a))) s.round).length
+      = T.length + 1 := by
+    rw [hm.round, hc.frc_length hT' hnd hbuf]; simp
+  have hj := hrca.justified hq1 s.compareFailureRound
+  have hlen : (T ++ [a]).length = T.length + 1 := by simp
+  obtain ⟨J, hJ⟩ := hc.qrc_some (ord := o.srcOrd) hT' hnd hbuf (by rw [hlen]; omega) o.pqPerm
+  have hJ' : getJustifiedQrc d o.pqPerm (flatten o.srcOrd (bufferMsg d.fifo s.buffer (rcOf a)))
+      s.round = some J := by rw [hm.round]; exact hJ
+  have hrr : (rcOf a).core.round = s.round := by rw [hrca.round, hm.round]
+  have hnot : (uQuorumRoundChanges, (rcOf a).core.round) ∉ s.dedup := by
+    rw [hrca.round]; intro h; have := (hdd.mp h).2; omega
+  by_cases hcond : (getSingleJustifiedPrPv d J).2.2 = true ∧
+      s.compareFailureRound ≠ (getSingleJustifiedPrPv d J).1
+  · refine ⟨J, (getSingleJustifiedPrPv d J).2.1, hJ, hbuf, ?_⟩
+    have hst := step_rc_fire (d := d) (o := o) (m := rcOf a) (J := J)
+      (w := (getSingleJustifiedPrPv d J).2.1) hm.dead hm.started hm.qc hj hrca.typ hrr (by omega) hJ'
+      (by rw [hm.round, hm.proc]; exact hf.1) hnot hcache (Or.inl ⟨hcond.1, hcond.2, rfl⟩)
+    rw [hst, hrca.round, hm.round]
+  · refine ⟨J, s.inputValue, hJ, hbuf, ?_⟩
+    have hst := step_rc_fire (d := d) (o := o) (m := rcOf a) (J := J) (w := s.inputValue) hm.dead
+      hm.started hm.qc hj hrca.typ hrr (by omega) hJ' (by rw [hm.round, hm.proc]; exact hf.1) hnot hcache
+      (Or.inr ⟨hcond, by rw [hin]; exact hiv, rfl⟩)
+    rw [hst, hrca.round, hm.round]
+
+/-- the justification the leader picked has the form `TP.JOk`. -/
+theorem jok_of_qrc {d : Def} {r : Nat} {rcOf : Nat → Msg} {R0 : List Nat} {old : List Msg} {B : Nat}
+    (hc : RCtx d r rcOf R0 old B) {Q : List Nat} (hQ : ∀ a ∈ Q, a ∈ R0) {buf : List (Nat × List Msg)}
+    (hb : BufIs buf (old ++ Q.map rcOf)) {ord : List Nat} {k : Nat} {J : List Core}
+    (hJ : getJustifiedQrc d k (flatten ord buf) r = some J) (R : List Nat) (hR : ∀ a ∈ R0, a ∈ R)
+    (G : TP.Rd) (hρ : G.ρ = r) (hrc : G.rc = rcOf) :
+    TP.JOk d R G J := by
+  subst hρ
+  subst hrc
+  have hsub := getJustifiedQrc_sub hJ
+  have hcore : ∀ c ∈ J, c.typ = tRoundChange → c.round = G.ρ →
+      ∃ a ∈ R, RcOk d G.ρ (G.rc a) a ∧ c = (G.rc a).core := by
+    intro c hcJ ht hr
+    have hca := (mem_flatten_bufIs hb c).mp (hsub c hcJ)
+    rw [coresOf_append] at hca
+    rcases List.mem_append.mp hca with h | h
+    · have := (hc.oldRound c h).1; omega
+    · obtain ⟨x, hx, hcx⟩ := mem_coresOf.mp h
+      obtain ⟨b, hbQ, rfl⟩ := List.mem_map.mp hx
+      have hok := hc.rc b (hQ b hbQ)
+      rcases hcx with h' | h'
+      · exact ⟨b, hR b (hQ b hbQ), hok, h'⟩
+      · have := (hok.just_prepare c h').1
+        rw [ht] at this; exact absurd this (by decide)
+  refine ⟨hcore, ?_⟩
+  rcases getJustifiedQrc_shape hJ with ⟨hj1, _⟩ | ⟨p0, ps, qrc, hj2, hpq, hqrc, hlen2, hany⟩
+  · left
+    intro c hcJ _ _
+    rw [hj1] at hcJ
+    have := filterMsgs_sound hcJ
+    exact ⟨this.2.2.2.2.1 0 rfl, this.2.2.2.2.2 0 rfl⟩
+  · right
+    obtain ⟨hndp, hplen, r0, v0, hpall⟩ := getPrepareQuorums_ok hpq
+    have hp0 := hpall p0 List.mem_cons_self
+    refine ⟨p0.round, p0.value, (p0 :: ps).map (·.src), ?_, ?_, hndp, by simpa using hplen, ?_⟩
+    · intro c hcJ ht _
+      rw [hj2] at hcJ
+      rcases List.mem_append.mp hcJ with h | h
+      · rw [hqrc] at h
+        simpa using (List.mem_filter.mp h).2
+      · have := (hpall c h).1
+        rw [ht] at this; exact absurd this (by decide)
+    · obtain ⟨c0, hc0, hceq⟩ := List.any_eq_true.mp hany
+      simp only [Bool.and_eq_true, beq_iff_eq] at hceq
+      have hc0f : c0 ∈ filterRoundChange (flatten ord buf) G.ρ := by
+        rw [hqrc] at hc0; exact (List.mem_filter.mp hc0).1
+      have hs0 := filterMsgs_sound hc0f
+      exact ⟨c0, by rw [hj2]; exact List.mem_append_left _ hc0, hs0.2.1, hs0.2.2.1, hceq.1, hceq.2⟩
+    · intro s' hs'
+      obtain ⟨x, hx, rfl⟩ := List.mem_map.mp hs'
+      have := hpall x hx
+      exact ⟨x, by rw [hj2]; exact List.mem_append_right _ hx, this.1, by rw [this.2.1, hp0.2.1],
+        by rw [this.2.2, hp0.2.2], rfl⟩
+
+/-! ### From the ROUND-CHANGE stage to the invariant of the whole round -/
+
+theorem countP_rcs (ρ : Nat) (C : Nat → NodeState) (K a : Nat) :
+    ∀ (L : List Nat), L.Nodup →
+      (L.map (rcsOf ρ C)).countP (isKind K ρ a) = if K = tRoundChange ∧ a ∈ L then 1 else 0 := by
+  intro L
+  induction L with
+  | nil => intro _; simp
+  | cons b bs ih =>
+    intro hnd
+    simp only [List.nodup_cons] at hnd
+    rw [List.map_cons, List.countP_cons, ih hnd.2]
+    have hk : isKind K ρ a (rcsOf ρ C b) = (decide (K = tRoundChange) && decide (b = a)) := by
+      unfold isKind rcsOf rcOfState
+      by_cases h1 : K = tRoundChange
+      · subst h1; by_cases h2 : b = a <;> simp [h2]
+      · have : (tRoundChange == K) = false := by
+          simp only [beq_eq_false_iff_ne, ne_eq]; exact fun h => h1 h.symm
+        simp [this, h1]
+    rw [hk]
+    by_cases h1 : K = tRoundChange
+    · by_cases h2 : b = a
+      · subst h2
+        simp [h1, hnd.1]
+      · have : a ≠ b := fun h => h2 h.symm
+        simp [h1, h2, this]
+    · simp [h1]
+
+theorem srcsOf_rcs (ρ : Nat) (C : Nat → NodeState) (K : Nat) (L : List Nat) :
+    srcsOf K ρ (L.map (rcsOf ρ C)) = if K = tRoundChange then L else [] := by
+  induction L with
+  | nil => simp [srcsOf]
+  | cons b bs ih =>
+    rw [List.map_cons, show rcsOf ρ C b :: bs.map (rcsOf ρ C) = [rcsOf ρ C b] ++ bs.map (rcsOf ρ C) from rfl,
+      srcsOf_append, ih, srcsOf_single]
+    by_cases h1 : K = tRoundChange
+    · simp [h1, rcsOf, rcOfState]
+    · have : ¬ ((rcsOf ρ C b).core.typ = K ∧ (rcsOf ρ C b).core.round = ρ) := by
+        intro hc; exact h1 hc.1.symm
+      simp [h1, this]
+
+section Bridge
+variable {P : TParams} {timeout : Nat → Nat} {X : PRd} {C : Nat → NodeState} {old : Nat → List Msg}
+
+/-- the round of the general invariant: value `v`, the members' ROUND-CHANGEs, what they held before. -/
+def gOf (X : PRd) (C : Nat → NodeState) (old : Nat → List Msg) (v : Nat) : TP.Rd :=
+  ⟨X.ρ, v, X.l, rcsOf X.ρ C, old⟩
+
+def tmOf (X : PRd) (timeout : Nat → Nat) : TP.Tm :=
+  ⟨X.E, X.σ, X.E + timeout X.ρ, X.σ, X.B⟩
+
+theorem hyp_of (hy : PHyp P timeout X C old)
+    (hnd : ∀ p ∈ P.R, ∀ x ∈ old p, x.core.typ ≠ tDecided) (hfit : X.σ < timeout X.ρ)
+    (hfifo : X.B + 4 ≤ P.d.fifo) (v : Nat) :
+    TP.Hyp P (gOf X C old v) (tmOf X timeout) := by
+  have hρ := hy.rho
+  refine ⟨hy.nodup, hy.n1, hy.rho, hy.lead, fun a ha => hy.rcOk ha, ?_, hy.oldLen, ?_, ?_, ?_, hy.lo, hfifo⟩
+  · intro p hp x hx
+    refine ⟨?_, hnd p hp x hx⟩
+    intro c hc
+    have : c ∈ coresOf (old p) := mem_coresOf.mpr ⟨x, hx, by
+      rcases List.mem_cons.mp hc with h | h
+      · exact Or.inl h
+      · exact Or.inr h⟩
+    have := (hy.oldRound p hp c this).1
+    show c.round < X.ρ
+    omega
+  · intro now h1 h2
+    show X.E + timeout X.ρ ≤ P.arm none now X.ρ ∧ P.arm none now X.ρ ≤ X.E + timeout X.ρ + X.σ
+    rw [hy.arm]; simp only [relTimer]
+    have : X.E ≤ now := h1
+    have : now ≤ X.E + X.σ := h2
+    omega
+  · intro fd now _ h2
+    show X.E + timeout X.ρ ≤ P.arm (some fd) now X.ρ
+    rw [hy.arm]; simp only [relTimer]
+    have : X.E ≤ now := h2
+    omega
+  · show X.E + X.σ ≤ X.E + timeout X.ρ
+    omega
+
+theorem sentB_s1 {s : TState} {T : Nat → List Nat} (hy : PHyp P timeout X C old)
+    (h : S1 P timeout X C old s T) {a : Nat} (ha : a ∈ P.R) (v : Nat) {K : Nat} (hK : TP.Once K) :
+    TP.sentB (gOf X C old v) K (s.node a).st = (decide (K = tRoundChange) && enteredB X.ρ (s.node a)) := by
+  have hρ := hy.rho
+  have hne1 : X.ρ ≠ 1 := by omega
+  cases h.mem a ha with
+  | pend e a1 =>
+    have hr : ((s.node a).st.round == X.ρ) = false := by
+      rw [a1.mid.round]; simp; omega
+    simp [TP.sentB, gOf, enteredB, hr]
+  | act dl a1 a2 a3 a4 a5 a6 a7 a8 a9 a10 a11 =>
+    obtain ⟨b1, _, b3, b4, _, _, _, _, b9⟩ := a1
+    have hr : ((s.node a).st.round == X.ρ) = true := by rw [b1.round]; simp
+    have hqrc : (uQuorumRoundChanges, X.ρ) ∉ (s.node a).st.dedup ∨ (s.node a).st.proc ≠ X.l := by
+      by_cases hl : X.l = a
+      · left; intro hc
+        have := (b9.mp hc).2
+        have := a9 hl
+        omega
+      · right; rw [b1.proc]; exact fun hc => hl hc.symm
+    rcases hK with rfl | rfl | rfl | rfl
+    · -- PRE-PREPARE
+      rcases hqrc with hq | hq
+      · simp [TP.sentB, gOf, enteredB, hr, hne1, tPrePrepare, tRoundChange, hq]
+      · simp [TP.sentB, gOf, enteredB, hr, hne1, tPrePrepare, tRoundChange, hq]
+    · simp [TP.sentB, gOf, enteredB, hr, tPrePrepare, tPrepare, tRoundChange, b3]
+    · simp [TP.sentB, gOf, enteredB, hr, tPrePrepare, tPrepare, tCommit, tRoundChange, b4]
+    · simp [TP.sentB, gOf, enteredB, hr, hne1]
+
+theorem pre_old (hy : PHyp P timeout X C old)
+    (hnd : ∀ p ∈ P.R, ∀ x ∈ old p, x.core.typ ≠ tDecided) :
+    ∀ p ∈ P.R, ∀ x ∈ old p, TP.OldMsg X.ρ x := by
+  have hρ := hy.rho
+  intro p hp x hx
+  refine ⟨fun c hc => ?_, hnd p hp x hx⟩
+  have hc' : c ∈ coresOf (old p) := mem_coresOf.mpr ⟨x, hx, by
+    rcases List.mem_cons.mp hc with h' | h'
+    · exact Or.inl h'
+    · exact Or.inr h'⟩
+  have := (hy.oldRound p hp c hc').1
+  omega
+
+/-- the member view of the ROUND-CHANGE stage (`InvR'`) is the product form `TP.Act`. -/
+theorem act_of_invR (hy : PHyp P timeout X C old)
+    (hnd : ∀ p ∈ P.R, ∀ x ∈ old p, x.core.typ ≠ tDecided)
+    (hinpC : ∀ p ∈ P.R, (C p).inputValue = P.inp p) (v : Nat) {p : Nat} (hp : p ∈ P.R)
+    {T : List Nat} {st : NodeState} {rcvd : List Msg}
+    (a1 : InvR' P.d X.ρ (C p).inputValue p (rcsOf X.ρ C) (old p) (C p) T st)
+    (hrc : rcvd = T.map (rcsOf X.ρ C)) (a2 : st.timerOn = true)
+    (a11 : (uJustifiedDecided, X.ρ) ∉ st.dedup) :
+    TP.Act P.d (gOf X C old v) P.inp p st (old p ++ rcvd) := by
+  have hρ := hy.rho
+  have hq1 := quorum_pos P.d hy.n1
+  obtain ⟨b1, b2, b3, b4, b5, b6, b7, _, b9⟩ := a1
+  have hsr : ∀ K, srcsOf K X.ρ (old p ++ rcvd) = if K = tRoundChange then T else [] := by
+    intro K
+    rw [srcsOf_append, hrc, srcsOf_rcs]
+    have : srcsOf K X.ρ (old p) = [] :=
+      TP.srcsOf_old (G := gOf X C old v) (pre_old hy hnd p hp) K
+    rw [this]; rfl
+  show TP.Act P.d (gOf X C old v) P.inp p st (old p ++ rcvd)
+  refine ⟨b1, by rw [hrc]; exact b2, ?_, ?_, ?_, b5, ?_, a11, ?_, fun _ => b6,
+    by rw [b7]; exact hinpC p hp, a2⟩
+  · intro x hx
+    rcases List.mem_append.mp hx with hx | hx
+    · exact hnd p hp x hx
+    · rw [hrc] at hx
+      obtain ⟨b, _, rfl⟩ := List.mem_map.mp hx
+      simp [rcsOf, rcOfState, tRoundChange, tDecided]
+  · show (uJustifiedPrePrepare, X.ρ) ∈ _ ↔ srcsOf tPrePrepare X.ρ _ ≠ []
+    rw [hsr]; simp [tPrePrepare, tRoundChange]; exact b3
+  · show (uQuorumPrepares, X.ρ) ∈ _ ↔ P.d.quorum ≤ (srcsOf tPrepare X.ρ _).length
+    rw [hsr]; simp [tPrepare, tRoundChange]
+    exact ⟨fun hc => absurd hc b4, fun hc => by omega⟩
+  · show (srcsOf tCommit X.ρ _).length < P.d.quorum
+    rw [hsr]; simp [tCommit, tRoundChange]; omega
+  · show (uQuorumRoundChanges, X.ρ) ∈ _ ↔ (X.l = p ∧ P.d.quorum ≤ (srcsOf tRoundChange X.ρ _).length)
+    rw [hsr, if_pos rfl, ← hy.lead]; exact b9
+
+/-- **The ROUND-CHANGE stage satisfies the invariant of the round**, for every value `v` (nothing that
+mentions the value has been sent yet). -/
+theorem s1_rinv {s : TState} {T : Nat → List Nat} (hy : PHyp P timeout X C old)
+    (h : S1H P timeout X C old s T)
+    (hnd : ∀ p ∈ P.R, ∀ x ∈ old p, x.core.typ ≠ tDecided)
+    (hinpC : ∀ p ∈ P.R, (C p).inputValue = P.inp p) (v : Nat) :
+    TP.RInv P (gOf X C old v) (tmOf X timeout) s := by
+  have hρ := hy.rho
+  have hq1 := quorum_pos P.d hy.n1
+  have hFnd : (P.R.filter (fun a => enteredB X.ρ (s.node a))).Nodup := hy.nodup.filter _
+  have hcount : ∀ K a, s.log.countP (isKind K X.ρ a) =
+      if K = tRoundChange ∧ a ∈ P.R.filter (fun a => enteredB X.ρ (s.node a)) then 1 else 0 := by
+    intro K a
+    rw [h.lg.countP_eq, countP_rcs X.ρ C K a _ hFnd]
+  have hlogmem : ∀ m ∈ s.log, ∃ a ∈ P.R, enteredB X.ρ (s.node a) = true ∧ m = rcsOf X.ρ C a := by
+    intro m hm
+    have := (h.lg.mem_iff).mp hm
+    obtain ⟨a, ha, rfl⟩ := List.mem_map.mp this
+    exact ⟨a, (List.mem_filter.mp ha).1, (List.mem_filter.mp ha).2, rfl⟩
+  have hnone : ∀ a ∈ P.R, ∀ K, TP.Once K → K ≠ tRoundChange →
+      TP.sentB (gOf X C old v) K (s.node a).st = false := by
+    intro a ha K hK hne
+    rw [sentB_s1 hy h.base ha v hK]; simp [hne]
+  have hpre := pre_old hy hnd
+  refine ⟨?_, ?_, ?_, ?_, ?_, ?_, ?_, ?_, ?_, ?_, ?_⟩
+  · -- net_ok
+    intro pk hpk
+    obtain ⟨b1, b2, b3, b4, b5⟩ := h.base.net_ok pk hpk
+    refine ⟨b1, b2, b3, by rw [b5]; rfl, fun _ => ?_⟩
+    show pk.sent ≤ X.E + X.σ + _
+    omega
+  · -- perm
+    intro p hp
+    rw [h.rc p hp]
+    have e1 : inflight p s.net = ((inflight p s.net).map (·.core.src)).map (rcsOf X.ρ C) := by
+      rw [List.map_map]
+      conv => lhs; rw [← List.map_id (inflight p s.net)]
+      apply List.map_congr_left
+      intro m hm
+      obtain ⟨pk, hpk, _, rfl⟩ := mem_inflight.mp hm
+      exact (h.base.net_ok pk hpk).2.2.2.2
+    rw [e1, ← List.map_append]
+    exact ((h.base.acct p hp).map _).trans h.lg.symm
+  · -- shape
+    intro m hm
+    obtain ⟨a, ha, _, rfl⟩ := hlogmem m hm
+    exact TP.Shape.rc a ha (hy.rcOk ha)
+  · -- counts
+    intro a ha K hK
+    show s.log.countP (isKind K X.ρ a) = _
+    rw [hcount, sentB_s1 hy h.base ha v hK]
+    by_cases h1 : K = tRoundChange
+    · by_cases h2 : enteredB X.ρ (s.node a) = true
+      · simp [h1, h2, List.mem_filter, ha]
+      · simp [h1, h2, List.mem_filter]
+    · simp [h1]
+  · -- fb
+    intro a
+    have e1 : (s.log.filter (fun m => m.core.src == a && m.core.typ != tDecided)).length =
+        s.log.countP (isKind tRoundChange X.ρ a) := by
+      rw [← List.countP_eq_length_filter]
+      apply List.countP_congr
+      intro m hm
+      obtain ⟨b, _, _, rfl⟩ := hlogmem m hm
+      simp [isKind, rcsOf, rcOfState, tRoundChange, tDecided]
+    rw [e1, hcount]
+    by_cases h2 : a ∈ P.R.filter (fun a => enteredB X.ρ (s.node a))
+    · obtain ⟨haR, hent⟩ := List.mem_filter.mp h2
+      rw [if_pos ⟨rfl, h2⟩, if_pos haR]
+      have : TP.sentB (gOf X C old v) tRoundChange (s.node a).st = true := by
+        rw [sentB_s1 hy h.base haR v (Or.inr (Or.inr (Or.inr rfl)))]; simp [hent]
+      unfold TP.nsent
+      rw [this]; simp; omega
+    · rw [if_neg (fun hc => h2 hc.2)]; omega
+  · -- decs
+    intro m hm ht
+    obtain ⟨a, _, _, rfl⟩ := hlogmem m hm
+    simp [rcsOf, rcOfState, tRoundChange, tDecided] at ht
+  · -- j1
+    rintro ⟨p, hp, hc⟩
+    exact absurd (h.base.safe hp).2.2.1 hc
+  · -- j2
+    rintro ⟨a, ha, hc⟩
+    rw [hnone a ha tCommit (Or.inr (Or.inr (Or.inl rfl))) (by decide)] at hc; cases hc
+  · -- j3
+    rintro ⟨a, ha, hc⟩
+    rw [hnone a ha tPrepare (Or.inr (Or.inl rfl)) (by decide)] at hc; cases hc
+  · -- mem
+    intro p hp
+    cases h.base.mem p hp with
+    | pend e a1 a2 a3 a4 a5 a6 a7 a8 =>
+      refine .pend e ?_ a3 a4 a5 a6 a8 a7
+      have hr : (s.node p).rcvd = [] := by rw [h.rc p hp, a2]; rfl
+      show TP.Pend (gOf X C old v) P.inp p (s.node p).st (old p ++ (s.node p).rcvd)
+      rw [hr, List.append_nil]
+      refine ⟨hρ, a1.mid, a1.aux.timer, a1.buf, ?_, ?_, by rw [a1.aux.iv]; exact hinpC p hp⟩
+      · exact hpre p hp
+      · exact (rcOfState_congr X.ρ p a1.aux).symm
+    | act dl a1 a2 a3 a4 a5 a6 a7 a8 a9 a10 a11 =>
+      obtain ⟨⟨fd, f1, f2⟩, f3⟩ := a10
+      refine .act dl fd (act_of_invR hy hnd hinpC v hp a1 (h.rc p hp) a2 a11) a3 a4 a5 a6 ?_ f1 f2 f3
+      · intro _
+        show dl ≤ X.E + timeout X.ρ + X.σ
+        omega
+  · -- timers
+    intro p hp dl hdl
+    cases h.base.mem p hp with
+    | pend e a1 a2 a3 a4 a5 a6 a7 => rw [a3] at hdl; cases hdl; exact a6
+    | act dl' a1 a2 a3 a4 a5 a6 a7 a8 => rw [a5] at hdl; cases hdl; exact a8
+
+/-- **The delivery at which the leader proposes establishes the invariant of the round for the value
+it proposes.** -/
+theorem fire_rinv {s : TState} {T : Nat → List Nat} (hy : PHyp P timeout X C old)
+    (h : S1H P timeout X C old s T)
+    (hnd : ∀ p ∈ P.R, ∀ x ∈ old p, x.core.typ ≠ tDecided)
+    (hinpC : ∀ p ∈ P.R, (C p).inputValue = P.inp p) (hl : X.l ∈ P.R) (hq : P.d.quorum ≤ P.R.length)
+    (hfit : X.σ < timeout X.ρ) (hfifo : X.B + 4 ≤ P.d.fifo)
+    {k : Nat} {o : Oracle} (hF : Fires P X C s k o) {s' : TState}
+    (hs : tstep P s (.deliver k o) = some s') :
+    ∃ w Q, w ≠ 0 ∧ Q.Nodup ∧ Q.length = P.d.quorum ∧ (∀ a ∈ Q, a ∈ P.R) ∧
+      ValueSpec (rcsOf X.ρ C) Q (C X.l).inputValue w ∧
+      TP.RInv P (gOf X C old w) (tmOf X timeout) s' ∧
+      ∃ m ∈ s'.log, TP.IsPPm P.d P.R (gOf X C old w) m := by
+  have hρ := hy.rho
+  have hq1 := quorum_pos P.d hy.n1
+  obtain ⟨pk, Q, hk, hd, hlo, hQ1, hQ2, hQ3, J', w', hout', _, hw', hj', hv'⟩ := hF
+  simp only [tstep, hk, if_pos hlo] at hs
+  cases hs
+  obtain ⟨A, B, hA, hB⟩ := eraseIdx_split hk
+  have hmem : pk ∈ s.net := by rw [hA]; simp
+  obtain ⟨hdst, _, hE, hsent, hmsg⟩ := h.base.net_ok pk hmem
+  generalize ha : pk.msg.core.src = a at hmsg
+  have hlo' := hy.lo
+  obtain ⟨hnetc, hnet0, hflq⟩ := deliver_ctx hk
+  cases h.base.mem pk.dst hdst with
+  | pend e a1 a2 a3 a4 a5 a6 a7 => omega
+  | act dl a1 a2 a3 a4 a5 a6 a7 a8 a9 a10 a11 =>
+    obtain ⟨hnd0, hsub⟩ := h.base.srcs hy hdst
+    have hin : a ∈ (inflight pk.dst s.net).map (·.core.src) := by
+      rw [List.mem_map]
+      exact ⟨pk.msg, mem_inflight.mpr ⟨pk, hmem, rfl, rfl⟩, ha⟩
+    have hperm0 : ((inflight pk.dst s.net).map (·.core.src)).Perm
+        (a :: (inflight pk.dst (s.net.eraseIdx k)).map (·.core.src)) := by
+      rw [hB, hA]
+      have := (inflight_split_same pk.dst A B pk rfl).map (·.core.src)
+      rw [List.map_cons, ha] at this
+      exact this
+    have hnd2 : (a :: (inflight pk.dst (s.net.eraseIdx k)).map (·.core.src) ++ T pk.dst).Nodup :=
+      ((hperm0.append_right (T pk.dst)).nodup_iff).mp hnd0
+    have haT : a ∉ T pk.dst := by
+      intro hc
+      rw [List.cons_append, List.nodup_cons] at hnd2
+      exact hnd2.1 (List.mem_append_right _ hc)
+    have hTnd : (T pk.dst ++ [a]).Nodup := by
+      rw [List.cons_append, List.nodup_cons] at hnd2
+      have := (List.nodup_append.mp hnd2.2).2.1
+      rw [List.nodup_append]
+      refine ⟨this, by simp, ?_⟩
+      intro x hx y hy'
+      simp only [List.mem_singleton] at hy'
+      subst hy'
+      intro he; subst he; exact haT hx
+    have hTsub : ∀ x ∈ T pk.dst ++ [a], x ∈ P.R := by
+      intro x hx
+      rcases List.mem_append.mp hx with hx | hx
+      · exact (hsub x (List.mem_append_right _ hx)).1
+      · simp only [List.mem_singleton] at hx; subst hx
+        exact (hsub _ (List.mem_append_left _ hin)).1
+    have hctx := hy.rctx hdst hTnd hTsub
+    have hfire : P.d.leader X.ρ = pk.dst ∧ (T pk.dst).length + 1 = P.d.quorum := by
+      apply Classical.byContradiction
+      intro hnf
+      have := rc_timerOn (T := T pk.dst) (a := a) (o := o) hctx ⟨[], by simp⟩ a1 hnf
+      rw [← hmsg, hd] at this
+      rw [this] at hout'
+      cases hout'
+    have hiv : (C pk.dst).inputValue ≠ 0 := by
+      rw [hd]; exact hy.inp hl
+    obtain ⟨J, w, hJ, hbuf, hst⟩ := rc_fire_detail (T := T pk.dst) (a := a) hctx o ⟨[], by simp⟩ a1 hfire hiv
+    rw [← hmsg] at hst hJ hbuf
+    -- the two descriptions of the outputs agree
+    have hJw : J' = J ∧ w' = w := by
+      have := hout'
+      rw [← hd, hst] at this
+      simp only [List.cons.injEq, Out.bcast.injEq, and_true, true_and] at this
+      exact ⟨this.2.symm, this.1.symm⟩
+    obtain ⟨rfl, rfl⟩ := hJw
+    refine ⟨w', Q, hw', hQ1, hQ2, hQ3, hv', ?_⟩
+    -- the invariant before the step, for the value proposed
+    have hR := s1_rinv hy h hnd hinpC w'
+    have hyp := hyp_of hy hnd hfit hfifo w'
+    -- the PRE-PREPARE
+    have hpp : TP.IsPPm P.d P.R (gOf X C old w') (ppMsg X.ρ w' J' X.l) := by
+      refine ⟨rfl, ⟨?_, ?_⟩, by rw [← hy.lead]; exact hj'⟩
+      · intro c hc
+        have := getJustifiedQrc_sub hJ c hc
+        rw [mem_flatten_bufIs hbuf] at this
+        exact (hctx.cores (T := T pk.dst ++ [a]) (fun x hx => hx) c this).1
+      · exact jok_of_qrc hctx (Q := T pk.dst ++ [a]) (fun x hx => hx) hbuf hJ P.R hTsub
+          (gOf X C old w') rfl rfl
+    have htw : twires pk.dst (step P.d o (s.node pk.dst).st (.recv pk.msg .ok)).2 =
+        [ppMsg X.ρ w' J' X.l] := by
+      rw [hst, hd]; rfl
+    have hfx : TP.Fx P.d P.R (gOf X C old w') pk.dst (s.node pk.dst).st
+        (step P.d o (s.node pk.dst).st (.recv pk.msg .ok)).1
+        (step P.d o (s.node pk.dst).st (.recv pk.msg .ok)).2 tPrePrepare := by
+      have hne1 : ¬ X.ρ = 1 := by omega
+      have hm := a1.1
+      have hdd : (uQuorumRoundChanges, X.ρ) ∉ (s.node pk.dst).st.dedup := by
+        intro hc
+        have := (a1.2.2.2.2.2.2.2.2.mp hc).2
+        have := a9 hd.symm
+        omega
+      constructor
+      · intro K hK
+        rw [htw]
+        rw [hst]
+        simp only [uQuorumRoundChanges] at hdd
+        have hr' : (s.node X.l).st.round = X.ρ := by rw [← hd]; exact hm.round
+        have hp' : (s.node X.l).st.proc = X.l := by rw [← hd]; exact hm.proc
+        have hdd' : ¬ (6, X.ρ) ∈ (s.node X.l).st.dedup := by rw [← hd]; exact hdd
+        rcases hK with rfl | rfl | rfl | rfl <;>
+          simp [TP.sentB, gOf, isKind, ppMsg, hr', hp', hd, hdd', hne1, tPrePrepare, tPrepare,
+            tCommit, tRoundChange, uQuorumRoundChanges, uJustifiedPrePrepare, uQuorumPrepares]
+      · intro m' hm'
+        rw [htw] at hm'
+        simp only [List.mem_singleton] at hm'
+        subst hm'
+        exact ⟨TP.Shape.pp _ hpp hl, hd.symm, rfl, rfl⟩
+    have hnow := s1_now_le hy h.base hl hq
+    refine ⟨?_, ppMsg X.ρ w' J' X.l, ?_, hpp⟩
+    · obtain ⟨⟨fd, f1, f2⟩, f3⟩ := a10
+      have hinv' := (rc_step' hctx (C pk.dst).inputValue pk.dst (C pk.dst)
+        (fun _ => Or.inl hiv) (T pk.dst) a (s.node pk.dst).st o ⟨[], by simp⟩ a1).1
+      rw [← hmsg] at hinv'
+      apply TP.rinv_act hy.nodup hR hdst o (.recv pk.msg .ok) (s.net.eraseIdx k) [pk.msg] tPrePrepare hnet0
+        (fun q _ => hflq q) hfx
+      · refine .act dl fd ?_ ?_ a4 ?_ a6 ?_ ?_ f2 ?_
+        · show TP.Act P.d (gOf X C old w') P.inp pk.dst _ (old pk.dst ++ ((s.node pk.dst).rcvd ++ [pk.msg]))
+          apply act_of_invR hy hnd hinpC w' hdst hinv'
+          · rw [h.rc pk.dst hdst, List.map_append, hmsg]; rfl
+          · rw [hst]; exact a2
+          · rw [hst]
+            simp only [List.mem_cons, Prod.mk.injEq, not_or]
+            exact ⟨by simp [uJustifiedDecided, uQuorumRoundChanges], a11⟩
+        · show Quiet ((s.node pk.dst).outs ++ _)
+          rw [hst]; exact Quiet.append a3 ⟨rfl, rfl⟩
+        · show (armAll P.arm s.now ((s.node pk.dst).timer, (s.node pk.dst).firsts) _).1 = _
+          rw [hst]; exact a5
+        · intro _
+          show dl ≤ X.E + timeout X.ρ + X.σ
+          omega
+        · show lookup X.ρ (armAll P.arm s.now ((s.node pk.dst).timer, (s.node pk.dst).firsts) _).2 = _
+          rw [hst]; exact f1
+        · intro r hr
+          show lookup r (armAll P.arm s.now ((s.node pk.dst).timer, (s.node pk.dst).firsts) _).2 = _
+          rw [hst]; exact f3 r hr
+      · intro _
+        refine ⟨a4, fun _ => ?_⟩
+        show s.now ≤ X.E + X.σ + TP.kindIdx tPrePrepare * P.hi
+        have : TP.kindIdx tPrePrepare = 1 := by decide
+        rw [this, Nat.one_mul]
+        omega
+      · intro hc; simp [tPrePrepare, tDecided] at hc
+      · intro hc; exact absurd a1.1.qc hc
+      · intro hc; rw [hst] at hc; exact absurd a1.1.qc hc
+      · intro h1 h2; rw [hfx.same (Or.inr (Or.inr (Or.inl rfl))) (by decide)] at h1; rw [h1] at h2; cases h2
+      · intro h1 h2; rw [hfx.same (Or.inr (Or.inl rfl)) (by decide)] at h1; rw [h1] at h2; cases h2
+    · rw [actNode_one]
+      simp only
+      rw [htw]
+      exact List.mem_append_right _ List.mem_cons_self
+
+end Bridge
+
+/-! ### The history variables (`rcvd`, `log`) are not read by the semantics -/
+
+/-- two states that differ in the history variables only. -/
+def SameSem (s t : TState) : Prop :=
+  s.now = t.now ∧ s.net = t.net ∧
+  ∀ p, (s.node p).st = (t.node p).st ∧ (s.node p).outs = (t.node p).outs ∧
+    (s.node p).timer = (t.node p).timer ∧ (s.node p).firsts = (t.node p).firsts
+
+theorem actNode_sameSem {P : TParams} {s t : TState} (h : SameSem s t) (p : Nat) (o : Oracle)
+    (evs : List Event) (net : List Packet) (rc : List Msg) :
+    SameSem (actNode P s p o evs net rc) (actNode P t p o evs net rc) := by
+  obtain ⟨h1, _, h3⟩ := h
+  obtain ⟨e1, e2, e3, e4⟩ := h3 p
+  refine ⟨h1, ?_, ?_⟩
+  · simp only [actNode, e1, h1]
+  · intro q
+    by_cases hq : q = p
+    · subst hq
+      simp only [actNode, if_pos rfl, e1, e2, e3, e4, h1]
+      exact ⟨rfl, rfl, rfl, rfl⟩
+    · simp only [actNode, if_neg hq]
+      exact h3 q
+
+theorem tstep_sameSem {P : TParams} {s t s' : TState} {a : TAct} (h : SameSem s t)
+    (hs : tstep P s a = some s') : ∃ t', tstep P t a = some t' ∧ SameSem s' t' := by
+  obtain ⟨h1, h2, h3⟩ := h
+  cases a with
+  | tick dt =>
+    simp only [tstep] at hs ⊢
+    have hct : canTick P t dt = canTick P s dt := by
+      unfold canTick
+      rw [h1, h2]
+      congr 1
+      apply List.all_congr rfl
+      intro a
+      rw [(h3 a).2.2.1]
+    rw [hct]
+    split at hs
+    · cases hs
+      rename_i hc
+      rw [if_pos hc]
+      exact ⟨_, rfl, by simp only [h1]; exact ⟨rfl, h2, h3⟩⟩
+    · cases hs
+  | deliver k o =>
+    simp only [tstep] at hs ⊢
+    rw [← h2, ← h1]
+    split at hs
+    · cases hs
+    · rename_i pk hk
+      split at hs
+      · rename_i hlo
+        cases hs
+        rw [if_pos hlo]
+        exact ⟨_, rfl, actNode_sameSem ⟨h1, h2, h3⟩ _ _ _ _ _⟩
+      · cases hs
+  | fire p =>
+    simp only [tstep] at hs ⊢
+    rw [← (h3 p).2.2.1, ← h1, ← h2]
+    split at hs
+    · rename_i hc
+      cases hs
+      rw [if_pos hc]
+      exact ⟨_, rfl, actNode_sameSem ⟨h1, h2, h3⟩ _ _ _ _ _⟩
+    · cases hs
+  | start p =>
+    simp only [tstep] at hs ⊢
+    rw [← (h3 p).1, ← h2]
+    split at hs
+    · rename_i hc
+      cases hs
+      rw [if_pos hc]
+      exact ⟨_, rfl, actNode_sameSem ⟨h1, h2, h3⟩ _ _ _ _ _⟩
+    · cases hs
+
+theorem texec_sameSem {P : TParams} : ∀ (acts : List TAct) {s t s' : TState}, SameSem s t →
+    texec P s acts = some s' → ∃ t', texec P t acts = some t' ∧ SameSem s' t' := by
+  intro acts
+  induction acts with
+  | nil => intro s t s' h hs; simp only [texec] at hs; cases hs; exact ⟨t, rfl, h⟩
+  | cons a as ih =>
+    intro s t s' h hs
+    simp only [texec] at hs
+    split at hs
+    · cases hs
+    · rename_i s1 hs1
+      obtain ⟨t1, ht1, h1⟩ := tstep_sameSem h hs1
+      obtain ⟨t', ht', h'⟩ := ih h1 hs
+      exact ⟨t', by simp only [texec, ht1]; exact ht', h'⟩
+
+/-- the state with the history variables reset. -/
+def resetHist (s : TState) : TState :=
+  { s with log := [], node := fun p => { s.node p with rcvd := [] } }
+
+theorem resetHist_sameSem (s : TState) : SameSem s (resetHist s) :=
+  ⟨rfl, rfl, fun _ => ⟨rfl, rfl, rfl, rfl⟩⟩
+
+/-! ### The good round with prepared members, complete -/
+
+section Final
+variable {P : TParams} {timeout : Nat → Nat} {X : PRd} {C : Nat → NodeState} {old : Nat → List Msg}
+
+theorem poisedP_s1h {s : TState} (hy : PHyp P timeout X C old) (h : PoisedP P X C old s)
+    (hrc0 : ∀ p ∈ P.R, (s.node p).rcvd = []) (hlog0 : s.log = []) :
+    S1H P timeout X C old s (fun _ => []) := by
+  have hρ := hy.rho
+  refine ⟨poisedP_s1 hy h, fun p hp => by rw [hrc0 p hp]; rfl, ?_⟩
+  have : P.R.filter (fun a => enteredB X.ρ (s.node a)) = [] := by
+    rw [List.filter_eq_nil_iff]
+    intro a ha
+    obtain ⟨e, a1, _⟩ := h.mem a ha
+    simp only [enteredB, beq_iff_eq]
+    have := a1.mid.round; omega
+  rw [this, hlog0]; exact List.Perm.refl _
+
+/-- what a good round with prepared members guarantees about a state `s'` of an execution. -/
+def GoodRoundP (P : TParams) (X : PRd) (C : Nat → NodeState) (s' : TState) : Prop :=
+  (s'.now ≤ X.E + X.σ + P.hi ∧
+    ∀ p ∈ P.R, Quiet (s'.node p).outs ∧ (s'.node p).st.dead = false ∧ (s'.node p).st.qCommit = [] ∧
+      (s'.node p).st.round ≤ X.ρ) ∨
+  ∃ w Q, w ≠ 0 ∧ Q.Nodup ∧ Q.length = P.d.quorum ∧ (∀ a ∈ Q, a ∈ P.R) ∧
+    ValueSpec (rcsOf X.ρ C) Q (C X.l).inputValue w ∧
+    (∀ p ∈ P.R, noFault (s'.node p).outs = true ∧ (s'.node p).st.dead = false ∧
+      (s'.node p).st.round ≤ X.ρ ∧
+      ((s'.node p).st.qCommit ≠ [] → GoodOutcome w X.ρ ((s'.node p).st, (s'.node p).outs))) ∧
+    (X.E + X.σ + 4 * P.hi < s'.now →
+      ∀ p ∈ P.R, GoodOutcome w X.ρ ((s'.node p).st, (s'.node p).outs))
+
+theorem goodRoundP_sameSem {s' t' : TState} (h : SameSem s' t') (ht : GoodRoundP P X C t') :
+    GoodRoundP P X C s' := by
+  obtain ⟨h1, _, h3⟩ := h
+  unfold GoodRoundP at *
+  rw [h1]
+  rcases ht with ⟨a, b⟩ | ⟨w, Q, q1, q2, q3, q4, q5, q6, q7⟩
+  · left
+    refine ⟨a, fun p hp => ?_⟩
+    rw [(h3 p).1, (h3 p).2.1]; exact b p hp
+  · right
+    refine ⟨w, Q, q1, q2, q3, q4, q5, fun p hp => ?_, fun hl p hp => ?_⟩
+    · rw [(h3 p).1, (h3 p).2.1]; exact q6 p hp
+    · rw [(h3 p).1, (h3 p).2.1]; exact q7 hl p hp
+
+theorem good_round_reset (hy : PHyp P timeout X C old)
+    (hnd : ∀ p ∈ P.R, ∀ x ∈ old p, x.core.typ ≠ tDecided)
+    (hinpC : ∀ p ∈ P.R, (C p).inputValue = P.inp p) (hl : X.l ∈ P.R) (hq : P.d.quorum ≤ P.R.length)
+    (hfit : X.σ + 4 * P.hi < timeout X.ρ) (hfifo : X.B + 4 ≤ P.d.fifo)
+    {s : TState} (hp : PoisedP P X C old s) (hrc0 : ∀ p ∈ P.R, (s.node p).rcvd = [])
+    (hlog0 : s.log = []) (acts : List TAct) {s' : TState} (hs : texec P s acts = some s') :
+    GoodRoundP P X C s' := by
+  rcases s1h_exec hy hl hq (by omega) acts s _ (poisedP_s1h hy hp hrc0 hlog0) s' hs with
+    ⟨T', h'⟩ | ⟨a1, k, o, a2, s1, T1, e1, e2, e3, e4⟩
+  · left
+    refine ⟨s1_now_le hy h'.base hl hq, fun p hpR => ?_⟩
+    have := h'.base.safe hpR
+    exact ⟨this.1, this.2.1, this.2.2.1, this.2.2.2.1⟩
+  · right
+    have hs' := hs
+    rw [e1, texec_append a1 s s1 _ e2] at hs'
+    simp only [texec] at hs'
+    split at hs'
+    · cases hs'
+    · rename_i s2 hs2
+      obtain ⟨w, Q, q1, q2, q3, q4, q5, hR, hfired⟩ :=
+        fire_rinv hy e3 hnd hinpC hl hq (by omega) hfifo e4 hs2
+      have hyp := hyp_of hy hnd (by omega : X.σ < timeout X.ρ) hfifo w
+      have hwin : (tmOf X timeout).E + (tmOf X timeout).σ + 4 * P.hi < (tmOf X timeout).E' := by
+        show X.E + X.σ + 4 * P.hi < X.E + timeout X.ρ
+        omega
+      have hinv := TP.good_exec hyp (G := gOf X C old w) hl hq hwin a2 hR hfired hs'
+      refine ⟨w, Q, q1, q2, q3, q4, q5, fun p hpR => ?_, fun hlate p hpR => ?_⟩
+      · obtain ⟨h1, h2, h3, _⟩ := TP.outcome_of_rinv hinv hpR
+        refine ⟨h1, h2, ?_, h3⟩
+        cases hinv.mem p hpR with
+        | pend e a1 => rw [a1.mid.round]; show X.ρ - 1 ≤ X.ρ; omega
+        | act dl fd a1 => rw [a1.mid.round]; exact Nat.le_refl _
+        | dcd a1 => rw [a1.round]; exact Nat.le_refl _
+      · exact (TP.outcome_of_rinv hinv hpR).2.2.1 (TP.live hyp hl hq hinv hlate p hpR)
+
+/-- **the same from any start state** (the history variables are not read). -/
+theorem good_round_any (hy : PHyp P timeout X C old)
+    (hnd : ∀ p ∈ P.R, ∀ x ∈ old p, x.core.typ ≠ tDecided)
+    (hinpC : ∀ p ∈ P.R, (C p).inputValue = P.inp p) (hl : X.l ∈ P.R) (hq : P.d.quorum ≤ P.R.length)
+    (hfit : X.σ + 4 * P.hi < timeout X.ρ) (hfifo : X.B + 4 ≤ P.d.fifo)
+    {s : TState} (hp : PoisedP P X C old s) (acts : List TAct) {s' : TState}
+    (hs : texec P s acts = some s') : GoodRoundP P X C s' := by
+  obtain ⟨t', ht', hsame⟩ := texec_sameSem acts (resetHist_sameSem s) hs
+  apply goodRoundP_sameSem hsame
+  exact good_round_reset hy hnd hinpC hl hq hfit hfifo (s := resetHist s) ⟨hp.net, hp.mem⟩
+    (fun _ _ => rfl) rfl acts ht'
+
+end Final
+
+/-! ### Rotation: silent rounds — whatever prepared state they inherit — then the good round -/
+
+/-- what the rotation guarantees about a state `s'` of an execution: nobody faults or returns, and
+past the deadline `D` everybody has decided one value `w` in round `ρ`, where `w` is the value
+prepared in the highest prepared round among a quorum `Q` of the ROUND-CHANGEs for `ρ`, else the
+input of the leader `l`. -/
+def RotP (P : TParams) (C : Nat → NodeState) (ρ l D : Nat) (s' : TState) : Prop :=
+  (∀ p ∈ P.R, noFault (s'.node p).outs = true ∧ (s'.node p).st.dead = false) ∧
+  (D < s'.now → ∃ w Q, w ≠ 0 ∧ Q.Nodup ∧ Q.length = P.d.quorum ∧ (∀ a ∈ Q, a ∈ P.R) ∧
+    ValueSpec (rcsOf ρ C) Q (C l).inputValue w ∧
+    ∀ p ∈ P.R, GoodOutcome w ρ ((s'.node p).st, (s'.node p).outs))
+
+theorem rot_prepared_decides {P : TParams} {timeout : Nat → Nat} {C : Nat → NodeState}
+    (hq : P.d.quorum ≤ P.R.length) (hinp : ∀ p ∈ P.R, (C p).inputValue ≠ 0)
+    (hinpC : ∀ p ∈ P.R, (C p).inputValue = P.inp p) :
+    ∀ (m : Nat) (X : PRd) (old : Nat → List Msg), PHyp P timeout X C old →
+    (∀ p ∈ P.R, ∀ x ∈ old p, x.core.typ ≠ tDecided) →
+    (∀ k, k < m → P.d.leader (X.ρ + k) ∉ P.R) → P.d.leader (X.ρ + m) ∈ P.R →
+    (∀ k, k ≤ m → X.σ + 4 * P.hi < timeout (X.ρ + k)) → X.B + m + 4 ≤ P.d.fifo →
+    ∀ (s : TState), PoisedP P X C old s →
+    ∀ (acts : List TAct) (s' : TState), texec P s acts = some s' →
+      RotP P C (X.ρ + m) (P.d.leader (X.ρ + m))
+        (X.E + sumTimeouts timeout X.ρ m + X.σ + 4 * P.hi) s' := by
+  intro m
+  induction m with
+  | zero =>
+    intro X old hy hnd _ hl hfit hfifo s hp acts s' hs
+    have hl' : X.l ∈ P.R := by rw [← hy.lead]; exact hl
+    have hg := good_round_any hy hnd hinpC hl' hq (hfit 0 (Nat.le_refl _)) (by omega) hp acts hs
+    rcases hg with ⟨a, b⟩ | ⟨w, Q, q1, q2, q3, q4, q5, q6, q7⟩
+    · refine ⟨fun p hp' => ⟨(b p hp').1.1, (b p hp').2.1⟩, fun hlate => ?_⟩
+      simp only [sumTimeouts] at hlate
+      omega
+    · refine ⟨fun p hp' => ⟨(q6 p hp').1, (q6 p hp').2.1⟩, fun hlate => ?_⟩
+      simp only [sumTimeouts, Nat.add_zero] at hlate
+      show ∃ w Q, w ≠ 0 ∧ Q.Nodup ∧ Q.length = P.d.quorum ∧ (∀ a ∈ Q, a ∈ P.R) ∧
+        ValueSpec (rcsOf X.ρ C) Q (C (P.d.leader X.ρ)).inputValue w ∧
+        ∀ p ∈ P.R, GoodOutcome w X.ρ ((s'.node p).st, (s'.node p).outs)
+      rw [hy.lead]
+      exact ⟨w, Q, q1, q2, q3, q4, q5, q7 hlate⟩
+  | succ m ih =>
+    intro X old hy hnd hsil hl hfit hfifo s hp acts s' hs
+    have hsil0 : X.l ∉ P.R := by rw [← hy.lead]; exact hsil 0 (by omega)
+    have hne : ∃ p, p ∈ P.R := by
+      have := quorum_pos P.d hy.n1
+      cases hR : P.R with
+      | nil => rw [hR] at hq; simp at hq; omega
+      | cons x xs => exact ⟨x, List.mem_cons_self⟩
+    obtain ⟨p0, hp0⟩ := hne
+    have hshift := sumTimeouts_shift timeout X.ρ m
+    have hfit0 := hfit 0 (by omega)
+    simp only [Nat.add_zero] at hfit0
+    rcases s1_silent_split hy hsil0 acts s _ (poisedP_s1 hy hp) s' hs with
+      ⟨T', h'⟩ | ⟨a1, a2, s1, T1, e1, e2, e3, e4, e5⟩
+    · refine ⟨fun p hp' => ⟨(h'.safe hp').1.1, (h'.safe hp').2.1⟩, fun hlate => ?_⟩
+      have := s1_silent_now_le h' hp0
+      omega
+    · have hy' := phyp_next hy e4 (l' := P.d.leader (X.ρ + 1)) rfl (fun h => hinp _ h) (by omega)
+      have hp' := poisedP_next e4 (by omega) (P.d.leader (X.ρ + 1))
+      have hnd' : ∀ p ∈ P.R, ∀ x ∈ oldNext X C old T1 p, x.core.typ ≠ tDecided := by
+        intro p hpR x hx
+        rcases List.mem_append.mp hx with hx | hx
+        · exact hnd p hpR x hx
+        · obtain ⟨b, _, rfl⟩ := List.mem_map.mp hx
+          simp [rcsOf, rcOfState, tRoundChange, tDecided]
+      have := ih (X.next timeout (P.d.leader (X.ρ + 1))) _ hy' hnd'
+          (fun k hk => by
+            show P.d.leader (X.ρ + 1 + k) ∉ P.R
+            rw [show X.ρ + 1 + k = X.ρ + (k + 1) by omega]; exact hsil (k + 1) (by omega))
+          (by show P.d.leader (X.ρ + 1 + m) ∈ P.R
+              rw [show X.ρ + 1 + m = X.ρ + (m + 1) by omega]; exact hl)
+          (fun k hk => by
+            show X.σ + 4 * P.hi < timeout (X.ρ + 1 + k)
+            rw [show X.ρ + 1 + k = X.ρ + (k + 1) by omega]; exact hfit (k + 1) (by omega))
+          (by show X.B + 1 + m + 4 ≤ P.d.fifo; omega) s1 hp' a2 s' e3
+      have e : (X.next timeout (P.d.leader (X.ρ + 1))).ρ + m = X.ρ + (m + 1) := by
+        show X.ρ + 1 + m = X.ρ + (m + 1); omega
+      have eD : (X.next timeout (P.d.leader (X.ρ + 1))).E +
+          sumTimeouts timeout (X.next timeout (P.d.leader (X.ρ + 1))).ρ m +
+          (X.next timeout (P.d.leader (X.ρ + 1))).σ + 4 * P.hi =
+          X.E + sumTimeouts timeout X.ρ (m + 1) + X.σ + 4 * P.hi := by
+        show X.E + timeout X.ρ + sumTimeouts timeout (X.ρ + 1) m + X.σ + 4 * P.hi = _
+        omega
+      rw [e, eD] at this
+      exact this
+
+/-- every delivered message sits in the FIFO of its source. -/
+theorem bufIs_mem {buf : List (Nat × List Msg)} {L : List Msg} (h : BufIs buf L) {x : Msg} (hx : x ∈ L) :
+    ∃ e ∈ buf, x ∈ e.2 := by
+  obtain ⟨_, hent, hkeys⟩ := h
+  obtain ⟨e, he, hsrc⟩ := List.mem_map.mp (hkeys x hx)
+  refine ⟨e, he, ?_⟩
+  rw [hent e he, List.mem_filter]
+  exact ⟨hx, by simp [hsrc]⟩
 
 end CharonV.Qbft
